@@ -4,11 +4,18 @@ Decided: (a) formulating an aligned model cannot fail on an unguarded ``remove``
 (R-GUARD); (b) the alignment sums run over the spin range of the rotated state
 (R-WIRING); the loop of ``create_spin_range`` runs -s .. s in unit steps (R-RANGE).
 
-The rules about what a function COMPUTES (DPD summand / wiring / generator, the walk of the
-axis-angle chain, the arguments of the Wigner rotation) are judged on the values of sa/symex.py
-(symbolic execution: temporaries, unpacking, helper functions, keyword arguments, unrolled tables,
-comprehensions, while loops and recursion give the same value as the original spelling); a value the
-executor cannot follow is an ANALYSIS-ERROR, never a pass or a violation.
+Every rule about what a function COMPUTES (DPD summand / wiring / generator, the sum over the topology groups, the product
+of the rotation chains, the walk of the axis-angle chain, the arguments of the Wigner rotation, the Wigner angle table, the
+boost chain) is judged on the values of sa/symex.py: temporaries, unpacking, helper functions / methods / closures /
+partials, keyword arguments, unrolled tables, comprehensions / map / reduce / chain, accumulators passed down, result
+objects, while loops and recursion give the same value as the original spelling.  Loop-heavy functions (the boost chain,
+its ids, the rotation chain) are additionally evaluated on small CONCRETE instances (SymEx stubs + unroll), which does
+not depend on the spelling of the loop at all.
+
+THREE-VALUED verdicts (class ``Judge``): an obligation that holds -> ok; an obligation that is broken in a value that
+was followed completely down to known building blocks (``symex.not_followed``) and in a way the rule names (a wrong
+argument, a missing factor, a dropped element, a condition) -> violation; a shape the rule cannot interpret or a value
+the executor could not follow -> ANALYSIS-ERROR.  Never "pattern not matched => violation".
 """
 
 from __future__ import annotations
@@ -20,20 +27,46 @@ from ..dataflow import RD
 from ..inline import Inliner
 from ..loader import AnalysisError, FuncInfo, Tree, ancestors, unparse, walk_function
 from ..report import Check
-from ..symex import NONE, SymEx, alternatives, calls_of, cases, func_name, is_const, show, show_pc, subst, subterms
+from ..symex import (NONE, SymEx, addends, alternatives, as_number, atomic_tests, calls_of, cases, decision_table, factors, func_name, is_const, not_followed, show,
+                     show_pc, subst, subterms, unwrap)
 
 PID = "C05"
 
-# `.remove(x)` sites whose membership is a structural invariant (read and confirmed)
+def _failclosed(fn):
+    """An unexpected failure of the analysis itself (not of the analysed code) is an ANALYSIS-ERROR of that rule group
+    only: neither a pass nor a crash of the whole check."""
+    import functools
+
+    @functools.wraps(fn)
+    def guarded(ctx: Check, tree: Tree):
+        try:
+            return fn(ctx, tree)
+        except AnalysisError:
+            raise
+        except RecursionError as exc:
+            raise AnalysisError(f"analysis too deep ({exc!r})") from exc
+        except Exception as exc:  # noqa: BLE001
+            raise AnalysisError(f"internal error of the rule group ({exc!r}): cannot decide") from exc
+
+    return guarded
+
+
+# `.remove(x)` sites whose membership is a structural invariant (read and confirmed): function -> (what the element must
+# derive from, what the receiver must derive from, why the element is always present)
 INVARIANT_REMOVES = {
-    ("ampform.helicity.decay::get_sibling_state_id", "state_id"): "state_id (the function's parameter) is by construction one of the outgoing edges of "
-    "its own originating node (edge_ids = get_edge_ids_outgoing_from_node(parent node of state_id))",
-    ("ampform.kinematics.lorentz::__get_boost_chain_ids", "next(iter(topology.incoming_edge_ids))"): "list_decay_chain_ids walks up to the "
-    "incoming edge, so the initial state id is always the last element of the chain",
+    "ampform.helicity.decay::get_sibling_state_id": (
+        "<parameter>", ("get_edge_ids_outgoing_from_node(", "originating_node_id"),
+        "state_id (the function's parameter) is by construction one of the outgoing edges of "
+        "its own originating node (edge_ids = get_edge_ids_outgoing_from_node(parent node of state_id))"),
+    "ampform.kinematics.lorentz::__get_boost_chain_ids": (
+        "incoming_edge_ids", ("list_decay_chain_ids(",),
+        "list_decay_chain_ids walks up to the "
+        "incoming edge, so the initial state id is always the last element of the chain"),
 }
 
 ROTATION = "ampform.helicity.align.axisangle::formulate_helicity_rotation"
 SPIN_RANGE = "ampform.helicity.align._spin::create_spin_range"
+COPIES = {"list", "set", "tuple", "frozenset", "sorted", "iter"}
 
 
 def _conjuncts(test: ast.AST) -> list[ast.AST]:
@@ -45,19 +78,105 @@ def _conjuncts(test: ast.AST) -> list[ast.AST]:
     return [test]
 
 
-def remove_is_guarded(call: ast.Call) -> str | None:
-    """Reason if ``recv.remove(arg)`` is protected by a membership test or a handler."""
-    recv = unparse(call.func.value)
-    arg = unparse(call.args[0]) if call.args else ""
+def _negated_conjuncts(test: ast.AST) -> list[ast.AST]:
+    """What holds when ``test`` is false, as a list of tests (De Morgan for `or`, `not x`, negated comparisons)."""
+    if isinstance(test, ast.BoolOp) and isinstance(test.op, ast.Or):
+        out = []
+        for v in test.values:
+            out.extend(_negated_conjuncts(v))
+        return out
+    if isinstance(test, ast.UnaryOp) and isinstance(test.op, ast.Not):
+        return _conjuncts(test.operand)
+    if isinstance(test, ast.Compare) and len(test.ops) == 1:
+        flip = {ast.NotIn: ast.In, ast.In: ast.NotIn, ast.Eq: ast.NotEq, ast.NotEq: ast.Eq, ast.Lt: ast.GtE, ast.GtE: ast.Lt, ast.Gt: ast.LtE, ast.LtE: ast.Gt, ast.Is: ast.IsNot, ast.IsNot: ast.Is}
+        op = flip.get(type(test.ops[0]))
+        if op is not None:
+            return [ast.copy_location(ast.Compare(left=test.left, ops=[op()], comparators=test.comparators), test)]
+    return [ast.copy_location(ast.UnaryOp(op=ast.Not(), operand=test), test)]
+
+
+def _is_recv(node: ast.AST, recv: str) -> bool:
+    """``node`` has the elements of the receiver: the receiver itself or a copy / view of it."""
+    for _ in range(3):
+        if unparse(node) == recv:
+            return True
+        if isinstance(node, ast.Call) and isinstance(node.func, ast.Name) and node.func.id in COPIES and len(node.args) == 1 and not node.keywords:
+            node = node.args[0]
+        elif isinstance(node, ast.Call) and isinstance(node.func, ast.Attribute) and node.func.attr in {"copy", "keys"} and not node.args:
+            node = node.func.value
+        elif isinstance(node, ast.Subscript) and isinstance(node.slice, ast.Slice) and node.slice.lower is None and node.slice.upper is None and node.slice.step is None:
+            node = node.value
+        else:
+            return False
+    return False
+
+
+def _mentions(node: ast.AST, recv: str, elem: ast.AST) -> bool:
+    names = {n.id for n in ast.walk(elem) if isinstance(n, ast.Name)}
+    head = recv.split(".")[0].split("[")[0]
+    for n in ast.walk(node):
+        if isinstance(n, ast.Name) and (n.id == head or n.id in names):
+            return True
+        if isinstance(n, ast.Constant) and isinstance(elem, ast.Constant) and type(n.value) is type(elem.value) and n.value == elem.value and not names:
+            return True
+    return False
+
+
+def _guard_strength(c: ast.AST, recv: str, elem: ast.AST) -> str:
+    """What one test that is known to hold says about `elem in recv`: "sufficient", "insufficient" (understood, does not
+    imply membership), "irrelevant" (about something else) or "unknown" (mentions receiver / element in a way that is
+    not interpreted)."""
+    if isinstance(c, ast.BoolOp) and isinstance(c.op, ast.Or):
+        kinds = [_guard_strength(v, recv, elem) for v in c.values]
+        if all(k == "sufficient" for k in kinds):
+            return "sufficient"
+        return "unknown" if "unknown" in kinds else "insufficient" if any(k in {"insufficient", "sufficient"} for k in kinds) else "irrelevant"
+    if isinstance(c, ast.Compare) and len(c.ops) == 1:
+        op, left, right = c.ops[0], c.left, c.comparators[0]
+        if isinstance(op, ast.In) and _same_value(left, elem):
+            return "sufficient" if _is_recv(right, recv) else ("unknown" if _mentions(right, recv, ast.Constant(value=None)) else "insufficient")
+        count = left if isinstance(left, ast.Call) and isinstance(left.func, ast.Attribute) and left.func.attr == "count" and _is_recv(left.func.value, recv) and len(left.args) == 1 and _same_value(left.args[0], elem) else None
+        if count is not None and isinstance(right, ast.Constant) and isinstance(right.value, int):
+            if (isinstance(op, ast.Gt) and right.value >= 0) or (isinstance(op, ast.GtE) and right.value >= 1) or (isinstance(op, ast.NotEq) and right.value == 0) or (isinstance(op, ast.Eq) and right.value >= 1):
+                return "sufficient"
+            return "insufficient"
+        for a, b in ((left, right), (right, left)):
+            if isinstance(a, ast.Call) and isinstance(a.func, ast.Name) and a.func.id == "len" and len(a.args) == 1 and _is_recv(a.args[0], recv) and isinstance(b, ast.Constant):
+                return "insufficient"  # a size says nothing about one particular element
+        if isinstance(right, ast.Constant) and isinstance(left, (ast.Name, ast.Constant)) and not isinstance(op, (ast.In, ast.NotIn)) and _mentions(left, "\0", elem) and not _mentions(left, recv, ast.Constant(value=None)):
+            return "insufficient"  # a comparison of the element with a literal
+    if isinstance(c, ast.Call) and isinstance(c.func, ast.Attribute) and c.func.attr == "count" and _is_recv(c.func.value, recv) and len(c.args) == 1 and _same_value(c.args[0], elem):
+        return "sufficient"
+    if isinstance(c, ast.Call) and isinstance(c.func, ast.Name) and c.func.id == "any" and len(c.args) == 1 and isinstance(c.args[0], (ast.GeneratorExp, ast.ListComp)):
+        g = c.args[0]
+        if len(g.generators) == 1 and not g.generators[0].ifs and _is_recv(g.generators[0].iter, recv) and isinstance(g.elt, ast.Compare) and len(g.elt.ops) == 1 and isinstance(g.elt.ops[0], ast.Eq):
+            sides = [g.elt.left, g.elt.comparators[0]]
+            tgt = unparse(g.generators[0].target)
+            if any(unparse(s) == tgt for s in sides) and any(_same_value(s, elem) for s in sides):
+                return "sufficient"
+    if unparse(c) == recv:
+        return "insufficient"  # `if xs:` - not empty, not more
+    if not _mentions(c, recv, elem):
+        return "irrelevant"
+    return "unknown"
+
+
+def remove_is_guarded(call: ast.Call, recv: str | None = None, elem: ast.AST | None = None) -> tuple[str | None, list[str]]:
+    """(reason why ``recv.remove(arg)`` cannot raise - a dominating membership test or a handler -, tests around the call
+    that mention receiver / element but were not understood).  With ``recv`` / ``elem`` given: the same question for that
+    receiver text and element at the position of ``call`` (a call of a helper that does the removal)."""
+    recv = recv if recv is not None else unparse(call.func.value)
+    elem = elem if elem is not None else call.args[0]
     child = call
     enclosing = next((a for a in ancestors(call) if isinstance(a, (ast.FunctionDef, ast.AsyncFunctionDef))), None)
     inl = Inliner(enclosing) if enclosing is not None else None
+    unknown: list[str] = []
 
-    def through_temporaries(test: ast.AST) -> list[ast.AST]:
-        """conjuncts of a test; a conjunct that is a local name bound once (`has_zero = 0.0 in xs`) counts as its value,
-        provided the receiver is not modified in between (the value of the test is then still true at the call)"""
+    def through_temporaries(tests: list[ast.AST]) -> list[ast.AST]:
+        """a test that is a local name bound once (`has_zero = 0.0 in xs`) counts as its value, provided the receiver
+        is not modified in between (the value of the test is then still true at the call)"""
         out = []
-        for c in _conjuncts(test):
+        for c in tests:
             if isinstance(c, ast.Name) and inl is not None:
                 d = inl.single_def(c)
                 if d is not None and d.kind == "assign" and d.index is None and isinstance(d.value, ast.AST) and not _modified_between(enclosing, d.node, call, recv):
@@ -66,39 +185,84 @@ def remove_is_guarded(call: ast.Call) -> str | None:
             out.append(c)
         return out
 
+    def judge(tests: list[ast.AST], how: str) -> str | None:
+        for c in through_temporaries(tests):
+            kind = _guard_strength(c, recv, elem)
+            if kind == "sufficient":
+                return f"{how} `{unparse(c)}`"
+            if kind == "unknown":
+                unknown.append(unparse(c)[:60])
+        return None
+
+    recv_node = call.func.value if isinstance(call.func, ast.Attribute) else None
+    recv_alts = {recv}
+    if recv_node is not None and inl is not None:
+        try:
+            recv_alts.add(unparse(inl.expr(recv_node)))
+        except Exception:  # noqa: BLE001
+            pass
+
+    def iterates_receiver(target: ast.AST, it: ast.AST) -> bool:
+        """`for <elem> in <receiver or a copy of it>`: the element is taken from the receiver"""
+        if not _same_value(target, elem):
+            return False
+        for r in recv_alts:
+            if _is_recv(it, r):  # for x in xs / list(xs) / xs[:] ...: xs.remove(x)
+                return True
+            try:
+                if _is_recv(ast.parse(r, mode="eval").body, unparse(it)):  # for x in xs: sorted(xs).index(x)
+                    return True
+            except SyntaxError:
+                pass
+        return False
+
     for anc in ancestors(call):
-        if isinstance(anc, ast.If) and any(child is s or _contains(s, child) for s in anc.body):
-            for c in through_temporaries(anc.test):
-                if isinstance(c, ast.Compare) and len(c.ops) == 1 and isinstance(c.ops[0], ast.In):
-                    if _same_value(c.left, call.args[0]) and unparse(c.comparators[0]) == recv:
-                        return f"dominated by `{unparse(c)}`"
-                if isinstance(c, ast.Call) and isinstance(c.func, ast.Attribute) and c.func.attr == "count" and unparse(c.func.value) == recv:
-                    return f"dominated by `{unparse(c)}`"
-        if isinstance(anc, ast.If) and any(child is s or _contains(s, child) for s in anc.orelse):
-            for c in [anc.test]:
-                if isinstance(c, ast.Compare) and len(c.ops) == 1 and isinstance(c.ops[0], ast.NotIn):
-                    if _same_value(c.left, call.args[0]) and unparse(c.comparators[0]) == recv:
-                        return f"else-branch of `{unparse(c)}`"
-        if isinstance(anc, ast.Try) and any(child is s or _contains(s, child) for s in anc.body):
+        inside = lambda stmts: any(child is s or _contains(s, child) for s in stmts)  # noqa: E731
+        if isinstance(anc, (ast.For, ast.AsyncFor)) and inside(anc.body) and iterates_receiver(anc.target, anc.iter):
+            return f"the element is taken from the receiver (`for {unparse(anc.target)} in {unparse(anc.iter)}`)", unknown
+        if isinstance(anc, (ast.ListComp, ast.SetComp, ast.GeneratorExp, ast.DictComp)):
+            for g in anc.generators:
+                if iterates_receiver(g.target, g.iter):
+                    return f"the element is taken from the receiver (`for {unparse(g.target)} in {unparse(g.iter)}`)", unknown
+        if isinstance(anc, (ast.If, ast.While)) and inside(anc.body) and not _modified_between(enclosing, anc.test, call, recv):
+            r = judge(_conjuncts(anc.test), "dominated by")
+            if r:
+                return r, unknown
+        if isinstance(anc, ast.If) and inside(anc.orelse):
+            r = judge(_negated_conjuncts(anc.test), "else-branch: holds")
+            if r:
+                return r, unknown
+        if isinstance(anc, ast.IfExp) and (child is anc.body or child is anc.orelse):
+            r = judge(_conjuncts(anc.test) if child is anc.body else _negated_conjuncts(anc.test), "selected by")
+            if r:
+                return r, unknown
+        if isinstance(anc, ast.BoolOp) and isinstance(anc.op, ast.And) and child in anc.values:
+            r = judge([c for v in anc.values[: anc.values.index(child)] for c in _conjuncts(v)], "short-circuit after")
+            if r:
+                return r, unknown
+        if isinstance(anc, ast.Try) and inside(anc.body):
             for h in anc.handlers:
                 names = unparse(h.type) if h.type is not None else "BaseException"
                 if any(n in names for n in ("ValueError", "KeyError", "Exception", "BaseException")):
-                    return f"inside try/except {names}"
-        if isinstance(anc, (ast.FunctionDef, ast.AsyncFunctionDef)):
-            # an earlier `if arg not in recv: return/raise/continue` in the same block
+                    return f"inside try/except {names}", unknown
+        if isinstance(anc, (ast.With, ast.AsyncWith)) and inside(anc.body):
+            for item in anc.items:
+                e = item.context_expr
+                if isinstance(e, ast.Call) and unparse(e.func).split(".")[-1] == "suppress" and any(n in unparse(a) for a in e.args for n in ("ValueError", "KeyError", "Exception", "BaseException")):
+                    return f"inside `with {unparse(e)}`", unknown
+        if isinstance(anc, (ast.FunctionDef, ast.AsyncFunctionDef, ast.Lambda)):
             break
+        # early-exit guards in the preceding statements of every enclosing block
+        blk = _enclosing_block(child)
+        if blk is not None and blk[0] is not None:
+            body, idx = blk
+            for st in body[:idx]:
+                if isinstance(st, ast.If) and st.body and isinstance(st.body[-1], (ast.Return, ast.Raise, ast.Continue, ast.Break)) and not st.orelse and not _modified_between(enclosing, st, call, recv):
+                    r = judge(_negated_conjuncts(st.test), "early exit unless")
+                    if r:
+                        return r, unknown
         child = anc
-    # early-exit guard in a preceding statement of the same block
-    blk = _enclosing_block(call)
-    if blk is not None:
-        body, idx = blk
-        for st in body[:idx]:
-            if isinstance(st, ast.If) and st.body and isinstance(st.body[-1], (ast.Return, ast.Raise, ast.Continue, ast.Break)):
-                c = st.test
-                if isinstance(c, ast.Compare) and len(c.ops) == 1 and isinstance(c.ops[0], ast.NotIn):
-                    if _same_value(c.left, call.args[0]) and unparse(c.comparators[0]) == recv:
-                        return f"early exit on `{unparse(c)}`"
-    return None
+    return None, unknown
 
 
 def _modified_between(fn: ast.AST, start: ast.AST, end: ast.AST, recv: str) -> bool:
@@ -117,7 +281,7 @@ def _modified_between(fn: ast.AST, start: ast.AST, end: ast.AST, recv: str) -> b
 
 def _same_value(a: ast.AST, b: ast.AST) -> bool:
     if isinstance(a, ast.Constant) and isinstance(b, ast.Constant):
-        return a.value == b.value
+        return a.value == b.value and type(a.value) in (type(b.value), int, float) and type(b.value) in (type(a.value), int, float)
     return unparse(a) == unparse(b)
 
 
@@ -126,6 +290,7 @@ def _contains(root: ast.AST, node: ast.AST) -> bool:
 
 
 def _enclosing_block(node: ast.AST):
+    """(statement list, index) of the statement that contains ``node`` (or is it)."""
     child = node
     for anc in ancestors(node):
         for fld in ("body", "orelse", "finalbody"):
@@ -134,42 +299,186 @@ def _enclosing_block(node: ast.AST):
                 for i, st in enumerate(body):
                     if st is child:
                         return body, i
+        for h in getattr(anc, "handlers", []) or []:
+            for i, st in enumerate(h.body):
+                if st is child:
+                    return h.body, i
         child = anc
     return None
 
 
-def _raising_lookup(node: ast.AST) -> str | None:
-    """`recv.remove(x)` / `recv.index(x)`: both raise (ValueError / KeyError) when x is absent."""
+def _raising_lookup(tree: Tree, node: ast.AST, fn: FuncInfo | None) -> str | None:
+    """`recv.remove(x)` / `recv.index(x)` of a container: both raise (ValueError / KeyError) when x is absent.  A call
+    that resolves to a function (`os.remove(path)` deletes a file, `operator.index`) is no container method."""
     if isinstance(node, ast.Call) and isinstance(node.func, ast.Attribute) and node.func.attr in {"remove", "index"} and len(node.args) == 1 and not node.keywords:
+        try:
+            target = tree.callee(node, fn)
+        except Exception:  # noqa: BLE001
+            target = None
+        if target is not None and target not in tree.funcs and "::" not in target and "." in target:
+            return None  # attribute of an imported module / class of a library: a function, not a method of a local container
         return node.func.attr
     return None
 
 
+def _literal_member(tree: Tree, fn: FuncInfo, node: ast.Call) -> str | None:
+    """A literal element looked up in a literal table (a module-level / local tuple, list or string constant that is
+    bound once and never modified): membership is decided by evaluation of the literals."""
+    elem, recv = node.args[0], node.func.value
+    if not isinstance(elem, ast.Constant):
+        return None
+    table = None
+    if isinstance(recv, (ast.Tuple, ast.List, ast.Constant)):
+        table = recv
+    elif isinstance(recv, ast.Name):
+        mod = fn.module
+        if recv.id in getattr(mod, "toplevel", {}) and recv.id not in _local_store_names(fn.node):
+            d = mod.toplevel[recv.id]
+            if isinstance(d, (ast.Assign, ast.AnnAssign)) and isinstance(d.value, (ast.Tuple, ast.Constant)):
+                stores = [n for n in ast.walk(mod.tree) if isinstance(n, ast.Name) and n.id == recv.id and isinstance(n.ctx, (ast.Store, ast.Del))]
+                if len(stores) == 1:
+                    table = d.value
+    if table is None:
+        return None
+    try:
+        values = ast.literal_eval(table)
+        if ast.literal_eval(elem) in values:
+            return f"literal `{unparse(elem)}` is an element of the constant table `{unparse(table)[:50]}`"
+    except Exception:  # noqa: BLE001
+        return None
+    return None
+
+
+def _local_store_names(fn_node: ast.AST) -> set[str]:
+    return {n.id for n in ast.walk(fn_node) if isinstance(n, ast.Name) and isinstance(n.ctx, (ast.Store, ast.Del))} | {a.arg for a in ast.walk(fn_node) if isinstance(a, ast.arg)}
+
+
+def _invariant_holds(fn: FuncInfo, recv: ast.AST, elem: ast.AST) -> str | None:
+    """One of the recorded structural invariants (INVARIANT_REMOVES) applies to removing ``elem`` from ``recv`` inside
+    ``fn``: recognised by what element and receiver DERIVE from (reaching definitions), in whatever function the
+    statement lives after a refactoring."""
+    if not isinstance(recv, (ast.Name, ast.Attribute, ast.Subscript, ast.Call)):
+        return None
+    top = fn
+    while top.outer is not None:
+        top = top.outer
+    rd = RD(top.node)
+    try:
+        e_defs = rd.closure(rd.uses(elem))
+        r_defs = rd.closure(rd.uses(recv))
+    except Exception:  # noqa: BLE001
+        return None
+    etxt = " ".join([unparse(elem)] + [unparse(d.value) for d in e_defs if isinstance(d.value, ast.AST)])
+    rtxt = " ".join([unparse(recv)] + [unparse(d.value) for d in r_defs if isinstance(d.value, ast.AST)])
+    for elem_src, recv_src, why in INVARIANT_REMOVES.values():
+        e_ok = (bool(e_defs) and {d.kind for d in e_defs} == {"param"}) if elem_src == "<parameter>" else elem_src in etxt
+        if e_ok and all(t in rtxt for t in recv_src):
+            if elem_src == "<parameter>" and not all(d.name in rtxt for d in e_defs):
+                continue  # the receiver must be derived from the SAME parameter (its own originating node)
+            return why
+    return None
+
+
+def _private(fn: FuncInfo) -> bool:
+    return fn.outer is not None or (fn.name.startswith("_") and not (fn.name.startswith("__") and fn.name.endswith("__")))
+
+
+def _from_params(fn: FuncInfo, expr: ast.AST) -> bool:
+    """Does the value of ``expr`` derive from a parameter of ``fn`` (and is not a literal)?"""
+    if isinstance(expr, ast.Constant):
+        return False
+    top = fn
+    while top.outer is not None:
+        top = top.outer
+    rd = RD(top.node)
+    try:
+        return any(d.kind == "param" for d in rd.closure(rd.uses(expr)))
+    except Exception:  # noqa: BLE001
+        return False
+
+
+def _callers_guard(tree: Tree, fn: FuncInfo, node: ast.Call) -> tuple[bool, str] | None:
+    """`recv.remove(x)` where receiver and element are parameters of a private helper: do ALL callers establish
+    membership for what they pass?  None if the site is not of that kind."""
+    params = fn.params
+    recv, elem = node.func.value, node.args[0]
+    if not (isinstance(recv, ast.Name) and recv.id in params and ((isinstance(elem, ast.Name) and elem.id in params) or isinstance(elem, ast.Constant))):
+        return None
+    if not (fn.name.startswith("_") or fn.outer is not None) or fn.name.startswith("__") and fn.name.endswith("__"):
+        return None
+    rd = RD(fn.node)
+    if any(d.kind != "param" for d in rd.reaching(recv)) or (isinstance(elem, ast.Name) and any(d.kind != "param" for d in rd.reaching(elem))):
+        return None
+    sites = []
+    for q, other in tree.funcs.items():
+        for call, callee in tree.calls_in(other, nested=False):
+            if callee == fn.qual:
+                sites.append((other, call))
+    if not sites:
+        return None
+    for other, call in sites:
+        r_arg = _kwarg(call, fn, recv.id)
+        e_arg = _kwarg(call, fn, elem.id) if isinstance(elem, ast.Name) else elem
+        if r_arg is None or e_arg is None:
+            return False, f"call in {other.qual} could not be bound"
+        reason, unknown = remove_is_guarded(call, unparse(r_arg), e_arg)
+        if not reason:
+            reason = _invariant_holds(other, r_arg, e_arg)
+        if not reason and _private(other) and _from_params(other, e_arg):
+            # the caller is a private helper itself and passes on what it was given: the relation between element and
+            # receiver may be established further up - not followed
+            raise AnalysisError(f"{fn.qual}: `{unparse(node)[:50]}` - membership would have to be established by the callers of {other.qual}, which are not followed")
+        if not reason:
+            return False, f"the caller {other.qual} does not establish membership" + (f" (not understood: `{unknown[0]}`)" if unknown else "")
+    return True, f"every caller ({', '.join(sorted({o.qual.split('::')[-1] for o, _ in sites}))}) establishes membership before the call"
+
+
+@_failclosed
 def check_removes(ctx: Check, tree: Tree) -> None:
     """R-GUARD.  Instances = every `.remove(x)` (and `.index(x)`, which fails the same way and is what a
-    `remove` is usually rewritten to: `del l[l.index(x)]`) in the package.  The number of sites is not an
+    `remove` is usually rewritten to: `del l[l.index(x)]`) of a container in the package.  The number of sites is not an
     obligation: a site that was replaced by a construction that cannot raise (a filtering comprehension,
-    `discard`) simply is no instance any more.  What IS an obligation: no site of the source is skipped."""
+    `discard`) simply is no instance any more.  What IS an obligation: no site of the source is skipped.
+    Three-valued: a dominating membership test / handler / recorded invariant / guarding callers of a private helper
+    -> ok; only tests that are understood and do not imply membership (or none) -> violation; a test around the site
+    that mentions receiver or element and is not understood -> ANALYSIS-ERROR."""
     n = 0
     judged: set[int] = set()
+    undecided = []
     for q, fn in sorted(tree.funcs.items()):
         if not q.startswith("ampform"):
             continue
         for node in walk_function(fn.node, nested=False):
-            kind = _raising_lookup(node)
+            if isinstance(node, ast.Call) and isinstance(node.func, ast.Attribute) and node.func.attr in {"remove", "index"}:
+                judged.add(id(node))
+            kind = _raising_lookup(tree, node, fn)
             if kind is None:
                 continue
             n += 1
-            judged.add(id(node))
             recv, arg = unparse(node.func.value), unparse(node.args[0])
             what = f"{q}: {recv}.{kind}({arg})"
-            reason = remove_is_guarded(node)
+            reason, unknown = remove_is_guarded(node)
+            if not reason:
+                reason = _literal_member(tree, fn, node)
             if reason:
                 ctx.ok("R-GUARD", tree.loc(node), f"{what} - {reason}")
                 continue
-            inv = INVARIANT_REMOVES.get((q, unparse(Inliner(fn.node).expr(node.args[0]))))
-            if inv:
-                ctx.ok("R-GUARD", tree.loc(node), f"{what} - invariant: {inv}")
+            why = _invariant_holds(fn, node.func.value, node.args[0])
+            if why:
+                ctx.ok("R-GUARD", tree.loc(node), f"{what} - invariant: {why}")
+                continue
+            if q in INVARIANT_REMOVES and not unknown and _callers_guard(tree, fn, node) is None:
+                undecided.append(f"{what}: the recorded invariant of {q.split('::')[-1]} ({INVARIANT_REMOVES[q][2][:60]}...) no longer matches the code")
+                continue
+            via = _callers_guard(tree, fn, node)
+            if via is not None and via[0]:
+                ctx.ok("R-GUARD", tree.loc(node), f"{what} - {via[1]}")
+                continue
+            if unknown:
+                undecided.append(f"{what}: cannot decide whether `{unknown[0]}` implies that {arg} is in {recv}")
+                continue
+            if via is None and _private(fn) and _from_params(fn, node.args[0]) and q not in INVARIANT_REMOVES and any(c == q for o in tree.funcs.values() for _, c in tree.calls_in(o, nested=False)):
+                undecided.append(f"{what}: element and receiver come from the parameters of the private helper {fn.name}(): whether its callers guarantee membership is not followed")
                 continue
             guard = ""
             for anc in ancestors(node):
@@ -180,7 +489,7 @@ def check_removes(ctx: Check, tree: Tree) -> None:
                 "R-GUARD",
                 f"{q}::{recv}.{kind}({arg})",
                 tree.loc(node),
-                what + guard,
+                what + guard + (f"; {via[1]}" if via is not None else ""),
                 "list.remove/set.remove raise ValueError/KeyError when the element is absent; "
                 "create_spin_range(1/2, no_zero_spin=True) has no 0.0 -> an aligned model with a massless spin-1/2 particle cannot be formulated",
             )
@@ -191,10 +500,13 @@ def check_removes(ctx: Check, tree: Tree) -> None:
         if not name.startswith("ampform"):
             continue
         for node in ast.walk(mod.tree):
-            if _raising_lookup(node) and id(node) not in judged:
-                raise AnalysisError(f"`{unparse(node)[:60]}` at {tree.loc(node)} is outside every indexed function: not judged")
+            if isinstance(node, ast.Call) and isinstance(node.func, ast.Attribute) and node.func.attr in {"remove", "index"} and len(node.args) == 1 and not node.keywords and id(node) not in judged:
+                if _raising_lookup(tree, node, None) is not None:
+                    raise AnalysisError(f"`{unparse(node)[:60]}` at {tree.loc(node)} is outside every indexed function: not judged")
     if n == 0:
-        ctx.ok("R-GUARD", "src/ampform", "no `.remove(x)` / `.index(x)` call in the package: nothing can raise for an absent element")
+        ctx.ok("R-GUARD", "src/ampform", "no `.remove(x)` / `.index(x)` call of a container in the package: nothing can raise for an absent element")
+    if undecided:
+        raise AnalysisError("; ".join(undecided[:4]))
 
 
 def _kwarg(call: ast.Call, fn: FuncInfo, name: str) -> ast.AST | None:
@@ -209,206 +521,252 @@ def _kwarg(call: ast.Call, fn: FuncInfo, name: str) -> ast.AST | None:
     return None
 
 
-def check_wiring(ctx: Check, tree: Tree) -> None:
-    rot = tree.func(ROTATION)
-    rd = RD(rot.node)
-    inl = Inliner(rot.node, rd)
-    # inside formulate_helicity_rotation: pool of the PoolSum = create_spin_range(<p>, ...) and j = <p>
-    poolsum = [c for c in walk_function(rot.node) if isinstance(c, ast.Call) and tree.callee(c, rot) == "ampform.sympy::PoolSum"]
-    if len(poolsum) != 1:
-        raise AnalysisError(f"{ROTATION}: expected one PoolSum construction, found {len(poolsum)}")
-    ps = poolsum[0]
-    wd = [c for c in ast.walk(ps) if isinstance(c, ast.Call) and isinstance(c.func, ast.Attribute) and c.func.attr == "D"]
-    if len(wd) != 1:
-        raise AnalysisError(f"{ROTATION}: expected one Wigner.D call inside the PoolSum")
-    j_arg = next((k.value for k in wd[0].keywords if k.arg == "j"), wd[0].args[0] if wd[0].args else None)
-    mp_arg = next((k.value for k in wd[0].keywords if k.arg == "mp"), wd[0].args[2] if len(wd[0].args) > 2 else None)
-    j_params = {d.name for d in rd.closure(rd.uses(j_arg)) if d.kind == "param"}
-    # index tuple(s)
-    idx = [a for a in ps.args[1:]]
-    ok_pool = False
-    detail = None
-    for tup in idx:
-        t = inl.expr(tup)
-        if isinstance(t, ast.Tuple) and len(t.elts) == 2:
-            sym, pool = t.elts
-            range_calls = [c for c in ast.walk(pool) if isinstance(c, ast.Call) and isinstance(c.func, ast.Name) and c.func.id == "create_spin_range"]
-            if range_calls:
-                first = range_calls[0].args[0] if range_calls[0].args else next((k.value for k in range_calls[0].keywords if k.arg == "spin_magnitude"), None)
-                pool_params = {n.id for n in ast.walk(first) if isinstance(n, ast.Name)} if first is not None else set()
-                same_index = mp_arg is not None and unparse(sym) == unparse(inl.expr(mp_arg))
-                ok_pool = pool_params == j_params and len(j_params) == 1 and same_index
-                detail = {"pool_spin": sorted(pool_params), "wigner_j": sorted(j_params), "index_is_mp": same_index}
-    ctx.verdict(
-        ok_pool,
-        "R-WIRING",
-        f"{ROTATION}::pool-vs-j",
-        tree.loc(ps),
-        "formulate_helicity_rotation: PoolSum index pool = create_spin_range(s) of the same s that is j of the Wigner-D, summed index = mp",
-        detail,
-    )
-    # callers pass the spin / mass of the rotated state
-    n_calls = 0
-    for q, fn in sorted(tree.funcs.items()):
-        if not q.startswith("ampform"):
-            continue
-        for call, callee in tree.calls_in(fn, nested=False):
-            if callee != ROTATION:
-                continue
-            n_calls += 1
-            scope = tree.func_of(call) or fn
-            top = scope
-            while top.outer is not None:
-                top = top.outer
-            rd_top = RD(top.node)
-            cinl = Inliner(top.node, rd_top)
-            spin = _kwarg(call, rot, "spin_magnitude")
-            nz = _kwarg(call, rot, "no_zero_spin")
-            spin_txt = unparse(cinl.expr(spin)) if spin is not None else None
-            nz_txt = unparse(cinl.expr(nz)) if nz is not None else None
-            params = set(top.params)
-            ok = False
-            why = None
-            if spin_txt is None:
-                why = "spin_magnitude not passed"
-            else:
-                import re
-
-                m = re.fullmatch(r"(\w+)\.states\[(\w+)\]\.particle\.spin", spin_txt)
-                if not m or m.group(1) not in params or m.group(2) not in params:
-                    why = f"spin_magnitude = {spin_txt} is not <transition>.states[<rotated id>].particle.spin of the caller's parameters"
-                else:
-                    state = f"{m.group(1)}.states[{m.group(2)}]"
-                    if nz_txt is not None and nz_txt.replace(" ", "") not in {f"{state}.particle.mass==0.0", f"{state}.particle.mass==0"}:
-                        why = f"no_zero_spin = {nz_txt} is not the masslessness of the same state {state}"
-                    else:
-                        ok = True
-            ctx.verdict(
-                ok,
-                "R-WIRING",
-                f"{scope.qual}::call formulate_helicity_rotation::spin",
-                tree.loc(call),
-                f"{scope.qual} -> formulate_helicity_rotation(spin_magnitude={spin_txt}, no_zero_spin={nz_txt})",
-                why,
-            )
-    if n_calls < 2:
-        raise AnalysisError(f"only {n_calls} callers of formulate_helicity_rotation (2 confirmed)")
-
-
-def _strip_numeric_casts(txt: str) -> str:
-    return txt.replace("Decimal(", "").replace("float(", "").replace(")", "").replace("(", "").replace(" ", "")
-
-
-def _range_loop(tree: Tree, fn: FuncInfo, depth: int = 0):
-    """(function, name of the spin magnitude inside it, while loop) of the loop that generates the
-    projections: in create_spin_range itself or in a helper of the package it hands the spin magnitude to
-    (`list(_generate_projections(float(spin_magnitude)))`)."""
-    spin_param = fn.params[0]
-    loops = [n for n in walk_function(fn.node, nested=False) if isinstance(n, ast.While)]
-    if loops:
-        return fn, spin_param, loops[0]
-    if depth >= 2:
-        return None
-    rd = RD(fn.node)
-    inl = Inliner(fn.node, rd)
-    for call, callee in tree.calls_in(fn, nested=False):
-        target = tree.funcs.get(callee) if callee else None
-        if target is None or not callee.startswith("ampform") or target is fn:
-            continue
-        for p in target.params:
-            arg = _kwarg(call, target, p)
-            if arg is None or _strip_numeric_casts(unparse(inl.expr(arg))) != spin_param:
-                continue
-            # inside the helper, parameter p IS the spin magnitude (up to float()/Decimal(), which keep the value)
-            inner = _range_loop(tree, _as_first_param(target, p), depth + 1)
-            if inner is not None:
-                return inner
-        if any(isinstance(n, ast.While) for n in walk_function(target.node, nested=False)) and spin_param in {n.id for a in [*call.args, *[k.value for k in call.keywords]] for n in ast.walk(inl.expr(a)) if isinstance(n, ast.Name)}:
-            # the loop lives in a helper that receives something else than the spin magnitude itself
-            return fn, spin_param, call
+def _linear(v, x):
+    """(a, b) with v == a * x + b for number literals a, b (numeric conversions ignored), else None."""
+    v = _core(v)
+    if v == x or _core(v) == x:
+        return (1, 0)
+    n = as_number(v)
+    if n is not None:
+        return (0, n)
+    if v[0] == "unop" and v[1] == "-":
+        inner = _linear(v[2], x)
+        return None if inner is None else (-inner[0], -inner[1])
+    if v[0] == "binop" and v[1] in {"+", "-"}:
+        l, r = _linear(v[2], x), _linear(v[3], x)
+        if l is None or r is None:
+            return None
+        sign = 1 if v[1] == "+" else -1
+        return (l[0] + sign * r[0], l[1] + sign * r[1])
+    if v[0] == "mul" and len(v[1]) == 2:
+        for a, b in ((v[1][0], v[1][1]), (v[1][1], v[1][0])):
+            k, inner = as_number(a), _linear(b, x)
+            if k is not None and inner is not None:
+                return (k * inner[0], k * inner[1])
     return None
 
 
-def _as_first_param(fn: FuncInfo, p: str) -> FuncInfo:
-    """View of ``fn`` whose ``params[0]`` is ``p`` (the parameter that carries the spin magnitude)."""
+def _same_up_to_zero(v, head):
+    """Is ``v`` the loop variable ``head``, possibly with the normalisation `-0.0 -> 0.0` (a conditional value whose
+    alternatives are the variable itself or a literal zero under `variable == 0`)?"""
+    v = _core(v)
+    if v == head:
+        return True
+    if v[0] == "phi":
+        for pc, alt in v[1]:
+            alt = _core(alt)
+            if alt == head:
+                continue
+            zero = as_number(alt) == 0 or (is_const(alt, str) and alt[1].strip("-+0.") == "")
+            tested = any(t[0] == "cmp" and t[1] == "==" and head in (t[2], t[3]) and (as_number(t[3]) == 0 or as_number(t[2]) == 0) and o for t, o in pc)
+            if not (zero and tested):
+                return False
+        return True
+    return False
 
-    class _View(FuncInfo):
-        @property
-        def params(self):  # type: ignore[override]
-            base = FuncInfo.params.fget(self)
-            return [p] + [x for x in base if x != p]
 
-    return _View(fn.qual, fn.node, fn.module, fn.cls, fn.outer)
+def _affine(v) -> dict | None:
+    """{leaf: coefficient, None: constant} with v == sum(coefficient * leaf) + constant; numeric conversions (float, int,
+    round, Decimal, sp.Rational ...) are ignored, a leaf is anything that is not arithmetic.  None if not affine."""
+    v = _core(v)
+    while v[0] == "call" and v[1] in {("builtin", "round"), ("builtin", "int"), ("builtin", "float")} and len(v[2]) == 1 and not v[3]:
+        v = _core(v[2][0])
+    n = as_number(v)
+    if n is not None:
+        return {None: n}
+    if v[0] == "unop" and v[1] == "-":
+        inner = _affine(v[2])
+        return None if inner is None else {k: -c for k, c in inner.items()}
+    if v[0] == "binop" and v[1] in {"+", "-"}:
+        l, r = _affine(v[2]), _affine(v[3])
+        if l is None or r is None:
+            return None
+        out = dict(l)
+        for k, c in r.items():
+            out[k] = out.get(k, 0) + (c if v[1] == "+" else -c)
+        return out
+    if v[0] == "mul" and len(v[1]) == 2:
+        for a, b in ((v[1][0], v[1][1]), (v[1][1], v[1][0])):
+            k, inner = as_number(a), _affine(b)
+            if k is not None and inner is not None:
+                return {leaf: k * c for leaf, c in inner.items()}
+        return None
+    if v[0] in {"binop", "mul", "phi", "unknown"}:
+        return None
+    return {v: 1}
 
 
-def check_spin_range(ctx: Check, tree: Tree) -> None:
-    top = tree.func(SPIN_RANGE)
-    found = _range_loop(tree, top)
-    if found is None:
-        ctx.info("R-RANGE", tree.loc(top.node), "create_spin_range has no while loop any more: range shape not decided (informational)")
-        return
-    fn, spin_param, loop = found
-    if isinstance(loop, ast.Call):
-        ctx.violation("R-RANGE", f"{SPIN_RANGE}::while-loop", tree.loc(loop), f"create_spin_range: the projections are generated by `{unparse(loop)[:70]}`",
-                      [f"the helper does not receive the spin magnitude `{spin_param}` itself (only float()/Decimal() conversions keep -s..s)"])
-        return
-    rd = RD(fn.node)
+def _range_form(ctx: Check, tree: Tree, sx, value, spin, key: str, top: FuncInfo) -> bool:
+    """create_spin_range without a `while` loop: `[-s + k for k in range(int(2 * s) + 1)]` (comprehension, for loop, map).
+    True if the shape was recognised (and judged)."""
+    found = [x for x in subterms(value) if x[0] == "foreach" and x[1][0] == "each" and x[1][1][0] == "call" and x[1][1][1] == ("builtin", "range")]
+    found = list(dict.fromkeys(found))
+    if len({(x[1], unwrap(x)[2]) for x in found}) != 1:
+        return False
+    each = found[0][1]
+    _, pcs, elem = unwrap(found[0])
+    rng = each[1][2]
+    if each[1][3] or not 1 <= len(rng) <= 3:
+        return False
+    start = _affine(rng[0]) if len(rng) >= 2 else {None: 0}
+    stop = _affine(rng[1] if len(rng) >= 2 else rng[0])
+    step = _affine(rng[2]) if len(rng) == 3 else {None: 1}
+    e = _affine(elem)
+    if None in (start, stop, step, e) or set(step) != {None} or set(start) - {None} or not set(stop) <= {None, spin} or not set(e) <= {None, spin, each}:
+        return False
+    clean = lambda d: {k: c for k, c in d.items() if c != 0}  # noqa: E731
+    e, stop = clean(e), clean(stop)
+    first = {k: c for k, c in e.items() if k != each}
+    first[None] = first.get(None, 0) + e.get(each, 0) * start.get(None, 0)
+    n_minus_1 = {k: c for k, c in stop.items()}  # number of steps: (stop - start) / step - 1 further elements
     problems = []
-    test = loop.test
-    if not (isinstance(test, ast.Compare) and len(test.ops) == 1 and isinstance(test.left, ast.Name)):
-        ctx.info("R-RANGE", tree.loc(loop), "loop test shape not recognised: not decided")
+    if step[None] * e.get(each, 0) != 1:
+        problems.append(f"consecutive projections differ by {step[None] * e.get(each, 0)}, not by 1")
+    if clean(first) != {spin: -1}:
+        problems.append(f"the first projection is `{show(elem)[:50]}` at the start of the range, not -{spin[1]}")
+    if clean({None: n_minus_1.get(None, 0) - start.get(None, 0), spin: n_minus_1.get(spin, 0)}) != {None: 1, spin: 2} and step[None] == 1:
+        problems.append(f"the range has `{show(rng[-1] if len(rng) == 1 else rng[1])[:40]}` elements, not 2 * {spin[1]} + 1 (last projection is not +{spin[1]})")
+    if pcs:
+        problems.append(f"projections are left out (only under `{show_pc(pcs)[:50]}`)")
+    ctx.verdict(not problems, "R-RANGE", key, tree.loc(top.node), f"create_spin_range: -{spin[1]} + k for k in range(2 * {spin[1]} + 1)", problems or None)
+    return True
+
+
+@_failclosed
+def check_spin_range(ctx: Check, tree: Tree) -> None:
+    """R-RANGE: create_spin_range generates -s, -s+1, ..., +s.  Judged on the generic step of the loop that produces
+    the projections (sa/symex.py; the loop may live in create_spin_range or in a helper / generator it calls): the loop
+    variable starts at -s, the loop runs while variable <= s, every iteration contributes the variable unconditionally
+    and advances it by exactly 1."""
+    top = tree.func(SPIN_RANGE)
+    sx, value, _ = _symex(tree, SPIN_RANGE, inline_cached=True)
+    key = f"{SPIN_RANGE}::while-loop"
+    spin = ("param", top.params[0])
+    loops = [info for info in sx.loops.values() if info.kind == "while" and info.test is not None and info.test[0] == "cmp" and info.test[1] in {"<", "<=", ">", ">="}]
+    if not loops and _range_form(ctx, tree, sx, value, spin, key, top):
         return
-    var = test.left.id
-    if not isinstance(test.ops[0], ast.LtE):
-        problems.append(f"bound `{unparse(test)}` is not `<= s` (upper end +s dropped or overshot)")
-    bound_params = {d.name for d in rd.closure(rd.uses(test.comparators[0])) if d.kind == "param"}
-    if bound_params != {spin_param}:
-        problems.append(f"bound derives from {sorted(bound_params)} instead of {spin_param}")
+    if len(loops) != 1:
+        raise AnalysisError(f"{SPIN_RANGE}: the projections are not generated by one `while` loop ({len(loops)} found): the shape of the range is not decided")
+    info = loops[0]
+    judge = Judge(ctx, "check_spin_range", ())
+    problems = []
+    test = info.test
+    variables = [n for n in info.init if contains_value(test, info.head(n))]
+    if not (test[0] == "cmp" and test[1] in {"<", "<=", ">", ">="} and len(variables) == 1):
+        raise AnalysisError(f"{SPIN_RANGE}: loop test `{show(test)[:60]}` is not a comparison of one loop variable with a bound")
+    var = variables[0]
+    head = info.head(var)
+    op, left, right = test[1], test[2], test[3]
+    if _core(right) == head and _core(left) != head:
+        op, left, right = {"<": ">", "<=": ">=", ">": "<", ">=": "<="}[op], right, left
+    if _core(left) != head:
+        raise AnalysisError(f"{SPIN_RANGE}: loop test `{show(test)[:60]}` does not compare the loop variable itself")
+    bound = _linear(right, spin)
+    if bound is None:
+        other = _core(right)
+        if other[0] == "param" or as_number(other) is not None:
+            problems.append(f"bound derives from `{show(other)[:40]}` instead of {spin[1]}")
+        else:
+            judge.cannot(f"the bound `{show(right)[:40]}` of the loop")
+    elif op not in {"<", "<="}:
+        problems.append(f"the loop runs while `{show(test)[:60]}`, not while the projection is <= s")
+    elif bound == (1, 0) and op == "<":
+        problems.append(f"bound `{show(test)[:60]}` is not `<= s` (upper end +s dropped or overshot)")
+    elif bound != (1, 0) and not (op == "<" and bound == (1, 1)):  # `< s + 1` = `<= s` for unit steps from -s
+        problems.append(f"bound `{show(test)[:60]}` is not `<= s`: it derives from `{show(_core(right))[:40]}` instead of {spin[1]}")
     # initial value: -s
-    init = [d for d in rd.env_at[id(loop)].get(var, ())]
-    inl = Inliner(fn.node, rd)
-    for d in init:
-        txt = unparse(inl.expr(d.value)) if d.value is not None else "?"
-        core = _strip_numeric_casts(txt)
-        if core != f"-{spin_param}":
-            problems.append(f"start value `{txt}` is not -{spin_param}")
+    init = _linear(info.init[var], spin)
+    if init is None:
+        other = _core(info.init[var])
+        if other[0] == "param" or as_number(other) is not None or (other[0] == "unop" and _core(other[2])[0] == "param"):
+            problems.append(f"start value `{show(info.init[var])[:50]}` is not -{spin[1]}")
+        else:
+            judge.cannot(f"the start value `{show(info.init[var])[:50]}`")
+    elif init != (-1, 0):
+        problems.append(f"start value `{show(info.init[var])[:50]}` is not -{spin[1]}")
     # step
-    steps = [n for n in walk_function(loop) if isinstance(n, ast.AugAssign) and isinstance(n.target, ast.Name) and n.target.id == var]
-    if len(steps) != 1 or not isinstance(steps[0].op, ast.Add) or not (isinstance(steps[0].value, ast.Constant) and steps[0].value.value == 1):
-        problems.append(f"step `{unparse(steps[0]) if steps else '?'}` is not += 1")
+    end = info.end.get(var)
+    step = None
+    if end is not None and end[0] == "binop" and end[1] == "+":
+        for a, b in ((end[2], end[3]), (end[3], end[2])):
+            if as_number(b) is not None and _same_up_to_zero(a, head):
+                step = as_number(b)
+    if step is None:
+        if end is not None and end[0] == "binop" and not_followed(end) is None and as_number(end[3]) is not None:
+            problems.append(f"step `{show(end)[:50]}` is not += 1")
+        else:
+            judge.cannot(f"the loop variable continues with `{show(end)[:60] if end is not None else '?'}`")
+    elif step != 1:
+        problems.append(f"step `{show(end)[:50]}` is not += 1")
     # every iteration contributes its projection: an unconditional append / yield
-    appends = [n for n in walk_function(loop) if (isinstance(n, ast.Call) and isinstance(n.func, ast.Attribute) and n.func.attr == "append") or isinstance(n, ast.Yield)]
-    cond_append = [a for a in appends if any(isinstance(x, ast.If) for x in _ancestors_until(a, loop))]
-    if not appends or len(cond_append) == len(appends):
-        problems.append("no unconditional append of the projection in the loop body")
-    ctx.verdict(
-        not problems,
-        "R-RANGE",
-        f"{SPIN_RANGE}::while-loop",
-        tree.loc(loop),
-        f"create_spin_range: start -{spin_param}, `{unparse(test)}`, step +1, unconditional append",
-        problems or None,
-    )
-
-
-def _ancestors_until(node, stop):
-    for a in ancestors(node):
-        if a is stop:
-            return
-        yield a
+    body_pc = info.pc + (normal_value(test),)
+    contributions = []
+    for name, extra in info.extras.items():
+        for x in extra or ():
+            _, pcs, item = unwrap(x)
+            contributions.append((pcs, item))
+    for e in info.events:
+        if e[0] == "yield":
+            contributions.append((tuple(c for c in e[1] if c not in body_pc), e[2]))
+    mine = [(pcs, item) for pcs, item in contributions if _same_up_to_zero(item, head)]
+    if not mine:
+        if not contributions:
+            problems.append("no unconditional append of the projection in the loop body")
+        else:
+            judge.cannot(f"what the loop contributes (`{show(contributions[0][1])[:50]}`) is not the loop variable")
+    elif all(pcs for pcs, _ in mine):
+        problems.append(f"no unconditional append of the projection in the loop body (only under `{show_pc(mine[0][0])[:50]}`)")
+    elif not any(any(unwrap(x)[2] == item for x in subterms(value) if x[0] in {"foreach", "list"} or True) for pcs, item in mine if not pcs):
+        judge.cannot("the projections of the loop do not reach the result of create_spin_range")
+    if problems or not judge.undecided:
+        judge.decide(not problems, (), "R-RANGE", key, tree.loc(info.node),
+                     f"create_spin_range: start -{spin[1]}, `{unparse(info.node.test)}`, step +1, unconditional append", problems or None)
+    judge.finish()
 
 
 DPD_FN = "ampform.helicity.align.dpd::_formulate_aligned_amplitude"
 DPD_GEN = "ampform.helicity.align.dpd::_DPDAlignmentWignerGenerator"
+ZETA_Q = "ampform.kinematics.angles::formulate_zeta_angle"
+# package functions whose meaning the DPD rules know (results of other package functions that the symbolic execution
+# did not follow are "cannot decide", never a violation)
+DPD_KNOWN = (ZETA_Q, "get_outer_state_ids", "group_by_topology", "create_amplitude_base", "create_spin_projection_symbol",
+             "get_spectator_id", "_collect_outer_state_helicities", "ampform.sympy::PoolSum", DPD_GEN, DPD_FN)
 
 
-def _symex(tree: Tree, qual: str, atoms: frozenset = frozenset()):
+class Judge:
+    """Three-valued verdicts.  ``decide(ok, ...)``: the obligation holds -> ok; it does not hold and every value the
+    judgement rests on was followed down to known building blocks (``not_followed``) -> violation; otherwise the code
+    has a shape the rule cannot interpret -> collected and raised as ONE AnalysisError by ``finish()`` (the other
+    obligations of the group are still judged)."""
+
+    def __init__(self, ctx: Check, who: str, known: tuple = ()):
+        self.ctx, self.who, self.known, self.undecided = ctx, who, known, []
+
+    def decide(self, ok: bool, values, rule: str, key: str, where: str, what: str, detail=None) -> bool:
+        if not ok:
+            for v in values:
+                why = not_followed(v, self.known) if isinstance(v, tuple) else None
+                if why:
+                    self.cannot(f"`{key.split('::', 1)[-1]}` depends on {why}")
+                    return False
+        return self.ctx.verdict(ok, rule, key, where, what, detail)
+
+    def cannot(self, why: str) -> None:
+        if why not in self.undecided:
+            self.undecided.append(why)
+
+    def finish(self) -> None:
+        if self.undecided:
+            raise AnalysisError(f"{self.who}: cannot decide: " + "; ".join(self.undecided[:4]))
+
+
+def _symex(tree: Tree, qual: str, atoms: frozenset = frozenset(), inline_cached: bool = False):
     """(SymEx, result value, final state) of one function, computed once per tree."""
     cache = tree.__dict__.setdefault("_c05_symex", {})
-    key = (qual, atoms)
+    key = (qual, atoms, inline_cached)
     if key not in cache:
         fn = tree.func(qual)
-        sx = SymEx(tree, atoms=atoms)
+        sx = SymEx(tree, atoms=atoms, inline_cached=inline_cached)
         try:
             value, st = sx.run(fn)
         except AnalysisError:
@@ -429,29 +787,35 @@ def _require_known(where: str, *values) -> None:
 
 def _unwrap(item):
     """A list item without its ``foreach`` / ``when`` wrappers: (conditions, plain value)."""
-    pcs = ()
-    while isinstance(item, tuple) and item and item[0] in {"foreach", "when"}:
-        if item[0] == "when":
-            pcs += item[1]
-        item = item[2]
+    _, pcs, item = unwrap(item)
     return pcs, item
 
 
 def _item_indices(v) -> set:
-    return {x[2] for x in subterms(v) if x[0] == "item"}
+    """positions k of `k-th element of ...` in a value: unpacked names (``item``) and literal subscripts ``xs[k]``"""
+    return {x[2] for x in subterms(v) if x[0] == "item"} | {x[2][1] for x in subterms(v) if x[0] == "sub" and is_const(x[2], int) and x[1][0] in {"call", "param", "attr"}
+                                                              and not (x[1][0] == "attr" and x[1][2] in {"transitions", "states"})}
 
 
-def _is_generator_call(v) -> bool:
-    return isinstance(v, tuple) and v[0] == "call" and v[1][0] == "method" and v[1][1] == DPD_GEN + ".__call__"
+def _is_wigner_d(v) -> bool:
+    return isinstance(v, tuple) and v[0] == "call" and func_name(v).split(".")[-1] == "d" and "Rotation" in func_name(v)
 
 
 def _dpd_model(tree: Tree) -> dict:
-    """What _formulate_aligned_amplitude computes (sa/symex.py): the PoolSum call, its summand terms, its
-    index pairs.  Temporaries, helper functions, a loop over a table of rotations, a comprehension over the
-    topologies or generated index pairs all give the same values."""
+    """What _formulate_aligned_amplitude computes (sa/symex.py, everything of its module inlined - the Wigner-d generator
+    may be a class with __call__, an attrs class, a closure, a module function bound with functools.partial or plain
+    code): the PoolSum call, its summand terms, its index pairs and the angle definitions it hands out."""
     fn = tree.func(DPD_FN)
     sx, value, _ = _symex(tree, DPD_FN, frozenset({"_collect_outer_state_helicities", "get_outer_state_ids", "group_by_topology"}))
+    value = _flat(value)
     alts = alternatives(value)
+    fields = None
+    if len(alts) == 1 and sx.class_of_value(alts[0][1]) is not None and len(alts[0][1][2]) == 2 and not alts[0][1][3]:
+        # a small result object (NamedTuple / attrs / dataclass with two fields) instead of a pair: its fields in order
+        info = sx.ctor_fields(sx.class_of_value(alts[0][1]))
+        if info is not None and len(info[0]) == 2:
+            fields = list(info[0])
+            alts = [(alts[0][0], ("tuple", alts[0][1][2]))]
     if len(alts) != 1 or alts[0][1][0] != "tuple" or len(alts[0][1][1]) != 2:
         raise AnalysisError(f"{fn.qual}: does not return one pair (amplitude, angle definitions): `{show(value)[:80]}`")
     amp, defs = alts[0][1][1]
@@ -460,7 +824,31 @@ def _dpd_model(tree: Tree) -> dict:
     unknown = [x for x in subterms(amp) if x[0] in {"unknown", "carried", "carried-out"}]
     if unknown:
         raise AnalysisError(f"{fn.qual}: the amplitude depends on a value the symbolic execution cannot follow: {show(unknown[0])[:80]}")
-    return {"fn": fn, "sx": sx, "pool": amp, "summand": amp[2][0], "indices": amp[2][1:], "defs": defs}
+    indices = []
+    for pair in amp[2][1:]:
+        if not (pair[0] == "tuple" and len(pair[1]) == 2):
+            raise AnalysisError(f"{fn.qual}: PoolSum index shape changed: {show(pair)[:80]}")
+        indices.append(pair)
+    parts = addends(amp[2][0], sx)
+    if parts is None:
+        raise AnalysisError(f"{fn.qual}: PoolSum summand is `{show(amp[2][0])[:60]}`, not a sum of terms (sp.Add(*terms) / sum(terms) / an accumulation)")
+    start, items = parts
+    if as_number(start) != 0:
+        raise AnalysisError(f"{fn.qual}: the sum of the aligned amplitudes starts at `{show(start)[:40]}`, not at 0")
+    if any(unwrap(x)[2][0] == "star" for x in items):
+        raise AnalysisError(f"{fn.qual}: the summand terms `{show(next(x for x in items if unwrap(x)[2][0] == 'star'))[:60]}` are not collected in a local list")
+    if not items:
+        raise AnalysisError(f"{fn.qual}: no term reaches the PoolSum summand")
+    # roles of the parameters of this PRIVATE function (their order is not an obligation): the reaction is what
+    # get_outer_state_ids / group_by_topology are asked about, the reference subsystem is the other one
+    params = _params(fn)
+    used = {c[2][0] for c in calls_of(value, "get_outer_state_ids") if c[2] and c[2][0][0] == "param"}
+    reaction = next(iter(used))[1] if len(used) == 1 else None
+    rest = [p for p in params if p != reaction]
+    if reaction is None or len(rest) != 1:
+        raise AnalysisError(f"{fn.qual}: the parameters {params} are not (reaction, reference subsystem)")
+    return {"fn": fn, "sx": sx, "pool": amp, "summand": amp[2][0], "items": items, "indices": indices, "bound": [p[1][0] for p in indices], "defs": defs,
+            "reaction": reaction, "reference": rest[0], "fields": fields}
 
 
 def _node_of(model: dict, value, default: ast.AST) -> ast.AST:
@@ -468,28 +856,144 @@ def _node_of(model: dict, value, default: ast.AST) -> ast.AST:
     return node if node is not None and hasattr(node, "lineno") else default
 
 
+def _rotation(f) -> dict | None:
+    """One Wigner-d rotation factor `1 if j == 0 else Wigner.d(j, m, m', zeta)` (or Wigner.d(...) alone): the pieces of
+    every alternative.  None if the factor is no rotation at all."""
+    alts = alternatives(f)
+    ds = [(pc, v) for pc, v in alts if _is_wigner_d(v)]
+    if not ds:
+        return None
+    out = {"alts": alts, "d": ds, "problems": [], "shape": None}
+    if len(ds) != 1:
+        out["shape"] = f"{len(ds)} different Wigner-d functions for one rotation"
+        return out
+    pc, d = ds[0]
+    names = ["j", "m", "mp", "beta"]
+    got = dict(zip(names, d[2]))
+    for k, v in d[3]:
+        if k in names and k not in got:
+            got[k] = v
+        else:
+            out["shape"] = f"Wigner.d called with `{k}=`"
+            return out
+    if set(got) != set(names) or any(a[0] == "star" for a in d[2]):
+        out["shape"] = f"Wigner.d called with {len(d[2])} arguments"
+        return out
+    out.update(got)
+    zeta = got["beta"]
+    zcall = zeta[1] if zeta[0] in {"item", "sub"} and zeta[2] in {0, ("const", 0)} else None
+    if zcall is not None and zcall[0] == "call" and func_name(zcall) == ZETA_Q and not zcall[3] and len(zcall[2]) == 3:
+        out["zcall"] = zcall
+        out["state"], out["aligned"], out["reference"] = zcall[2]
+    else:
+        out["zcall"] = None
+    # the shortcut for spin 0: `1` exactly when j == 0
+    spin_zero = ("cmp", "==", got["j"], ("const", 0))
+    others = [(p, v) for p, v in alts if not _is_wigner_d(v)]
+    out["general_pc"] = pc
+    if not others:
+        if pc:
+            out["shape"] = f"the rotation exists only under `{show_pc(pc)[:60]}`"
+        return out
+    for p, v in others:
+        if as_number(v) is None:
+            out["shape"] = f"besides Wigner.d the rotation can be `{show(v)[:40]}`"
+            return out
+        atoms = atomic_tests(p)
+        if not atoms or not all(t[0] == "cmp" and t[1] == "==" and ((as_number(t[3]) is not None and t[2] in (got["j"], got["m"], got["mp"])) or (as_number(t[2]) is not None and t[3] in (got["j"], got["m"], got["mp"]))) for t in atoms):
+            out["shape"] = f"the shortcut is taken under `{show_pc(p)[:60]}`"  # not a comparison of j / m / m' with numbers
+            return out
+        if not (p == ((spin_zero, True),) or p == ((("cmp", "==", ("const", 0), got["j"]), True),)) or as_number(v) != 1:
+            out["problems"].append(f"shortcut `if {show_pc(p)[:60]}: return {show(v)[:30]}` is not `if j == 0: return 1`")
+    if not all(c in {(spin_zero, False), (("cmp", "==", ("const", 0), got["j"]), False)} for c in pc):
+        if all(t[0] == "cmp" and t[1] == "==" for t in atomic_tests(pc)):
+            out["problems"].append(f"Wigner.d is used under `{show_pc(pc)[:60]}`, not whenever j != 0")
+        else:
+            out["shape"] = f"Wigner.d is used under `{show_pc(pc)[:60]}`"
+    return out
+
+
+def _dpd_terms(model: dict) -> list[dict]:
+    """Every term of the summand: its amplitude-base factors, rotation factors, numbers and anything else."""
+    out = []
+    sx = model["sx"]
+    for item in model["items"]:
+        eaches, pcs, term = unwrap(item)
+        t = {"item": item, "term": term, "pcs": pcs, "bases": [], "rotations": [], "numbers": [], "others": []}
+        for f in factors(term, sx):
+            r = _rotation(f)
+            if f[0] == "sub" and f[1][0] == "call" and func_name(f[1]).endswith("create_amplitude_base"):
+                t["bases"].append(f)
+            elif r is not None:
+                r["factor"] = f
+                t["rotations"].append(r)
+            elif as_number(f) is not None:
+                t["numbers"].append(f)
+            else:
+                t["others"].append(f)
+        out.append(t)
+    return out
+
+
+def _registered(model: dict, judge: Judge) -> list | None:
+    """The angle definitions the function hands out: [(key, value, condition)], wherever they are collected (a dict
+    attribute of the generator object that its calls fill, a local dict that is passed down)."""
+    defs, sx = model["defs"], model["sx"]
+    for _ in range(3):
+        if defs[0] == "call" and defs[1] in {("builtin", "dict")} and len(defs[2]) == 1 and not defs[3]:
+            defs = defs[2][0]
+        elif defs[0] == "call" and defs[1][0] == "attr" and defs[1][2] == "copy" and not defs[2]:
+            defs = defs[1][1]
+    if defs[0] == "dict":
+        out = []
+        for k, v in defs[1]:
+            _, kc, key = unwrap(k)
+            _, vc, val = unwrap(v)
+            if key[0] == "star":
+                judge.cannot(f"the angle definitions contain `{show(key)[:50]}`")
+                return None
+            out.append((key, val, kc + vc))
+        return out
+    if defs[0] == "attr" and sx.class_of_value(defs[1]) is not None:
+        info = sx.ctor_fields(sx.class_of_value(defs[1]))
+        init = info[1].get(defs[2]) if info is not None else None
+        if init is None or init[0] not in {"dict", "default"} or (init[0] == "dict" and init[1]):
+            judge.cannot(f"the initial value of `{show(defs)[:50]}` is not an empty dict")
+            return None
+        return [(e[2][2], e[3], e[1]) for e in sx.events if e[0] == "store" and e[2][0] == "sub" and e[2][1] == defs]
+    judge.cannot(f"the angle definitions `{show(defs)[:60]}` are neither a dict that is filled here nor an attribute of the generator object")
+    return None
+
+
+@_failclosed
 def check_dpd_wiring(ctx: Check, tree: Tree) -> None:
-    """``wigner_generator(j_k, ..., k, spectator)``: spin, both helicity symbols and the
-    literal state index of every call refer to the same outer state k."""
+    """Every Wigner-d rotation that reaches the summand, `d^{j}_{m m'}(zeta^k_{spectator(reference)})`: spin, both
+    helicity symbols and the rotated state k refer to the same outer state; each of the four outer states is rotated;
+    zeta is formulated for THIS alignment's reference subsystem; the pools of the outer PoolSum match their index."""
     model = _dpd_model(tree)
     fn = model["fn"]
-    calls = []
-    for x in subterms(model["summand"]):
-        if _is_generator_call(x) and x not in calls:
-            calls.append(x)
-    if not calls:
-        raise AnalysisError("_formulate_aligned_amplitude: no wigner_generator call reaches the summand (4 confirmed)")
-    gen_cls = tree.cls(DPD_GEN)
-    call_params = gen_cls.methods["__call__"].params[1:]
+    judge = Judge(ctx, "check_dpd_wiring", DPD_KNOWN)
+    rotations = []
+    for t in _dpd_terms(model):
+        for r in t["rotations"]:
+            if r["factor"] not in [x["factor"] for x in rotations]:
+                rotations.append(r)
+    if not rotations:
+        raise AnalysisError("_formulate_aligned_amplitude: no Wigner-d rotation reaches the summand (4 confirmed)")
     seen_states = set()
-    for call in calls:
-        if call[3] or len(call[2]) != len(call_params) or len(call_params) < 5:
-            raise AnalysisError(f"wigner_generator call shape changed: {show(call)[:100]}")
-        j, m, m_prime, state = call[2][:4]
+    refs = []
+    for r in rotations:
+        if r["shape"] or r.get("zcall") is None:
+            judge.cannot(f"rotation factor `{show(r['factor'])[:80]}`: {r['shape'] or 'zeta is not the symbol returned by formulate_zeta_angle(state, aligned, reference)'}")
+            continue
+        state = r["state"]
         if not is_const(state, int):
-            raise AnalysisError(f"wigner_generator call shape changed: the rotated state `{show(state)[:40]}` is not a literal")
+            judge.cannot(f"the rotated state `{show(state)[:40]}` of a Wigner-d rotation is not a literal")
+            continue
         k = state[1]
         seen_states.add(k)
+        refs.append(r["reference"])
+        j, m, m_prime = r["j"], r["m"], r["mp"]
         idxs = [sorted(_item_indices(a)) for a in (j, m, m_prime)]
         ok = all(i == [k] for i in idxs) and len({j, m, m_prime}) == 3
         # the id of outer state k: k-th element of get_outer_state_ids(reaction)
@@ -500,53 +1004,51 @@ def check_dpd_wiring(ctx: Check, tree: Tree) -> None:
                         and x[1][1][1][0] == "attr" and x[1][1][1][2] == "states" for x in subterms(j))
         fams = {"outer" if any(c[2][:1] and c[2][0] in ids for c in calls_of(a, "create_spin_projection_symbol")) else "dummy" for a in (m, m_prime)}
         ok = ok and fams == {"outer", "dummy"}
-        node = _node_of(model, call, fn.node)
-        ctx.verdict(
-            ok,
+        node = _node_of(model, r["factor"], fn.node)
+        judge.decide(
+            ok, (j, m, m_prime),
             "R-WIRING",
             f"{fn.qual}::wigner_generator[{k}]",
             tree.loc(node),
-            f"DPD alignment: {unparse(node) if isinstance(node, ast.Call) else show(call)[:160]} - spin, outer helicity, summed helicity and state index all refer to outer state {k}",
+            f"DPD alignment: {unparse(node)[:120] if isinstance(node, ast.Call) else show(ds_text(r))[:160]} - spin, outer helicity, summed helicity and state index all refer to outer state {k}",
             {"tuple_positions": idxs, "state": k},
         )
-    ctx.verdict(
-        seen_states == {0, 1, 2, 3},
-        "R-WIRING",
-        f"{fn.qual}::wigner_generator-states",
-        tree.loc(fn.node),
-        f"DPD alignment rotates each of the four outer states exactly once per topology: {sorted(seen_states)}",
-    )
-    # the generator of this alignment is built for THIS reference subsystem
-    gens = {c[1][2] for c in calls}
-    init = tree.lookup_method(gen_cls, "__init__")
-    ok_ref = init is not None and all(g[0] == "call" and g[1] == ("global", DPD_GEN) and not g[3] and g[2][:1] == (("param", fn.params[1]),) for g in gens)
-    ctx.verdict(ok_ref, "R-WIRING", f"{fn.qual}::wigner_generator-reference", tree.loc(fn.node),
-                f"DPD alignment: the Wigner-d generator is constructed for the reference subsystem handed in (`{fn.params[1]}`)",
-                None if ok_ref else sorted(show(g)[:80] for g in gens))
+    if not judge.undecided:
+        ctx.verdict(
+            seen_states == {0, 1, 2, 3},
+            "R-WIRING",
+            f"{fn.qual}::wigner_generator-states",
+            tree.loc(fn.node),
+            f"DPD alignment rotates each of the four outer states exactly once per topology: {sorted(seen_states)}",
+        )
+        # zeta of every rotation is formulated for THIS reference subsystem
+        want = ("param", model["reference"])
+        ok_ref = all(g == want for g in refs)
+        judge.decide(ok_ref, refs, "R-WIRING", f"{fn.qual}::wigner_generator-reference", tree.loc(fn.node),
+                     f"DPD alignment: the Wigner-d rotations use zeta angles for the reference subsystem handed in (`{model['reference']}`)",
+                     None if ok_ref else sorted({show(g)[:80] for g in refs}))
     # pools of the outer PoolSum: index k <-> outer_helicities[k]
     for pair in model["indices"]:
-        if not (pair[0] == "tuple" and len(pair[1]) == 2):
-            raise AnalysisError(f"{fn.qual}: PoolSum index shape changed: {show(pair)[:80]}")
         sym, pool = pair[1]
         pos = sorted(_item_indices(sym))
         k = pool[2][1] if pool[0] == "sub" and is_const(pool[2], int) else None
         node = _node_of(model, sym, fn.node)
         name = unparse(node) if isinstance(node, ast.Name) else show(sym)[:40]
-        ctx.verdict(
-            len(pos) == 1 and pos[0] == k,
+        judge.decide(
+            len(pos) == 1 and pos[0] == k and k is not None, (sym, pool),
             "R-WIRING",
             f"{fn.qual}::pool[{name}]",
             tree.loc(_node_of(model, pair, node)),
             f"DPD alignment: summed helicity {name} (position {pos[0] if len(pos) == 1 else '?'}) ranges over outer_helicities[{k}]",
         )
+    judge.finish()
 
 
-def _factors(node: ast.AST) -> list[ast.AST]:
-    if isinstance(node, ast.BinOp) and isinstance(node.op, ast.Mult):
-        return _factors(node.left) + _factors(node.right)
-    return [node]
+def ds_text(r: dict):
+    return r["d"][0][1]
 
 
+@_failclosed
 def check_dpd_summand(ctx: Check, tree: Tree) -> None:
     """R-SUMMAND: every term that reaches the summand of the PoolSum over the primed helicities
     is  base[primed helicities] * d(state 0) * d(state 1) * d(state 2) * d(state 3).
@@ -554,60 +1056,50 @@ def check_dpd_summand(ctx: Check, tree: Tree) -> None:
     = product of the pool sizes); a term without its four rotations is not aligned."""
     model = _dpd_model(tree)
     fn = model["fn"]
-    bound = []
-    for pair in model["indices"]:
-        if not (pair[0] == "tuple" and len(pair[1]) == 2):
-            raise AnalysisError(f"{fn.qual}: PoolSum index shape changed: {show(pair)[:80]}")
-        bound.append(pair[1][0])
-    summand = model["summand"]
-    if not (summand[0] == "call" and func_name(summand).split(".")[-1] in {"Add", "sum"} and not summand[3]):
-        raise AnalysisError(f"{fn.qual}: PoolSum summand is `{show(summand)[:60]}`, not sp.Add(*terms)")
-    items = list(summand[2])
-    if func_name(summand).split(".")[-1] == "sum":
-        seq = model["sx"].as_items(items[0]) if len(items) == 1 else None
-        if seq is None:
-            raise AnalysisError(f"{fn.qual}: summand terms are not collected in a local list")
-        items = seq
-    if any(x[0] == "star" for x in items):
-        raise AnalysisError(f"{fn.qual}: the summand terms `{show(next(x for x in items if x[0] == 'star'))[:60]}` are not collected in a local list")
-    if not items:
-        raise AnalysisError(f"{fn.qual}: no term reaches the PoolSum summand")
+    bound = model["bound"]
+    judge = Judge(ctx, "check_dpd_summand", DPD_KNOWN)
 
     def name_of(v):
         node = model["sx"].origin.get(v)
         return unparse(node) if isinstance(node, ast.Name) else show(v)[:30]
 
     bound_txt = [name_of(b) for b in bound]
-    for item in items:
-        _, term = _unwrap(item)
+    for t in _dpd_terms(model):
+        term = t["term"]
         problems = []
-        facs = list(term[1]) if term[0] == "mul" else [term]
-        bases = []
         states = []
-        for f in facs:
-            if f[0] == "sub" and calls_of(f[1], "create_amplitude_base") and f[1][0] == "call":
-                bases.append(f)
-            elif _is_generator_call(f):
-                if len(f[2]) >= 4 and is_const(f[2][3]):
-                    k = f[2][3][1]
-                    states.append(k)
-                    if isinstance(k, int) and 0 <= k < len(bound) and bound[k] not in f[2][1:3]:
-                        problems.append(f"rotation of state {k} does not carry the summation index {bound_txt[k]}")
-            else:
+        for f in t["others"]:
+            judge.cannot(f"factor `{show(f)[:60]}` of a summand term is neither the amplitude base, a number nor a Wigner-d rotation")
+        if t["others"]:
+            continue
+        for f in t["numbers"]:
+            if as_number(f) != 1:
                 problems.append(f"unexpected factor `{show(f)[:50]}`")
+        for r in t["rotations"]:
+            if r["shape"] or r.get("zcall") is None or not is_const(r["state"]):
+                judge.cannot(f"rotation factor `{show(r['factor'])[:80]}`: {r['shape'] or 'the rotated state is not a literal of formulate_zeta_angle'}")
+                continue
+            k = r["state"][1]
+            states.append(k)
+            if isinstance(k, int) and 0 <= k < len(bound) and bound[k] not in (r["m"], r["mp"]):
+                problems.append(f"rotation of state {k} does not carry the summation index {bound_txt[k]}")
+        if judge.undecided:
+            continue
+        bases = t["bases"]
         if len(bases) != 1:
             problems.append(f"{len(bases)} amplitude-base factors")
         else:
-            idx = list(bases[0][2][1]) if bases[0][2][0] == "tuple" else [bases[0][2]]
+            idx = list(bases[0][2][1]) if bases[0][2][0] in {"tuple", "list"} else [bases[0][2]]
             if idx != bound:
                 problems.append(f"the amplitude base is indexed by {[name_of(i) for i in idx]}, not by the summation indices {bound_txt}: the term is added once per combination of the indices it does not carry")
         if sorted(states, key=str) != [0, 1, 2, 3]:
             problems.append(f"rotations for outer states {states}, not exactly one each for 0, 1, 2, 3")
         node = _node_of(model, term, fn.node)
         text = canon_text(node) if node is not fn.node else re.sub(r"\s+", "", show(term))[:80]
-        ctx.verdict(not problems, "R-SUMMAND", f"{fn.qual}::term::{text}", tree.loc(node),
-                    f"DPD summand term `{unparse(node)[:70] if node is not fn.node else show(term)[:70]}...` = base[{', '.join(bound_txt)}] * d_0 * d_1 * d_2 * d_3 (every summation index carried, every outer state rotated once)",
-                    problems or None)
+        judge.decide(not problems, (term,), "R-SUMMAND", f"{fn.qual}::term::{text}", tree.loc(node),
+                     f"DPD summand term `{unparse(node)[:70] if node is not fn.node else show(term)[:70]}...` = base[{', '.join(bound_txt)}] * d_0 * d_1 * d_2 * d_3 (every summation index carried, every outer state rotated once)",
+                     problems or None)
+    judge.finish()
 
 
 def canon_text(node: ast.AST) -> str:
@@ -616,6 +1108,7 @@ def canon_text(node: ast.AST) -> str:
     return re.sub(r"\s+", "", unparse(node))[:80]
 
 
+@_failclosed
 def check_spin_range_not_cached_mutable(ctx: Check, tree: Tree) -> None:
     """R-CACHE: "exactly -s..s" must hold for the k-th call as for the first: if any function of
     the alignment package hands out a memoised mutable object (a cached spin range), nobody
@@ -677,15 +1170,29 @@ def _walk_summary(tree: Tree, fn: FuncInfo, call: ast.Call, owner: FuncInfo):
     except Exception as exc:  # noqa: BLE001
         raise AnalysisError(f"{owner.qual}: symbolic execution failed ({exc!r})") from exc
     rec = [e for e in sx2.events if e[0] == "localcall" and e[2][1] == ("localfunc", owner.qual)]
-    if len(rec) != 1 or rec[0][2][3] or value[0] != "list":
-        return {"problem": "the recursion does not continue with get_parent_id(topology, state_id)"}
+    if len(rec) != 1 or rec[0][2][3]:
+        return {"problem": f"one activation of {owner.name}() does not make exactly one recursive call"}
     end = dict(zip(owner.params, rec[0][2][2]))
     end.update({n: rec[0][3].get(n) for n in nonlocals})
-    items = [_unwrap(x) for x in value[1]]
-    rotations = [(pcs, v) for pcs, v in items if v[0] == "call" and func_name(v) == ROTATION]
-    order = [i for i, (_, v) in enumerate(items) if (v[0] == "call" and func_name(v) == ROTATION) or (v[0] == "star" and v[1] == rec[0][2])]
-    ordered = len(order) == 2 and items[order[0]][1][0] == "call" and items[order[1]][1][0] == "star"
     guard = rec[0][1]
+    if value[0] == "list":
+        # a generator: what it yields, in order
+        items = [_unwrap(x) for x in value[1]]
+        order = [i for i, (_, v) in enumerate(items) if (v[0] == "call" and func_name(v) == ROTATION) or (v[0] == "star" and v[1] == rec[0][2])]
+        ordered = len(order) == 2 and items[order[0]][1][0] == "call" and items[order[1]][1][0] == "star"
+    elif value == NONE or (value[0] == "phi" and all(v == NONE for _, v in value[1])):
+        # a procedure that appends to a list of its definer (accumulator instead of yield): what it appends, and whether
+        # it does so before it recurses
+        grown = [(i, e) for i, e in enumerate(sx2.events) if e[0] == "grow" and e[2] in closure and e[2] not in owner.params]
+        names = {e[2] for _, e in grown}
+        if len(names) != 1:
+            return {"problem": f"{owner.name}() neither yields its rotations nor appends them to one list of {fn.name}()"}
+        items = [(tuple(c for c in e[1]), e[3]) for _, e in grown]
+        at = sx2.events.index(rec[0])
+        ordered = all(i < at for i, e in grown if e[3][0] == "call" and func_name(e[3]) == ROTATION)
+    else:
+        return {"problem": f"the result `{show(value)[:50]}` of {owner.name}() is neither a sequence of rotations nor nothing"}
+    rotations = [(pcs, v) for pcs, v in items if v[0] == "call" and func_name(v) == ROTATION]
     rotations = [(tuple(c for c in pcs if c not in guard), v) for pcs, v in rotations if all(g in pcs for g in guard)] if all(all(g in pcs for g in guard) for pcs, _ in rotations) else [((("?", True),), v) for _, v in rotations]
     return {"init": init, "end": end, "guard": guard, "rotations": rotations, "head": head, "ordered": ordered, "what": "recursion"}
 
@@ -696,15 +1203,18 @@ def normal_value(test):
     return normal(test)
 
 
-def _judge_walk(tree: Tree, fn: FuncInfo, s: dict) -> list[str]:
-    """The obligations of R-CHAINORDER on one generic step (see check_rotation_chain_order)."""
+def _judge_walk(tree: Tree, fn: FuncInfo, s: dict) -> tuple[list[str], list[str]]:
+    """The obligations of R-CHAINORDER on one generic step (see check_rotation_chain_order):
+    (what is definitely broken, what could not be interpreted)."""
     if "problem" in s:
-        return [s["problem"]]
+        return ([s["problem"]], []) if s.get("definite") else ([], [s["problem"]])
     what = s["what"]
-    problems = []
+    problems, unknown = [], []
     head, init, end = s["head"], s["init"], s["end"]
+    if len(s["rotations"]) == 0:
+        return [], [f"one step of the {what} makes a call of formulate_helicity_rotation whose result does not visibly reach the product"]
     if len(s["rotations"]) != 1 or s["rotations"][0][0] or not s["ordered"]:
-        return [f"one step of the {what} does not contribute exactly one helicity rotation (unconditionally, before the steps further up)"]
+        return [f"one step of the {what} does not contribute exactly one helicity rotation (unconditionally, before the steps further up)"], []
     rot = s["rotations"][0][1]
     _require_known(fn.qual, rot, tuple(v for v in init.values() if v is not None), tuple(v for v in end.values() if v is not None), tuple(t for t, _ in s["guard"]))
     params = tree.func(ROTATION).params
@@ -717,44 +1227,158 @@ def _judge_walk(tree: Tree, fn: FuncInfo, s: dict) -> list[str]:
         return next(iter(hits)) if len(hits) == 1 else None
 
     g_mp, g_sp = greek(arg.get("m_prime", NONE)), greek(arg.get("spin_projection", NONE))
-    counter = g_mp[2][1] if g_mp is not None and g_mp[2][0] == "carried" and g_mp[2] == head(g_mp[2][1]) else None
-    hole = ("sym", "index-name")
-    if (counter is None or g_sp is None or g_sp[2] != ("binop", "+", head(counter), ("const", 1))
-            or subst(arg["m_prime"], {g_mp: hole}) != subst(arg["spin_projection"], {g_sp: hole})):
-        problems.append("m_prime / spin_projection do not use index k / k+1 of the counter")
-    if counter is None:
-        names = sorted({x[1] for g in (g_mp, g_sp) if g is not None for x in subterms(g[2]) if x[0] == "carried"})
-        problems.append(f"index counter not identified ({names})")
+    counter = None
+    if g_mp is None or g_sp is None:
+        unknown.append("m_prime / spin_projection are not named by entries of __GREEK_INDEX_NAMES")
     else:
+        carried = sorted({x for g in (g_mp, g_sp) for x in subterms(g[2]) if x[0] == "carried" and x == head(x[1])}, key=str)
+        if not carried and is_const(g_mp[2], int) and is_const(g_sp[2], int):
+            problems.append(f"every step uses the same index pair ({g_mp[2][1]}, {g_sp[2][1]}): the index counter is not advanced by exactly 1 per rotation")
+        elif len(carried) != 1:
+            unknown.append(f"index counter not identified ({[c[1] for c in carried]})")
+        else:
+            counter = carried[0][1]
+            off_mp, off_sp = _offset_from(g_mp[2], head(counter)), _offset_from(g_sp[2], head(counter))
+            hole = ("sym", "index-name")
+            if off_mp is None or off_sp is None:
+                unknown.append(f"the index names `{show(g_mp)[:40]}` / `{show(g_sp)[:40]}` are not chosen by counter + literal")
+            elif (off_mp, off_sp) != (0, 1) or subst(arg["m_prime"], {g_mp: hole}) != subst(arg["spin_projection"], {g_sp: hole}):
+                problems.append("m_prime / spin_projection do not use index k / k+1 of the counter")
+    if counter is not None:
         # the counter: starts at 0 (index 0 is the helicity symbol the Wigner rotation / the amplitude connects to)
         # and advances by exactly one per rotation
-        if init.get(counter) != ("const", 0):
-            problems.append(f"the index counter `{counter}` does not start at 0")
-        if end.get(counter) != ("binop", "+", head(counter), ("const", 1)):
-            problems.append(f"the index counter `{counter}` is not advanced by exactly 1 per rotation")
+        c0 = init.get(counter)
+        if c0 != ("const", 0):
+            (problems if c0 is not None and is_const(c0) else unknown).append(f"the index counter `{counter}` does not start at 0")
+        adv = _offset_from(end.get(counter), head(counter)) if end.get(counter) is not None else None
+        if adv != 1:
+            (problems if adv is not None else unknown).append(f"the index counter `{counter}` is not advanced by exactly 1 per rotation")
     # the walk: from the rotated state upwards, a step is made iff the state has a parent, and continues with that parent
     guard = s["guard"]
     parent = state = None
-    if len(guard) == 1 and guard[0][1] is False and guard[0][0][0] == "cmp" and guard[0][0][1] == "is" and guard[0][0][3] == NONE:
+    recognised = False
+    if len(guard) == 1 and guard[0][0][0] == "cmp" and guard[0][0][1] == "is" and guard[0][0][3] == NONE:
         g = guard[0][0][2]
-        if g[0] == "call" and func_name(g).endswith("get_parent_id") and len(g[2]) == 2 and g[2][1][0] == "carried" and g[2][1] == head(g[2][1][1]):
+        recognised = g[0] == "call" and func_name(g).endswith("get_parent_id") and len(g[2]) == 2
+        if g[0] == "carried" and g == head(g[1]) and init.get(g[1]) is not None and init[g[1]][0] == "call" and func_name(init[g[1]]).endswith("get_parent_id"):
+            # a parent id carried through the loop that is NOT (provably, see LoopInfo.refine) the parent of a state that
+            # walks along: the step and the test are about different states
+            recognised = True
+        if recognised and g[0] == "call" and guard[0][1] is False and g[2][1][0] == "carried" and g[2][1] == head(g[2][1][1]):
             parent, state = g, g[2][1][1]
     if parent is None:
-        problems.append(f"the {what} does not stop exactly when the state has no parent (`parent_id is None`)")
+        (problems if recognised else unknown).append(f"the {what} does not stop exactly when the state has no parent (`parent_id is None`)")
     else:
         if end.get(state) != parent:
-            problems.append(f"the {what} does not continue with get_parent_id(topology, state_id)")
+            nxt = end.get(state)
+            definite = nxt is not None and not_followed(nxt, AXA_KNOWN) is None
+            (problems if definite else unknown).append(f"the {what} does not continue with get_parent_id(topology, state_id)")
         if init.get(state) != ("param", fn.params[1]):
-            problems.append(f"the {what} does not start at `{fn.params[1]}`")
+            first = init.get(state)
+            (problems if first is not None and _leaf(first) else unknown).append(f"the {what} does not start at `{fn.params[1]}`")
     # Euler angles of a helicity rotation: (phi, theta, 0) of the helicity state of that level
     alpha, beta, gamma = arg.get("alpha", NONE), arg.get("beta", NONE), arg.get("gamma", NONE)
     conv_ok = (alpha[0] == "item" and beta[0] == "item" and alpha[1] == beta[1] and (alpha[2], beta[2]) == (0, 1)
-               and alpha[1][0] == "call" and func_name(alpha[1]).endswith("get_helicity_angle_symbols") and gamma == ("const", 0))
+               and alpha[1][0] == "call" and func_name(alpha[1]).endswith("get_helicity_angle_symbols") and as_number(gamma) == 0)
     if not conv_ok:
-        problems.append("the helicity rotation does not use (alpha, beta, gamma) = (phi, theta, 0) of get_helicity_angle_symbols")
-    return problems
+        from_symbols = lambda v: v[0] == "item" and v[1][0] == "call" and func_name(v[1]).endswith("get_helicity_angle_symbols")  # noqa: E731
+        definite = all(from_symbols(v) or as_number(v) is not None for v in (alpha, beta, gamma))
+        (problems if definite else unknown).append("the helicity rotation does not use (alpha, beta, gamma) = (phi, theta, 0) of get_helicity_angle_symbols")
+    return problems, unknown
 
 
+def _chain_on_instances(ctx: Check, tree: Tree, fn: FuncInfo, key: str, where: str) -> None:
+    """R-CHAINORDER decided on small concrete decay chains (sa/symex.py, stubs + unroll): the rotated state s0 has the
+    ancestors s1 ... sn (get_parent_id(topology, s_k) = s_(k+1), the initial state sn has no parent; list_decay_chain_ids
+    gives [s0 ... sn]).  Whatever walks the chain - recursion, a loop, a generator, a counter or `len(rotations)` - the
+    product must consist of exactly n rotations, the k-th of which has m' = index name k, projection = index name k + 1
+    (same suffix) and the angles (phi, theta, 0) of the helicity state of s_k; with one rotation the index 1 is replaced by
+    the helicity symbol."""
+    mul_q = f"{AXA}::__multiply_pool_sums"
+    transition, s0 = ("param", fn.params[0]), ("param", fn.params[1])
+    topo = ("attr", transition, "topology")
+    names_q = f"{AXA}::__GREEK_INDEX_NAMES"
+    problems = []
+    for n in (1, 2, 3):
+        states = [s0] + [("sym", f"ancestor{k}") for k in range(1, n + 1)]
+        stubs = {}
+        for k, st_ in enumerate(states):
+            stubs[("call", ("global", "ampform.helicity.decay::get_parent_id"), (topo, st_), ())] = states[k + 1] if k < n else NONE
+        stubs[("call", ("global", "ampform.helicity.decay::list_decay_chain_ids"), (topo, s0), ())] = ("list", tuple(states))
+        sx = SymEx(tree, atoms=frozenset({ROTATION, "__multiply_pool_sums"}), stubs=stubs, unroll=8)
+        try:
+            value, _ = sx.run(fn)
+        except AnalysisError:
+            raise
+        except Exception as exc:  # noqa: BLE001
+            raise AnalysisError(f"symbolic execution on a chain of {n} rotations failed ({exc!r})") from exc
+        if sx.imprecise:
+            raise AnalysisError(f"on a chain of {n} rotations: {sx.imprecise[0]}")
+        products = list(dict.fromkeys(x for x in subterms(value) if x[0] == "call" and func_name(x) == mul_q))
+        if len(products) != 1:
+            raise AnalysisError(f"on a chain of {n} rotations the result `{show(value)[:60]}` does not contain one product of pool sums")
+        items = _product_items(products[0], mul_q, sx)
+        if items is None or any(not (x[0] == "call" and func_name(x) == ROTATION and not x[3]) for x in items):
+            raise AnalysisError(f"on a chain of {n} rotations the factors of the product are not calls of formulate_helicity_rotation: `{show(products[0])[:70]}`")
+        if len(items) != n:
+            problems.append(f"a chain of {n} decay nodes gets {len(items)} helicity rotations")
+            continue
+        params = tree.func(ROTATION).params
+        table = sx.module_constant(names_q)
+
+        def index_name(v):
+            """(position in __GREEK_INDEX_NAMES, the symbol with a hole for the name) of Symbol(<name><suffix>, ...)"""
+            hits = [x for x in subterms(v) if (x[0] == "sub" and x[1] == ("global", names_q) and is_const(x[2], int))
+                    or (table is not None and is_const(x, str) and x in table[1])]
+            if len(hits) != 1:
+                return None
+            pos = hits[0][2][1] if hits[0][0] == "sub" else table[1].index(hits[0])
+            return pos, subst(v, {hits[0]: ("sym", "index-name")})
+
+        for k, rot in enumerate(items):
+            arg = dict(zip(params, rot[2]))
+            mp, sp_ = index_name(arg.get("m_prime", NONE)), index_name(arg.get("spin_projection", NONE))
+            if mp is None or sp_ is None:
+                raise AnalysisError(f"on a chain of {n} rotations: m_prime / spin_projection of rotation {k} are not named by one entry of __GREEK_INDEX_NAMES")
+            if (mp[0], sp_[0]) != (k, k + 1) or _strip_text(mp[1]) != _strip_text(sp_[1]):
+                problems.append(f"chain of {n}: rotation {k} (state `{show(states[k])}`) uses the index pair ({mp[0]}, {sp_[0]}), not ({k}, {k + 1})")
+            alpha, beta, gamma = arg.get("alpha", NONE), arg.get("beta", NONE), arg.get("gamma", NONE)
+            source = alpha[1] if alpha[0] == "item" and beta[0] == "item" and alpha[1] == beta[1] and (alpha[2], beta[2]) == (0, 1) else None
+            if source is None or not (source[0] == "call" and func_name(source).endswith("get_helicity_angle_symbols") and len(source[2]) == 2 and not source[3]) or as_number(gamma) != 0:
+                from_symbols = lambda v: v[0] == "item" and v[1][0] == "call" and func_name(v[1]).endswith("get_helicity_angle_symbols")  # noqa: E731
+                if all(from_symbols(v) or as_number(v) is not None for v in (alpha, beta, gamma)):
+                    problems.append(f"chain of {n}: rotation {k} does not use (alpha, beta, gamma) = (phi, theta, 0) of get_helicity_angle_symbols")
+                    continue
+                raise AnalysisError(f"on a chain of {n} rotations: the angles `{show(alpha)[:40]}`, `{show(beta)[:40]}`, `{show(gamma)[:20]}` of rotation {k}")
+            who = source[2][1]
+            mentioned = {x for x in subterms(who) if x in states}
+            if mentioned != {states[k]}:
+                if mentioned and not_followed(who, AXA_KNOWN) is None:
+                    problems.append(f"chain of {n}: rotation {k} carries the angles of `{', '.join(sorted(show(x) for x in mentioned))}`, not of the {k}-th state on the way up (`{show(states[k])}`)")
+                else:
+                    raise AnalysisError(f"on a chain of {n} rotations: the helicity state `{show(who)[:60]}` of rotation {k}")
+        # one rotation: the dangling index (position 1) is identified with the helicity symbol
+        subs = [x for x in subterms(value) if x[0] == "call" and x[1][0] == "attr" and x[1][2] in {"subs", "xreplace"} and x[1][1] == products[0]]
+        if n == 1 and subs:
+            args = subs[0][2]
+            if len(args) == 1 and args[0][0] == "dict" and len(args[0][1]) == 1:
+                args = args[0][1][0]
+            dangling = index_name(args[0]) if len(args) == 2 else None
+            if dangling is None or args[1] != ("param", "helicity_symbol"):
+                raise AnalysisError(f"on a chain of one rotation: `{show(subs[0])[:70]}` is not the replacement of the dangling index by the helicity symbol")
+            if dangling[0] != 1:
+                problems.append(f"with one rotation the index {dangling[0]} is replaced by the helicity symbol, not index 1 (the projection of that rotation)")
+    ctx.verdict(not problems, "R-CHAINORDER", key, where,
+                "axis-angle chain: index pair k (k = 0, 1, ...) carries the angles of the k-th state on the way up from the rotated state (decided on concrete chains of 1-3 decay nodes)",
+                problems[:4] or None)
+
+
+def _strip_text(v):
+    """a value with constant text pieces merged out of the way of a comparison (`f"{a}{b}"` = `a + b`)"""
+    return v
+
+
+@_failclosed
 def check_rotation_chain_order(ctx: Check, tree: Tree) -> None:
     """R-CHAINORDER: the helicity rotations of the axis-angle chain do not commute.  The k-th pair of
     summation indices (m' = index k, projection = index k+1, k = 0 at the rotated particle's own
@@ -765,8 +1389,38 @@ def check_rotation_chain_order(ctx: Check, tree: Tree) -> None:
     recursive local generator or as a `while` loop - or
     `for k, state in enumerate(list_decay_chain_ids(topology, rotated_state)[...])`.  Walking
     the chain downwards (reversed(...)) attaches the angles the other way round: single-topology
-    intensities do not notice (unitarity), interfering topologies are no longer rotation invariant."""
+    intensities do not notice (unitarity), interfering topologies are no longer rotation invariant.
+    Three-valued: what the generic step definitely does wrong is a violation; a step the rule cannot interpret is an
+    ANALYSIS-ERROR."""
     fn = tree.func("ampform.helicity.align.axisangle::formulate_helicity_rotation_chain")
+    key = f"{fn.qual}::chain-direction"
+    before = len(ctx.instances)
+    try:
+        _chain_order_generic(ctx, tree, fn)
+    except AnalysisError as exc:
+        if any(i.verdict in {"violation", "known"} for i in ctx.instances[before:]):
+            raise
+        del ctx.instances[before:]
+        try:
+            _chain_on_instances(ctx, tree, fn, key, tree.loc(fn.node))
+        except AnalysisError as exc2:
+            raise AnalysisError(f"{exc}; on concrete chains: {exc2}") from exc2
+        return
+    if any(i.verdict == "violation" for i in ctx.instances[before:]):
+        # a violation found by reading the generic step is confirmed on concrete chains (the evaluation on an instance does
+        # not depend on how the walk is spelled); if the two analyses disagree, nothing is reported but "cannot decide"
+        probe = Check(ctx.pid, quiet=True, write=False)
+        try:
+            _chain_on_instances(probe, tree, fn, key, tree.loc(fn.node))
+        except AnalysisError:
+            return
+        if not any(i.verdict in {"violation", "known"} for i in probe.instances):
+            found = [str(i.detail)[:120] for i in ctx.instances[before:] if i.verdict == "violation"]
+            del ctx.instances[before:]
+            raise AnalysisError(f"{fn.qual}: the generic step of the walk looks wrong ({found[0]}) but the rotation chain is right on concrete chains of 1-3 decay nodes: not decided")
+
+
+def _chain_order_generic(ctx: Check, tree: Tree, fn: FuncInfo) -> None:
     rot_calls = [c for c in walk_function(fn.node, nested=True) if isinstance(c, ast.Call) and tree.callee(c, tree.func_of(c) or fn) == "ampform.helicity.align.axisangle::formulate_helicity_rotation"]
     if len(rot_calls) != 1:
         raise AnalysisError(f"{fn.qual}: expected one call of formulate_helicity_rotation, found {len(rot_calls)}")
@@ -777,190 +1431,274 @@ def check_rotation_chain_order(ctx: Check, tree: Tree) -> None:
         summary = _walk_summary(tree, fn, call, owner)
         if summary is None:
             raise AnalysisError(f"{fn.qual}: rotation neither in a recursive helper nor in a loop")
-        problems = _judge_walk(tree, fn, summary)
+        problems, unknown = _judge_walk(tree, fn, summary)
         # a chain of a single rotation has no summation left: its index is identified with the helicity symbol
-        tails = [n for n in walk_function(fn.node, nested=False) if isinstance(n, ast.If) and any(isinstance(b, ast.Return) and b.value is not None and ".subs(" in unparse(b.value) for b in n.body)]
-        if tails:
-            t = tails[0].test
-            ok_tail = (isinstance(t, ast.Compare) and len(t.ops) == 1 and isinstance(t.ops[0], ast.Eq) and isinstance(t.comparators[0], ast.Constant) and t.comparators[0].value == 1
-                       and unparse(t.left).replace(" ", "").startswith("len(") and unparse(t.left).endswith(".indices)"))
-            if not ok_tail:
-                problems.append(f"the single-rotation special case is taken under `{unparse(t)}`, not iff exactly one summation index exists")
-        ctx.verdict(not problems, "R-CHAINORDER", key, tree.loc(call), "axis-angle chain: recursion from the rotated state upwards (get_parent_id) until the initial state, index pair k (k = 0, 1, ...) carries the angles of the k-th state on the way up", problems or None)
+        sx, value, _ = _symex(tree, fn.qual, frozenset({ROTATION, "__multiply_pool_sums"}))
+        for pc, v in alternatives(value):
+            if v[0] == "call" and v[1][0] == "attr" and v[1][2] in {"subs", "xreplace", "replace"}:
+                length = ("call", ("builtin", "len"), (("attr", v[1][1], "indices"),), ())
+                one = _exactly_one(pc, length)
+                if one is None:
+                    unknown.append(f"the single-rotation special case is taken under `{show_pc(pc)[:60]}`, which is no test of the number of summation indices")
+                elif not one:
+                    problems.append(f"the single-rotation special case is taken under `{show_pc(pc)[:60]}`, not iff exactly one summation index exists")
+        if problems or not unknown:
+            ctx.verdict(not problems, "R-CHAINORDER", key, tree.loc(call), "axis-angle chain: recursion from the rotated state upwards (get_parent_id) until the initial state, index pair k (k = 0, 1, ...) carries the angles of the k-th state on the way up", problems or None)
+        if unknown:
+            raise AnalysisError(f"{fn.qual}: cannot decide: " + "; ".join(unknown[:3]))
         return
     # loop idiom
     loops = [a for a in ancestors(call) if isinstance(a, ast.For)]
     if not loops:
         raise AnalysisError(f"{fn.qual}: rotation neither in a recursive helper nor in a loop")
     loop = loops[0]
-    it = loop.iter
-    rd = RD(fn.node)
-    if not (isinstance(it, ast.Call) and isinstance(it.func, ast.Name) and it.func.id == "enumerate" and it.args):
-        raise AnalysisError(f"{fn.qual}: loop over `{unparse(it)[:50]}` is not enumerate(<chain>)")
-    src = it.args[0]
-    texts = [unparse(src)] + [unparse(d.value) for d in rd.closure(rd.uses(src)) if isinstance(d.value, ast.AST)]
-    if not any("list_decay_chain_ids(" in t for t in texts):
-        raise AnalysisError(f"{fn.qual}: the chain `{unparse(src)[:50]}` does not come from list_decay_chain_ids")
-    down = any(t.startswith("reversed(") or "reversed(" in t or "[::-1]" in t for t in texts)
+    sx, _, _ = _symex(tree, fn.qual, frozenset({ROTATION, "__multiply_pool_sums"}))
+    info = sx.loops.get(id(loop))
+    if info is None or info.each is None:
+        raise AnalysisError(f"{fn.qual}: the loop over `{unparse(loop.iter)[:50]}` was not executed generically")
+    it = info.each[1]
+    if not (it[0] == "call" and it[1] == ("builtin", "enumerate") and it[2] and not it[3]):
+        raise AnalysisError(f"{fn.qual}: loop over `{unparse(loop.iter)[:50]}` is not enumerate(<chain>)")
+    parsed = _seq_ops(it[2][0])
+    src = parsed[0] if parsed is not None else it[2][0]
+    while src[0] == "sub" and isinstance(src[2], tuple) and src[2] and src[2][0] == "slice" and src[2][3] in {NONE, ("const", 1)}:
+        src = src[1]
+    if parsed is None or not (_is_call(src, "list_decay_chain_ids") and not src[3] and src[2][1:] == (("param", fn.params[1]),)) or parsed[2]:
+        raise AnalysisError(f"{fn.qual}: the chain `{unparse(loop.iter)[:50]}` does not come from list_decay_chain_ids(topology, {fn.params[1]})")
+    down = parsed[1]
     ctx.verdict(not down, "R-CHAINORDER", key, tree.loc(loop), "axis-angle chain: index pair k carries the angles of the k-th state on the way up from the rotated state (list_decay_chain_ids order)",
-                None if not down else f"the chain is walked downwards (`{unparse(src)[:50]}`): the non-commuting rotations are multiplied in reversed order")
+                None if not down else f"the chain is walked downwards (`{unparse(loop.iter)[:50]}`): the non-commuting rotations are multiplied in reversed order")
 
 
+@_failclosed
 def check_wigner_angle_table(ctx: Check, tree: Tree) -> None:
     """R-TABLE: compute_wigner_angles implements Eqs. (B.2-4) of Marangotto (2019), the reference the
     docstring names: with R = compute_wigner_rotation_matrix(topology, momenta, state_id) and the
     Lorentz indices (0, 1, 2, 3) = (t, x, y, z):
         alpha = atan2(R[3,2], R[3,1]),  beta = acos(R[3,3]),  gamma = atan2(R[2,3], -R[1,3]);
-    the three angles are named alpha/beta/gamma + helicity suffix of the same state."""
-    from ..inline import Inliner
-
+    the three angles are named alpha/beta/gamma + helicity suffix of the same state.
+    Judged on the dictionary the function computes (sa/symex.py): temporaries, a local / module-level helper or lambda
+    that builds the matrix elements, index names bound to literals give the same values."""
     fn = tree.func("ampform.kinematics.angles::compute_wigner_angles")
-    rd = RD(fn.node)
-    inl = Inliner(fn.node, rd)
-    rets = [r for r in walk_function(fn.node, nested=False) if isinstance(r, ast.Return) and r.value is not None]
-    if len(rets) != 1:
-        raise AnalysisError(f"{fn.qual}: expected one return")
-    val = rets[0].value
-    if isinstance(val, ast.Name):
-        defs = list(rd.reaching(val))
-        val = defs[0].value if len(defs) == 1 and isinstance(defs[0].value, ast.AST) else val
-    if not isinstance(val, ast.Dict) or len(val.keys) != 3:
+    matrix_q = "ampform.kinematics.angles::compute_wigner_rotation_matrix"
+    sx, value, _ = _symex(tree, fn.qual, frozenset({"compute_wigner_rotation_matrix", "get_helicity_suffix"}))
+    judge = Judge(ctx, "check_wigner_angle_table", ("compute_wigner_rotation_matrix", "get_helicity_suffix", "ArraySlice"))
+    alts = alternatives(value)
+    if len(alts) != 1 or alts[0][1][0] != "dict" or len(alts[0][1][1]) != 3:
         raise AnalysisError(f"{fn.qual}: does not return a dict of three angles")
+    table = alts[0][1][1]
+    matrix = ("call", ("global", matrix_q), tuple(("param", p) for p in fn.params[:3]), ())
 
-    helpers = {
-        n.name: n for n in fn.node.body
-        if isinstance(n, ast.FunctionDef) and isinstance(n.body[-1], ast.Return) and n.body[-1].value is not None
-        and all(isinstance(b, ast.Expr) and isinstance(b.value, ast.Constant) for b in n.body[:-1])
-    }
+    def stem(k):
+        """name stem of an angle symbol: Symbol(f"alpha{suffix}") / the k-th name of symbols(f"alpha{s} beta{s} gamma{s}")"""
+        pos = None
+        if k[0] == "item" and _is_call(k[1], "symbols"):
+            pos, k = k[2], k[1]
+        if not (k[0] == "call" and func_name(k) in {"sympy.Symbol", "sympy.symbols"} and k[2]):
+            return None
+        name = k[2][0]
+        parts = name[1] if name[0] == "fstr" else (name,) if is_const(name, str) else None
+        if parts is None:
+            return None
+        txt = "".join(p[1] if is_const(p, str) else "{}" for p in parts)
+        if pos is not None:
+            names = txt.replace(",", " ").split()
+            txt = names[pos] if isinstance(pos, int) and pos < len(names) else ""
+        return txt.split("{")[0] or None
 
-    def const_index(e):
-        """a name bound once to an int literal (also through `x, y, z = 1, 2, 3`) -> the literal"""
-        if isinstance(e, ast.Name):
-            defs = list(rd.reaching(e))
-            if len(defs) == 1 and defs[0].value is not None:
-                v = defs[0].value
-                if defs[0].index is not None and isinstance(v, (ast.Tuple, ast.List)) and defs[0].index < len(v.elts):
-                    v = v.elts[defs[0].index]
-                if isinstance(v, ast.Constant) and isinstance(v.value, int):
-                    return v
-        return e
-
-    def element(node):
-        """(sign, row, col) of +-ArraySlice(R, (slice(None), row, col)) with R the Wigner rotation matrix"""
+    def element(v):
+        """(sign, row, column) of +-ArraySlice(R, (slice(None), row, column)) with R the Wigner rotation matrix; str = why not"""
         sign = 1
-        node = inl.expr(node)
-        if isinstance(node, ast.UnaryOp) and isinstance(node.op, ast.USub):
-            sign, node = -1, inl.expr(node.operand)
-        if isinstance(node, ast.Call) and isinstance(node.func, ast.Name) and node.func.id in helpers and not node.keywords:
-            # a local one-expression helper `def element(row, column): return ArraySlice(R, (slice(None), row, column))`
-            h = helpers[node.func.id]
-            hparams = [a.arg for a in h.args.args]
-            if len(hparams) == len(node.args):
-                import copy
-
-                sub = dict(zip(hparams, node.args))
-
-                class _S(ast.NodeTransformer):
-                    def visit_Name(self, n):  # noqa: N802
-                        if n.id in sub:
-                            return copy.deepcopy(sub[n.id])
-                        outer = [d for d in rd.defs if d.name == n.id and d.value is not None and d.index is None]
-                        if len(outer) == 1 and len([d for d in rd.defs if d.name == n.id]) == 1:
-                            return outer[0].value  # a closure variable bound exactly once in the enclosing function
-                        return n
-
-                node = _S().visit(copy.deepcopy(h.body[-1].value))
-        if not (isinstance(node, ast.Call) and unparse(node.func).endswith("ArraySlice") and len(node.args) == 2):
-            return None
-        base, idx = inl.expr(node.args[0]), node.args[1]
-        if isinstance(idx, ast.Tuple):
-            idx = ast.Tuple(elts=[const_index(e) for e in idx.elts], ctx=ast.Load())
-        if not (isinstance(base, ast.Call) and tree.resolve(fn.module, base.func, fn) == "ampform.kinematics.angles::compute_wigner_rotation_matrix"):
-            return None
-        if [unparse(a) for a in base.args] != fn.params[:3]:
-            return None
-        if not (isinstance(idx, ast.Tuple) and len(idx.elts) == 3 and unparse(idx.elts[0]) == "slice(None)" and all(isinstance(e, ast.Constant) for e in idx.elts[1:])):
-            return None
-        return (sign, idx.elts[1].value, idx.elts[2].value)
+        while v[0] == "unop" and v[1] == "-":
+            sign, v = -sign, v[2]
+        if v[0] == "mul" and len(v[1]) == 2 and as_number(v[1][0]) == -1:
+            sign, v = -sign, v[1][1]
+        if not (_is_call(v, "ArraySlice") and len(v[2]) == 2 and not v[3]):
+            return f"`{show(v)[:50]}` is not an element ArraySlice(R, (slice(None), row, column))"
+        base, idx = v[2]
+        if base != matrix:
+            return f"`{show(base)[:60]}` is not compute_wigner_rotation_matrix({', '.join(fn.params[:3])})"
+        if not (idx[0] == "tuple" and len(idx[1]) == 3 and idx[1][0] == ("call", ("builtin", "slice"), (NONE,), ()) and all(is_const(e, int) for e in idx[1][1:])):
+            return f"index `{show(idx)[:40]}` is not (slice(None), <row literal>, <column literal>)"
+        return (sign, idx[1][1][1], idx[1][2][1])
 
     want = {
         "alpha": ("atan2", [(1, 3, 2), (1, 3, 1)]),
         "beta": ("acos", [(1, 3, 3)]),
         "gamma": ("atan2", [(1, 2, 3), (-1, 1, 3)]),
     }
-    # which key is which angle: by position in the symbols() call / by the name stem
-    names = []
-    for k in val.keys:
-        defs = list(rd.reaching(k)) if isinstance(k, ast.Name) else []
-        stem = None
-        for d in defs:
-            if isinstance(d.value, ast.Call) and d.index is not None:
-                arg0 = d.value.args[0] if d.value.args else None
-                txt = "".join(str(v.value) if isinstance(v, ast.Constant) else "{}" for v in arg0.values) if isinstance(arg0, ast.JoinedStr) else (arg0.value if isinstance(arg0, ast.Constant) else "")
-                parts = txt.split()
-                if d.index < len(parts):
-                    stem = parts[d.index].split("{")[0]
-            elif isinstance(d.value, ast.Call) and unparse(d.value.func) in {"sp.Symbol", "sympy.Symbol", "Symbol"} and d.value.args:
-                arg0 = d.value.args[0]
-                txt = "".join(str(v.value) if isinstance(v, ast.Constant) else "{}" for v in arg0.values) if isinstance(arg0, ast.JoinedStr) else (arg0.value if isinstance(arg0, ast.Constant) else "")
-                stem = txt.split("{")[0]
-        names.append(stem)
+    names = [stem(unwrap(k)[2]) for k, _ in table]
     if sorted(n or "" for n in names) != ["alpha", "beta", "gamma"]:
         raise AnalysisError(f"{fn.qual}: angle symbols are {names}, expected alpha/beta/gamma + suffix")
-    for name, v in zip(names, val.values):
-        v = inl.expr(v)
+    where = tree.loc(next((r for r in walk_function(fn.node, nested=False) if isinstance(r, ast.Return)), fn.node))
+    for name, (_, v) in zip(names, table):
+        _, pcs, v = unwrap(v)
         func, args = want[name]
-        got = None
-        if isinstance(v, ast.Call) and unparse(v.func).split(".")[-1] == func and len(v.args) == len(args):
-            got = [element(a) for a in v.args]
-        ok = got == args
-        ctx.verdict(ok, "R-TABLE", f"{fn.qual}::{name}", tree.loc(rets[0]),
-                    f"Wigner rotation angle {name} = {func}(" + ", ".join(("-" if s < 0 else "") + f"R[{i},{j}]" for s, i, j in args) + ") (Marangotto 2019, B.2-4)",
-                    None if ok else {"code": unparse(v)[:120], "elements": got})
+        what = f"Wigner rotation angle {name} = {func}(" + ", ".join(("-" if s < 0 else "") + f"R[{i},{j}]" for s, i, j in args) + ") (Marangotto 2019, B.2-4)"
+        key = f"{fn.qual}::{name}"
+        if pcs:
+            judge.cannot(f"{name} is defined only under `{show_pc(pcs)[:50]}`")
+            continue
+        if v[0] != "call" or v[3] or func_name(v).split(".")[-1] not in {"atan2", "acos", "asin", "atan", "acot", "cos", "sin"}:
+            judge.cannot(f"{name} = `{show(v)[:60]}` is not an inverse trigonometric function of matrix elements")
+            continue
+        got = [element(a) for a in v[2]]
+        bad = [g for g in got if isinstance(g, str)]
+        if bad:
+            judge.cannot(f"{name}: {bad[0]}")
+            continue
+        ok = func_name(v).split(".")[-1] == func and got == args
+        ctx.verdict(ok, "R-TABLE", key, where, what, None if ok else {"code": show(v)[:120], "elements": got})
+    judge.finish()
 
 
+AXA = "ampform.helicity.align.axisangle"
+AXA_KNOWN = ("group_by_topology", "get_outer_state_ids", "create_amplitude_base", "get_opposite_helicity_sign", "create_helicity_symbol",
+             "formulate_axis_angle_alignment", "formulate_rotation_chain", "__multiply_pool_sums", "ampform.sympy::PoolSum", "compute_wigner_angles",
+             "create_four_momentum_symbols", "get_parent_id", "is_opposite_helicity_state", "create_spin_range", "formulate_helicity_rotation",
+             "formulate_helicity_rotation_chain", "formulate_wigner_rotation", "create_spin_projection_symbol", "get_helicity_suffix",
+             "get_helicity_angle_symbols", "get_sibling_state_id", "__rationalize")
+CASTS = {"sympy.Rational", "sympy.sympify", "sympy.S", "sympy.Integer", "sympy.Float", "sympy.nsimplify", "float", "int", "decimal.Decimal", "Decimal", "fractions.Fraction"}
+
+
+def _params(fn: FuncInfo) -> list[str]:
+    """All parameter names in declaration order, including `*args` / `**kwargs`."""
+    a = fn.node.args
+    return [x.arg for x in [*a.posonlyargs, *a.args, *a.kwonlyargs]] + ([a.vararg.arg] if a.vararg else []) + ([a.kwarg.arg] if a.kwarg else [])
+
+
+def _core(v):
+    """A value without the numeric conversions around it (``sp.Rational(x)``, ``float(x)``, ``__rationalize(x)``, also when
+    the conversion is applied only on some paths)."""
+    while isinstance(v, tuple) and v:
+        if v[0] == "call" and len(v[2]) == 1 and not v[3] and (func_name(v) in CASTS or func_name(v).endswith("__rationalize")):
+            v = v[2][0]
+        elif v[0] == "phi":
+            cores = {_core(x) for _, x in v[1]}
+            if len(cores) != 1:
+                return v
+            v = next(iter(cores))
+        else:
+            break
+    return v
+
+
+def _is_call(v, suffix: str) -> bool:
+    return isinstance(v, tuple) and bool(v) and v[0] == "call" and (func_name(v) == suffix or func_name(v).endswith("::" + suffix) or func_name(v).endswith("." + suffix))
+
+
+def _all_of(each, base) -> str | None:
+    """Does the generic element ``each`` run over ALL elements of ``base`` (``base`` itself, ``list(base)``, its
+    ``.items()`` / ``.values()`` / ``.keys()``, ``enumerate(base)``)?  -> kind of iteration ("elements", "items", "values",
+    "enumerate"), "part" if only a slice of them, None if the iterable is something else."""
+    if not (isinstance(each, tuple) and each and each[0] == "each"):
+        return None
+    it = each[1]
+    kind, part = "elements", False
+    for _ in range(6):
+        if it == base:
+            return "part" if part else kind
+        if it[0] == "call" and it[1][0] == "builtin" and it[1][1] in {"list", "tuple", "iter", "sorted", "set", "frozenset"} and len(it[2]) == 1 and not it[3]:
+            it = it[2][0]
+        elif it[0] == "call" and it[1] == ("builtin", "enumerate") and len(it[2]) == 1 and kind == "elements":
+            it, kind = it[2][0], "enumerate"
+        elif it[0] == "call" and it[1][0] == "attr" and it[1][2] in {"items", "values", "keys"} and not it[2] and not it[3] and kind == "elements":
+            kind, it = it[1][2], it[1][1]
+            if kind == "keys":
+                kind = "elements"
+        elif it[0] == "sub" and isinstance(it[2], tuple) and it[2] and it[2][0] == "slice":
+            it, part = it[1], part or it[2][1:] != (NONE, NONE, NONE)
+        else:
+            return None
+    return None
+
+
+@_failclosed
 def check_axisangle_amplitude(ctx: Check, tree: Tree) -> None:
     """R-SUMMAND (axis-angle): the aligned amplitude is the sum over ALL topology groups of
-    PoolSum(alignment rotations * amplitude symbol of that topology, <all alignment indices>)."""
-    fn = tree.func("ampform.helicity.align.axisangle::AxisAngleAlignment.formulate_amplitude")
-    rd = RD(fn.node)
-    rets = [r for r, _ in rd.returns if r.value is not None]
-    if len(rets) != 1 or not isinstance(rets[0].value, ast.Name):
-        raise AnalysisError(f"{fn.qual}: expected `return <accumulator>`")
-    acc = rets[0].value.id
-    loops = [n for n in walk_function(fn.node) if isinstance(n, ast.For)]
-    incs = [n for n in walk_function(fn.node) if isinstance(n, ast.AugAssign) and isinstance(n.target, ast.Name) and n.target.id == acc]
+    PoolSum(alignment rotations * amplitude symbol of that topology, <all alignment indices>).
+    Judged on what the method computes (sa/symex.py): an accumulation loop, sum(terms, 0), sp.Add(*terms), terms built
+    by a helper function or method give the same sum."""
+    fn = tree.func(f"{AXA}::AxisAngleAlignment.formulate_amplitude")
+    atoms = frozenset({"formulate_axis_angle_alignment", "group_by_topology", "get_outer_state_ids", "create_amplitude_base", "get_opposite_helicity_sign", "create_helicity_symbol"})
+    sx, value, _ = _symex(tree, fn.qual, atoms)
+    value = _flat(value)
+    judge = Judge(ctx, "check_axisangle_amplitude", AXA_KNOWN)
+    key = f"{fn.qual}::sum-over-topologies"
+    alts = alternatives(value)
+    parts = addends(alts[0][1], sx) if len(alts) == 1 else None
+    if parts is None:
+        raise AnalysisError(f"{fn.qual}: the amplitude `{show(value)[:80]}` is not a sum over the topology groups (accumulation loop / sum(...) / sp.Add(*...))")
+    start, items = parts
     problems = []
-    inits = [d for d in rd.defs if d.name == acc and d.kind == "assign"]
-    if not (len(inits) == 1 and unparse(inits[0].value) in {"sp.S.Zero", "0", "sp.Integer(0)"}):
+    if as_number(start) is None:
+        judge.cannot(f"the sum starts at `{show(start)[:40]}`")
+    elif as_number(start) != 0:
         problems.append("the accumulator does not start at 0")
-    if len(incs) != 1 or not isinstance(incs[0].op, ast.Add):
-        problems.append(f"{len(incs)} accumulation statements (one `+=` expected)")
-    else:
-        inc = incs[0]
-        outer = [a for a in ancestors(inc) if isinstance(a, ast.For)]
-        if not outer or "group_by_topology" not in " ".join([unparse(outer[-1].iter)] + [unparse(d.value) for d in rd.closure(rd.uses(outer[-1].iter)) if isinstance(d.value, ast.AST)]):
+    groups = ("call", ("global", "ampform.helicity.decay::group_by_topology"), (("attr", ("param", fn.params[0]), "transitions"),), ())
+    good = 0
+    for item in items:
+        eaches, pcs, term = unwrap(item)
+        if not (_is_call(term, "PoolSum") and term[2] and not term[3]):
+            judge.cannot(f"the term `{show(term)[:60]}` is not a PoolSum")
+            continue
+        if len(eaches) != 1:
+            judge.cannot(f"the term `{show(term)[:50]}` is added {'once' if not eaches else 'in nested loops'}, not once per topology group")
+            continue
+        kind = _all_of(eaches[0], groups)
+        if kind is None:
+            judge.cannot(f"the terms are formulated for `{show(eaches[0][1])[:60]}`, not for group_by_topology(reaction.transitions)")
+            continue
+        if kind == "part":
             problems.append("the accumulation is not inside the loop over all topology groups")
-        if any(isinstance(a, ast.If) for a in ancestors(inc) if a is not fn.node and any(a is x for x in ast.walk(fn.node))):
-            problems.append("the accumulation is conditional")
-        v = inc.value
-        if not (isinstance(v, ast.Call) and unparse(v.func).endswith("PoolSum") and v.args):
-            problems.append(f"`{unparse(v)[:50]}` is not a PoolSum")
+            good += 1
+            continue
+        if pcs:
+            problems.append(f"the accumulation is conditional ({show_pc(pcs)[:60]})")
+        e = eaches[0]
+        if kind == "items":
+            topo, transitions = [("item", e, 0)], ("item", e, 1)
+        elif kind == "values":
+            topo, transitions = [], e
+        elif kind == "elements":
+            topo, transitions = [e], ("sub", groups, e)
         else:
-            summand = v.args[0]
-            facs = _factors(summand)
-            texts = []
-            for f in facs:
-                texts.append(" ".join([unparse(f)] + [unparse(d.value) for d in rd.closure(rd.uses(f)) if isinstance(d.value, ast.AST)]))
-            has_align = any("formulate_axis_angle_alignment(" in t and ".expression" in unparse(f) for f, t in zip(facs, texts))
-            has_amp = any("create_amplitude_base(" in t for t in texts)
-            if not (len(facs) == 2 and has_align and has_amp):
-                problems.append(f"summand `{unparse(summand)[:60]}` is not <alignment sum>.expression * <amplitude symbol of the topology>")
-            stars = [a for a in v.args[1:] if isinstance(a, ast.Starred)]
-            if not (len(stars) == 1 and unparse(stars[0].value).endswith(".indices") and "formulate_axis_angle_alignment(" in " ".join(unparse(d.value) for d in rd.closure(rd.uses(stars[0].value)) if isinstance(d.value, ast.AST))):
+            judge.cannot(f"iteration `{kind}` over the topology groups")
+            continue
+        aligns = [c for c in calls_of(term, "formulate_axis_angle_alignment")]
+        ok_align = [c for c in aligns if not c[3] and len(c[2]) == 1 and c[2][0][0] == "sub" and c[2][0][1] == transitions and is_const(c[2][0][2], int)]
+        if not aligns:
+            problems.append("the summand does not contain the alignment sum (formulate_axis_angle_alignment)")
+            continue
+        if len(set(aligns)) != 1 or not ok_align:
+            judge.cannot(f"the alignment sum `{show(aligns[0])[:70]}` is not formulated for a transition of the topology group")
+            continue
+        a = aligns[0]
+        topo.append(("attr", a[2][0], "topology"))
+        facs = factors(term[2][0], sx)
+        want_expr = ("attr", a, "expression")
+        amp = [f for f in facs if f[0] == "sub" and _is_call(f[1], "create_amplitude_base")]
+        rest = [f for f in facs if f != want_expr and f not in amp and as_number(f) != 1]
+        if want_expr not in facs or len(amp) != 1 or rest:
+            if all(f == want_expr or f in amp or as_number(f) is not None for f in facs):
+                problems.append(f"summand `{show(term[2][0])[:60]}` is not <alignment sum>.expression * <amplitude symbol of the topology>")
+            else:
+                judge.cannot(f"factor `{show(rest[0])[:50] if rest else show(term[2][0])[:50]}` of the summand is neither the alignment sum's expression nor the amplitude symbol")
+        elif not (len(amp[0][1][2]) == 1 and amp[0][1][2][0] in topo):
+            if not_followed(amp[0][1][2][0] if amp[0][1][2] else NONE, AXA_KNOWN) is None and amp[0][1][2] and amp[0][1][2][0][0] in {"item", "each", "attr", "sub"} and amp[0][1][2][0] not in topo:
+                judge.cannot(f"the amplitude symbol is created for `{show(amp[0][1][2][0])[:50]}`")
+        idx = term[2][1:]
+        if idx != (("star", ("attr", a, "indices")),):
+            if not idx or all(x[0] != "star" for x in idx):
                 problems.append("the PoolSum does not range over all indices of the alignment sum")
-    ctx.verdict(not problems, "R-SUMMAND", f"{fn.qual}::sum-over-topologies", tree.loc(fn.node),
-                "axis-angle: amplitude = sum over all topology groups of PoolSum(alignment.expression * A^topology[helicities], *alignment.indices)", problems or None)
+            else:
+                judge.cannot(f"the PoolSum ranges over `{', '.join(show(x)[:40] for x in idx)}`, not over *<alignment sum>.indices")
+        good += 1
+    if not items or (not good and not judge.undecided):
+        problems.append("no term is added for the topology groups")
+    judge.decide(not problems, (value,), "R-SUMMAND", key, tree.loc(fn.node),
+                 "axis-angle: amplitude = sum over all topology groups of PoolSum(alignment.expression * A^topology[helicities], *alignment.indices)", problems or None)
+    judge.finish()
 
 
 def _call_arg(tree: Tree, call, qual: str, pname: str):
@@ -982,6 +1720,327 @@ def _call_arg(tree: Tree, call, qual: str, pname: str):
     return None
 
 
+def _flat(v):
+    """``v`` with every iteration over a COLLECTED iteration replaced by the iteration itself (symex.flatten_each: the
+    consumer of a generator / comprehension sees what the producer ranged over) and components of known tuples taken out
+    (`for a, b in ((x, y) for ...)`: a = x, b = y)."""
+    from ..symex import Undecided, flatten_each
+
+    try:
+        v = flatten_each(v)
+    except Undecided:
+        return v
+
+    def reduce(t):
+        if not isinstance(t, tuple):
+            return t
+        t = tuple(reduce(y) for y in t)
+        if t and t[0] == "item" and len(t) == 3 and isinstance(t[1], tuple) and t[1] and t[1][0] in {"tuple", "list"} and isinstance(t[2], int) \
+                and 0 <= t[2] < len(t[1][1]) and not any(isinstance(x, tuple) and x and x[0] in {"foreach", "star", "when"} for x in t[1][1]):
+            return t[1][1][t[2]]
+        return t
+
+    return reduce(v)
+
+
+def _selection(sx, eaches, pcs, s):
+    """The elements a value ``s`` (a generic element) runs over, looked through one comprehension / filter that only
+    selects (`ids = {i for i in xs if c(i)}; for s in ids`): (underlying generic element, conditions) or None."""
+    conds = tuple(pcs)
+    for _ in range(3):
+        if not (isinstance(s, tuple) and s and s[0] == "each"):
+            return None
+        it = s[1]
+        while it[0] == "call" and it[1][0] == "builtin" and it[1][1] in {"list", "tuple", "set", "frozenset", "sorted", "iter"} and len(it[2]) == 1 and not it[3]:
+            it = it[2][0]
+        if it[0] in {"set", "list", "tuple"} and len(it[1]) == 1 and it[1][0][0] == "foreach":
+            es, cs, elem = unwrap(it[1][0])
+            if len(es) == 1 and elem == es[0]:
+                s, conds = es[0], conds + cs
+                continue
+            return None
+        return s, conds
+    return None
+
+
+def _product_items(v, mul_q: str, sx, given: tuple = ()) -> list | None:
+    """The pool sums that are multiplied, whatever the grouping: ``__multiply_pool_sums([a, b])`` / ``(a, b)`` /
+    ``(*xs)``, nested products, a fold ``acc = __multiply_pool_sums([acc, x])`` over an iterable (-> ``foreach`` item).
+    ``given``: the path condition under which ``v`` is computed (items of a list built there repeat it)."""
+    if v[0] == "fold":
+        step, head = v[3], v[4]
+        conds = ()
+        if step[0] == "when":
+            conds, step = step[1], step[2]
+        inner = _product_items(step, mul_q, sx, given + conds)
+        if inner is None or sum(1 for x in inner if x == head) != 1 or any(x != head and contains_value(x, head) for x in inner):
+            return None
+        init = _product_items(v[2], mul_q, sx, given)
+        if init is None:
+            return None
+        out = list(init)
+        for x in inner:
+            if x == head:
+                continue
+            if conds:
+                x = ("when", conds, x)
+            for e in reversed(v[1]):
+                x = ("foreach", e, x)
+            out.append(x)
+        return out
+    if v[0] == "call" and func_name(v) == mul_q:
+        if v[3] or len(v[2]) != 1:
+            return None
+        seq = sx.as_items(v[2][0])
+        if seq is None:
+            return None
+        out = []
+        for x in seq:
+            es, cs, plain = unwrap(x)
+            if plain[0] == "star":
+                return None
+            cs = tuple(c for c in cs if c not in given)
+            inner = _product_items(plain, mul_q, sx, given) if not es and not cs else [x]
+            if inner is None:
+                return None
+            out += inner
+        return out
+    return [v]
+
+
+def contains_value(v, sub) -> bool:
+    return any(x == sub for x in subterms(v))
+
+
+def _rotation_calls(tree: Tree, top: FuncInfo):
+    """Every call of formulate_helicity_rotation that `top` (or a recursive local function of it, which the symbolic
+    execution does not unfold) makes: [(call value, ast node or None)] with the arguments bound to the parameters."""
+    atoms = frozenset({ROTATION, "__multiply_pool_sums"})
+    sx, value, _ = _symex(tree, top.qual, atoms)
+    found: list = []
+
+    def collect(sx_, *values):
+        for v in values:
+            for x in subterms(v) if isinstance(v, tuple) else ():
+                if x[0] == "call" and func_name(x) == ROTATION and x not in [c for c, _ in found]:
+                    found.append((x, sx_.origin.get(x)))
+
+    def harvest(sx_, value_):
+        collect(sx_, value_)
+        for e in sx_.events:
+            collect(sx_, *[p for p in e[2:-1] if isinstance(p, tuple)])
+        for info in sx_.loops.values():
+            collect(sx_, *[x for extra in info.extras.values() if extra for x in extra], *info.end.values())
+
+    harvest(sx, value)
+    done = set()
+    for e in list(sx.events):
+        if e[0] != "localcall" or e[2][1][0] != "localfunc" or e[2][1][1] in done:
+            continue
+        owner = tree.funcs.get(e[2][1][1])
+        if owner is None:
+            continue
+        done.add(owner.qual)
+        nonlocals = sorted({name for n in walk_function(owner.node, nested=False) if isinstance(n, ast.Nonlocal) for name in n.names})
+        closure = dict(e[3])
+        closure.update({n: ("carried", n, 0) for n in nonlocals})
+        sx2 = SymEx(tree, atoms=atoms)
+        try:
+            v2, _ = sx2.run(owner, args={p: ("carried", p, 0) for p in owner.params}, closure=closure)
+        except AnalysisError:
+            raise
+        except Exception as exc:  # noqa: BLE001
+            raise AnalysisError(f"{owner.qual}: symbolic execution failed ({exc!r})") from exc
+        harvest(sx2, v2)
+    return found
+
+
+@_failclosed
+def check_wiring(ctx: Check, tree: Tree) -> None:
+    """R-WIRING: inside formulate_helicity_rotation the PoolSum runs over create_spin_range(s) of the same s that is j
+    of the Wigner-D and sums the index that is m' of the Wigner-D; every caller passes spin and masslessness of the
+    rotated state.  Judged on the values of sa/symex.py."""
+    rot = tree.func(ROTATION)
+    judge = Judge(ctx, "check_wiring", AXA_KNOWN)
+    sx, value, _ = _symex(tree, ROTATION, frozenset({"create_spin_range"}))
+    alts = alternatives(value)
+    if len(alts) != 1 or not (_is_call(alts[0][1], "PoolSum") and not alts[0][1][3]):
+        raise AnalysisError(f"{ROTATION}: expected one PoolSum construction, found `{show(value)[:60]}`")
+    ps = alts[0][1]
+    wd = [c for c in subterms(ps[2][0]) if c[0] == "call" and func_name(c).split(".")[-1] == "D" and "Rotation" in func_name(c)] if ps[2] else []
+    if len(set(wd)) != 1:
+        raise AnalysisError(f"{ROTATION}: expected one Wigner.D call inside the PoolSum")
+    names = ["j", "m", "mp", "alpha", "beta", "gamma"]
+    dargs = dict(zip(names, wd[0][2]))
+    dargs.update({k: v for k, v in wd[0][3]})
+    problems, detail = [], {}
+    j_core = _core(dargs.get("j", NONE))
+    if len(ps[2]) != 2 or not (ps[2][1][0] == "tuple" and len(ps[2][1][1]) == 2):
+        judge.cannot(f"the PoolSum of formulate_helicity_rotation has the indices `{', '.join(show(x)[:40] for x in ps[2][1:])}`, not one (symbol, pool) pair")
+    else:
+        sym, pool = ps[2][1][1]
+        # the pool: the elements of create_spin_range(<spin>, ...), possibly converted one by one
+        ranges = list(dict.fromkeys(calls_of(pool, "create_spin_range")))
+        elems = None
+        plain = pool
+        while plain[0] == "call" and plain[1][0] == "builtin" and plain[1][1] in {"list", "tuple", "sorted"} and len(plain[2]) == 1 and not plain[3]:
+            plain = plain[2][0]
+        if len(ranges) == 1 and plain == ranges[0]:
+            elems = ()
+        elif len(ranges) == 1 and plain[0] in {"list", "tuple", "set"} and len(plain[1]) == 1:
+            es, cs, elem = unwrap(plain[1][0])
+            if len(es) == 1 and _all_of(es[0], ranges[0]) == "elements" and _core(elem) == es[0]:
+                elems = cs
+        if not ranges:
+            if not_followed(pool, AXA_KNOWN) is None:
+                problems.append("the summation pool is not built from create_spin_range(...)")
+            else:
+                judge.cannot("the summation pool of formulate_helicity_rotation was not followed")
+        elif elems is None:
+            judge.cannot(f"the summation pool `{show(pool)[:70]}` is not the elements of create_spin_range(...)")
+        else:
+            if elems:
+                problems.append(f"the summation pool is filtered ({show_pc(elems)[:50]})")
+            target = tree.func(SPIN_RANGE)
+            spin = _call_arg(tree, ranges[0], SPIN_RANGE, target.params[0])
+            pool_core = _core(spin) if spin is not None else None
+            detail = {"pool_spin": show(pool_core) if pool_core is not None else None, "wigner_j": show(j_core), "index_is_mp": sym == dargs.get("mp")}
+            if pool_core is None or pool_core[0] != "param" or j_core[0] != "param":
+                judge.cannot(f"spin of the pool `{detail['pool_spin']}` / j of the Wigner-D `{detail['wigner_j']}` is not a parameter")
+            elif pool_core != j_core:
+                problems.append(f"the pool is the spin range of `{pool_core[1]}`, j of the Wigner-D is `{j_core[1]}`")
+            if sym != dargs.get("mp"):
+                problems.append(f"the summed index `{show(sym)[:30]}` is not m' of the Wigner-D (`{show(dargs.get('mp', NONE))[:30]}`)")
+    if problems or not judge.undecided:
+        judge.decide(not problems, (ps,), "R-WIRING", f"{ROTATION}::pool-vs-j", tree.loc(sx.origin.get(ps) if hasattr(sx.origin.get(ps), "lineno") else rot.node),
+                     "formulate_helicity_rotation: PoolSum index pool = create_spin_range(s) of the same s that is j of the Wigner-D, summed index = mp", problems or detail or None)
+    # callers pass the spin / mass of the rotated state
+    n_calls = 0
+    tops = []
+    for q, fn in sorted(tree.funcs.items()):
+        if not q.startswith("ampform") or fn.qual == ROTATION:
+            continue
+        if any(callee == ROTATION for _, callee in tree.calls_in(fn, nested=False)):
+            top = fn
+            while top.outer is not None:
+                top = top.outer
+            # a private helper that was extracted from a caller is judged as part of its callers (the symbolic execution
+            # of the caller runs through it with the caller's arguments)
+            todo, entries = [top], []
+            for _ in range(4):
+                nxt = []
+                for t in todo:
+                    users = [o for o in tree.funcs.values() if o is not t and o.outer is None and o.module is t.module and any(c == t.qual for _, c in tree.calls_in(o, nested=True))]
+                    if t.name.startswith("_") and not t.name.startswith("__") and users:
+                        nxt += users
+                    else:
+                        entries.append(t)
+                todo = nxt
+                if not todo:
+                    break
+            for t in entries + todo:
+                if t not in tops:
+                    tops.append(t)
+    for top in tops:
+        for call, node in _rotation_calls(tree, top):
+            n_calls += 1
+            scope = (tree.func_of(node) if node is not None else None) or top
+            spin = _call_arg(tree, call, ROTATION, "spin_magnitude")
+            nz = _call_arg(tree, call, ROTATION, "no_zero_spin")
+            spin_txt = show(spin) if spin is not None else None
+            nz_txt = show(nz) if nz is not None else None
+            key = f"{scope.qual}::call formulate_helicity_rotation::spin"
+            where = tree.loc(node) if node is not None and hasattr(node, "lineno") else tree.loc(top.node)
+            what = f"{scope.qual} -> formulate_helicity_rotation(spin_magnitude={spin_txt}, no_zero_spin={nz_txt})"
+            if call[3] and spin is None:
+                judge.cannot(f"{scope.qual}: the call of formulate_helicity_rotation could not be bound to its parameters")
+                continue
+            params = [("param", p) for p in top.params]
+
+            def state_of(v, leaf: str):
+                """X of `X.particle.<leaf>`"""
+                if v[0] == "attr" and v[2] == leaf and v[1][0] == "attr" and v[1][2] == "particle":
+                    return v[1][1]
+                return None
+
+            def is_rotated_state(x) -> bool:
+                return x[0] == "sub" and x[1][0] == "attr" and x[1][2] == "states" and x[1][1] in params and x[2] in params
+
+            why = None
+            definite = False
+            if spin is None:
+                why, definite = "spin_magnitude not passed", True
+            else:
+                st_spin = state_of(_core(spin), "spin")
+                if st_spin is None:
+                    why = f"spin_magnitude = {spin_txt} is not <transition>.states[<rotated id>].particle.spin of the caller's parameters"
+                elif not is_rotated_state(st_spin):
+                    # another state of the transition (`transition.initial_states[-1]`, `transition.states[0]`) is positive
+                    # evidence; a state object that is handed in / comes out of a call is not followed to its origin
+                    why, definite = f"spin_magnitude = {spin_txt} is not <transition>.states[<rotated id>].particle.spin of the caller's parameters", st_spin[0] in {"sub", "item"} and _leaf(st_spin)
+                elif nz is not None:
+                    tests = [x for x in subterms(nz) if x[0] == "cmp" and x[1] == "==" and as_number(x[3]) == 0 and state_of(x[2], "mass") is not None]
+                    if nz == ("const", False):
+                        pass
+                    elif len(tests) != 1 or tests[0] != nz:
+                        why = f"no_zero_spin = {nz_txt} is not the masslessness of the same state {show(st_spin)}"
+                        definite = bool(tests) and all(state_of(t[2], "mass") != st_spin for t in tests)
+                    elif state_of(tests[0][2], "mass") != st_spin:
+                        why, definite = f"no_zero_spin = {nz_txt} is not the masslessness of the same state {show(st_spin)}", True
+            if why is None:
+                ctx.verdict(True, "R-WIRING", key, where, what, None)
+            elif definite and not_followed(("tuple", tuple(x for x in (spin, nz) if x is not None)), AXA_KNOWN) is None:
+                ctx.verdict(False, "R-WIRING", key, where, what, why)
+            else:
+                judge.cannot(f"{scope.qual}: {why}")
+    if n_calls < 2:
+        raise AnalysisError(f"only {n_calls} callers of formulate_helicity_rotation (2 confirmed)")
+    judge.finish()
+
+
+def _exactly_one(pc, length) -> bool | None:
+    """Is the path condition `len(x) ... k` true exactly for length 1 (of lengths 1..8)?  None if it is no such test."""
+    if len(pc) != 1:
+        return None
+    t, outcome = pc[0]
+    if not (t[0] == "cmp" and t[1] in {"==", "<", "<=", ">", ">="}):
+        return None
+    import operator
+
+    ops = {"==": operator.eq, "<": operator.lt, "<=": operator.le, ">": operator.gt, ">=": operator.ge}
+    if t[2] == length and is_const(t[3], int):
+        f = lambda n: ops[t[1]](n, t[3][1])  # noqa: E731
+    elif t[3] == length and is_const(t[2], int):
+        f = lambda n: ops[t[1]](t[2][1], n)  # noqa: E731
+    else:
+        return None
+    return {n for n in range(1, 9) if f(n) == outcome} == {1}
+
+
+def _offset_from(v, base):
+    """k if ``v`` is ``base + k`` (k an int literal, also ``base - k`` / ``k + base`` / ``base``), else None."""
+    if v == base:
+        return 0
+    if v[0] == "binop" and v[1] in {"+", "-"}:
+        if is_const(v[3], int):
+            inner = _offset_from(v[2], base)
+            return None if inner is None else inner + (v[3][1] if v[1] == "+" else -v[3][1])
+        if v[1] == "+" and is_const(v[2], int):
+            inner = _offset_from(v[3], base)
+            return None if inner is None else inner + v[2][1]
+    return None
+
+
+def _leaf(v) -> bool:
+    """A plain, completely known operand: parameter, literal, attribute / subscript chain of those."""
+    while v[0] in {"attr", "sub", "item"}:
+        if v[0] == "sub" and not _leaf(v[2]):
+            return False
+        v = v[1]
+    return v[0] in {"param", "const", "global"}
+
+
+@_failclosed
 def check_axisangle_structure(ctx: Check, tree: Tree) -> None:
     """Further structural obligations of the axis-angle alignment (all in helicity/align/axisangle.py):
     (a) formulate_rotation_chain returns the helicity rotations alone iff there is exactly one
@@ -991,40 +2050,66 @@ def check_axisangle_structure(ctx: Check, tree: Tree) -> None:
         not the initial state and merges every result;
     (c) __multiply_pool_sums multiplies all summands and concatenates ALL index lists;
     (d) get_opposite_helicity_sign is -1 iff the state is not the initial state and is the
-        opposite-helicity state, +1 otherwise."""
-    mod = "ampform.helicity.align.axisangle"
+        opposite-helicity state, +1 otherwise.
+    All judged on what the functions compute (sa/symex.py); three-valued: a shape that is followed completely and
+    breaks the obligation is a violation, a shape the rule cannot interpret an ANALYSIS-ERROR."""
+    judge = Judge(ctx, "check_axisangle_structure", AXA_KNOWN)
+    for part in (_structure_rotation_chain, _structure_define_symbols, _structure_multiply, _structure_all_final_states,
+                 _structure_wigner_rotation, _structure_wigner_d, _structure_sign):
+        try:
+            part(ctx, tree, judge)
+        except AnalysisError as exc:
+            judge.cannot(str(exc))
+    judge.finish()
+
+
+def _structure_rotation_chain(ctx: Check, tree: Tree, judge: Judge) -> None:
     # (a) judged on what formulate_rotation_chain computes (sa/symex.py): temporaries, helper functions that build
     #     the index symbol, keyword / positional arguments do not matter
+    mod = AXA
     fn = tree.func(f"{mod}::formulate_rotation_chain")
     chain_q, wigner_q = f"{mod}::formulate_helicity_rotation_chain", f"{mod}::formulate_wigner_rotation"
+    mul_q = f"{mod}::__multiply_pool_sums"
     sx, value, _ = _symex(tree, fn.qual, frozenset({chain_q, wigner_q, "__multiply_pool_sums"}))
     problems = []
+    before = len(judge.undecided)
     _require_known(fn.qual, value)
     alts = cases(value)
     is_chain = lambda v: v[0] == "call" and func_name(v) == chain_q  # noqa: E731
     early = [(pc, v) for pc, v in alts if is_chain(v)]
     hr = early[0][1] if early else next((x for x in subterms(value) if is_chain(x)), None)
+    if hr is None:
+        raise AnalysisError(f"{fn.qual}: expected calls of formulate_helicity_rotation_chain and formulate_wigner_rotation")
+    length = ("call", ("builtin", "len"), (("attr", hr, "indices"),), ())
     if len(early) != 1:
         problems.append("no early return of the bare helicity rotations")
     else:
-        pc = early[0][0]
-        want = ("cmp", "==", ("call", ("builtin", "len"), (("attr", hr, "indices"),), ()), ("const", 1))
-        if pc != ((want, True),):
-            problems.append(f"the bare helicity rotations are returned under `{show_pc(pc)[:80] if pc else '?'}`, not iff there is exactly one rotation")
+        one = _exactly_one(early[0][0], length)
+        if one is None:
+            judge.cannot(f"the bare helicity rotations are returned under `{show_pc(early[0][0])[:80]}`, which is no test of the number of rotations")
+        elif not one:
+            problems.append(f"the bare helicity rotations are returned under `{show_pc(early[0][0])[:80] if early[0][0] else '?'}`, not iff there is exactly one rotation")
     final = [(pc, v) for pc, v in alts if not is_chain(v)]
-    wr_calls = [x for x in subterms(value) if x[0] == "call" and func_name(x) == wigner_q]
-    if len(final) != 1 or not (final[0][1][0] == "call" and func_name(final[0][1]).endswith("__multiply_pool_sums")):
+    wr_calls = list(dict.fromkeys(x for x in subterms(value) if x[0] == "call" and func_name(x) == wigner_q))
+    if len(final) != 1 or not (final[0][1][0] == "call" and func_name(final[0][1]) == mul_q):
         problems.append("the general case does not return the product of helicity rotations and Wigner rotation")
     else:
-        prod = final[0][1]
-        if not (any(is_chain(x) for x in subterms(prod)) and any(x in wr_calls for x in subterms(prod))):
+        items = _product_items(final[0][1], mul_q, sx, final[0][0])
+        if items is None:
+            judge.cannot(f"the factors of the product `{show(final[0][1])[:70]}` are not known one by one")
+        elif not (any(is_chain(x) for x in items) and any(x in wr_calls for x in items)):
             problems.append("the product does not contain both the helicity rotations and the Wigner rotation")
-        if len(wr_calls) == 1 and hr is not None:
+        if len(wr_calls) == 1:
             mp = _call_arg(tree, wr_calls[0], wigner_q, "m_prime")
-            next_free = ("call", ("builtin", "len"), (("attr", hr, "indices"),), ())
-            names = [x for x in subterms(mp)] if mp is not None else []
-            if early and not any(x[0] == "sub" and x[1][0] == "global" and x[1][1].endswith("__GREEK_INDEX_NAMES") and x[2] == next_free for x in names):
-                problems.append("the Wigner rotation's summation index is not the next free index name")
+            greek = [x for x in subterms(mp) if x[0] == "sub" and x[1][0] == "global" and x[1][1].endswith("__GREEK_INDEX_NAMES")] if mp is not None else []
+            if len(greek) != 1:
+                judge.cannot("the Wigner rotation's summation index is not named by one entry of __GREEK_INDEX_NAMES")
+            else:
+                off = _offset_from(greek[0][2], length)
+                if off is None:
+                    judge.cannot(f"the Wigner rotation's index name `{show(greek[0])[:60]}` is not chosen by the number of helicity rotations")
+                elif off != 0:
+                    problems.append("the Wigner rotation's summation index is not the next free index name")
     # both kinds of rotation act on the SAME outer index: the spin-projection symbol of the rotated state.
     # A value that can be None makes formulate_wigner_rotation fall back to the concrete projection of
     # one transition: the D-matrix row is then fixed instead of summed, the rotation no longer unitary.
@@ -1039,6 +2124,20 @@ def check_axisangle_structure(ctx: Check, tree: Tree) -> None:
             return all(never_none_symbol(x, depth + 1) for _, x in v[1])
         return False
 
+    def may_be_none(v, depth=0) -> bool:
+        """positive evidence: on some path the value is None, a parameter (callers may pass None / nothing) or a symbol of another state"""
+        if v is None or depth > 6:
+            return v is None
+        if v == NONE or v[0] == "param":
+            return True
+        if v[0] == "call" and func_name(v).endswith("create_spin_projection_symbol"):
+            return v[2] != (("param", fn.params[1]),)
+        if v[0] == "or":
+            return may_be_none(v[1][-1], depth + 1)
+        if v[0] == "phi":
+            return any(may_be_none(x, depth + 1) for _, x in v[1])
+        return False
+
     bound = []
     for suffix, q in (("formulate_helicity_rotation_chain", chain_q), ("formulate_wigner_rotation", wigner_q)):
         seen = []
@@ -1048,99 +2147,206 @@ def check_axisangle_structure(ctx: Check, tree: Tree) -> None:
             seen.append(c)
             e = _call_arg(tree, c, q, "helicity_symbol")
             bound.append((suffix, e))
-            if e is None:
+            if e is None and c[3] == () and len(c[2]) == len(tree.func(q).params):
                 problems.append(f"{suffix}(...) is called without the outer helicity symbol (falls back to the concrete projection of one transition)")
+            elif e is None:
+                judge.cannot(f"the call {suffix}(...) could not be bound to its parameters")
             elif not never_none_symbol(e):
-                problems.append(f"{suffix}(... helicity_symbol=`{show(e)[:50]}`) is not always create_spin_projection_symbol({fn.params[1]}): it may be None / another symbol")
+                if may_be_none(e):
+                    problems.append(f"{suffix}(... helicity_symbol=`{show(e)[:50]}`) is not always create_spin_projection_symbol({fn.params[1]}): it may be None / another symbol")
+                else:
+                    judge.cannot(f"{suffix}(... helicity_symbol=`{show(e)[:50]}`): not recognised as the spin-projection symbol of the rotated state")
     if len({s_ for s_, _ in bound}) < 2:
         raise AnalysisError(f"{fn.qual}: expected calls of formulate_helicity_rotation_chain and formulate_wigner_rotation")
-    ctx.verdict(not problems, "R-WIRING", f"{fn.qual}::wigner-iff-nested", tree.loc(fn.node),
-                "formulate_rotation_chain: one helicity rotation -> returned alone; more -> times the Wigner rotation with the next free summation index", problems or None)
+    if problems or len(judge.undecided) == before:
+        judge.decide(not problems, (value,), "R-WIRING", f"{fn.qual}::wigner-iff-nested", tree.loc(fn.node),
+                     "formulate_rotation_chain: one helicity rotation -> returned alone; more -> times the Wigner rotation with the next free summation index", problems or None)
+
+
+def _structure_define_symbols(ctx: Check, tree: Tree, judge: Judge) -> None:
     # (b)
-    fn = tree.func(f"{mod}::AxisAngleAlignment.define_symbols")
-    rd = RD(fn.node)
+    fn = tree.func(f"{AXA}::AxisAngleAlignment.define_symbols")
+    sx, value, _ = _symex(tree, fn.qual, frozenset({"group_by_topology", "get_parent_id", "create_four_momentum_symbols"}))
+    value = _flat(value)
+    before = len(judge.undecided)
     problems = []
-    calls = [c for c in walk_function(fn.node) if isinstance(c, ast.Call) and unparse(c.func).endswith("compute_wigner_angles")]
-    if len(calls) != 1:
-        raise AnalysisError(f"{fn.qual}: expected one call of compute_wigner_angles")
-    c = calls[0]
-    returned = {n.id for r, _ in rd.returns if r.value is not None for n in ast.walk(r.value) if isinstance(n, ast.Name)}
-    merged = False
-    for d in rd.defs:
-        if d.value is c:
-            for node in walk_function(fn.node):
-                if isinstance(node, ast.Call) and isinstance(node.func, ast.Attribute) and node.func.attr == "update" and isinstance(node.func.value, ast.Name) and node.func.value.id in returned:
-                    if any(isinstance(n, ast.Name) and d in rd.reaching(n) for a_ in node.args for n in ast.walk(a_)):
-                        merged = True
-    for a in ancestors(c):
-        if isinstance(a, ast.Call) and isinstance(a.func, ast.Attribute) and a.func.attr == "update" and isinstance(a.func.value, ast.Name) and a.func.value.id in returned:
-            merged = True
-    if not merged:
+    alts = alternatives(value)
+    if len(alts) != 1 or alts[0][1][0] != "dict":
+        raise AnalysisError(f"{fn.qual}: the result `{show(value)[:70]}` is not a dictionary that is filled here")
+    groups = ("call", ("global", "ampform.helicity.decay::group_by_topology"), (("attr", ("param", fn.params[0]), "transitions"),), ())
+    entries = []
+    for k, v in alts[0][1][1]:
+        eaches, pcs, key = unwrap(k)
+        if key[0] == "star" and _is_call(key[1], "compute_wigner_angles"):
+            entries.append((eaches, pcs + unwrap(v)[1], key[1]))
+        elif key[0] == "star" or calls_of(k, "compute_wigner_angles") or calls_of(v, "compute_wigner_angles"):
+            judge.cannot(f"the entry `{show(k)[:60]}` of the returned dictionary")
+    if not entries and len(judge.undecided) == before:
         problems.append("the angles returned by compute_wigner_angles are not merged into the returned dictionary")
-    sid = c.args[2] if len(c.args) > 2 else None
-    stexts = [unparse(d.value) for d in rd.closure(rd.uses(sid)) if isinstance(d.value, ast.AST)] + [unparse(d.node.iter) for d in rd.closure(rd.uses(sid)) if d.kind == "for" and isinstance(d.node, ast.For)] if sid is not None else []
-    filt = None
-    for node in walk_function(fn.node):
-        if isinstance(node, (ast.SetComp, ast.ListComp, ast.GeneratorExp)) and any("get_parent_id" in unparse(i) for g in node.generators for i in g.ifs):
-            filt = node
-    if filt is None:
-        problems.append("the rotated states are not selected by their parent (get_parent_id)")
-    else:
-        g = filt.generators[0]
-        cond = next(i for i in g.ifs if "get_parent_id" in unparse(i))
-        ok_c = isinstance(cond, ast.Compare) and len(cond.ops) == 1 and isinstance(cond.ops[0], ast.NotEq) and unparse(cond.comparators[0]) in {"-1"} and "outgoing_edge_ids" in unparse(g.iter)
-        if not ok_c:
-            problems.append(f"selection `{unparse(cond)}` over `{unparse(g.iter)}` is not: final states whose parent is not the initial state")
-    ctx.verdict(not problems, "R-WIRING", f"{fn.qual}::defines-nested-final-states", tree.loc(fn.node),
-                "AxisAngleAlignment.define_symbols: Wigner angles for every final state whose parent is not the initial state, all merged into the result", problems or None)
-    # (c)
-    fn = tree.func(f"{mod}::__multiply_pool_sums")
-    rd = RD(fn.node)
-    problems = []
-    param = fn.params[0]
-    rets = [r for r, _ in rd.returns if r.value is not None]
-    if len(rets) != 1 or not (isinstance(rets[0].value, ast.Call) and unparse(rets[0].value.func).endswith("PoolSum") and len(rets[0].value.args) == 2 and isinstance(rets[0].value.args[1], ast.Starred)):
-        problems.append("does not return PoolSum(product, *indices)")
-    else:
-        prod, idx = rets[0].value.args[0], rets[0].value.args[1].value
-        ptxt = " ".join([unparse(prod)] + [unparse(d.value) for d in rd.closure(rd.uses(prod)) if isinstance(d.value, ast.AST)])
-        if not ("sp.Mul(*" in ptxt and ".expression" in ptxt and f"in {param}" in ptxt):
-            problems.append("the summand is not the product of the summands of all factors")
-        ext = [n for n in walk_function(fn.node) if isinstance(n, ast.Call) and isinstance(n.func, ast.Attribute) and n.func.attr in {"extend"} and isinstance(idx, ast.Name) and unparse(n.func.value) == idx.id]
-        ok_e = len(ext) == 1 and unparse(ext[0].args[0]).endswith(".indices") and any(isinstance(a, ast.For) and unparse(a.iter) == param for a in ancestors(ext[0])) and not any(isinstance(a, ast.If) for a in ancestors(ext[0]) if any(a is x for x in ast.walk(fn.node)) and a is not fn.node)
-        if not ok_e:
-            problems.append("the index lists of all factors are not concatenated unconditionally")
-    ctx.verdict(not problems, "R-WIRING", f"{fn.qual}::product-of-sums", tree.loc(fn.node), "__multiply_pool_sums: PoolSum(product of all summands, *indices of all factors)", problems or None)
-    # (e) the complete alignment = neutral element times the rotation chain of EVERY final state
-    fn = tree.func(f"{mod}::formulate_axis_angle_alignment")
-    rd = RD(fn.node)
-    problems = []
-    rets = [r for r, _ in rd.returns if r.value is not None]
-    acc = rets[0].value.id if len(rets) == 1 and isinstance(rets[0].value, ast.Name) else None
-    if acc is None:
-        problems.append("does not return an accumulator")
-    else:
-        inits = [d for d in rd.defs if d.name == acc and d.kind == "assign" and not any(isinstance(a, ast.For) for a in ancestors(d.node))]
-        if not (len(inits) == 1 and unparse(inits[0].value).replace(" ", "") in {"PoolSum(1)", "PoolSum(sp.S.One)", "PoolSum(sp.Integer(1))"}):
-            problems.append(f"the product does not start from the neutral element PoolSum(1) ({[unparse(d.value) for d in inits]})")
-        steps = [d for d in rd.defs if d.name == acc and d.kind == "assign" and any(isinstance(a, ast.For) for a in ancestors(d.node))]
-        if len(steps) != 1:
-            problems.append("no single accumulation step inside the loop over the final states")
+    for eaches, pcs, call in entries:
+        if call[3] or len(call[2]) != 3:
+            judge.cannot(f"the call `{show(call)[:60]}` could not be bound")
+            continue
+        topo, momenta, state = call[2]
+        if _all_of(topo, groups) not in {"elements"} or topo not in eaches:
+            if _all_of(topo, groups) == "part":
+                problems.append("the angles are not defined for all topology groups")
+            else:
+                judge.cannot(f"the topology `{show(topo)[:50]}` of compute_wigner_angles is not an element of group_by_topology(reaction.transitions)")
+            continue
+        sel = _selection(sx, eaches, pcs, state)
+        if sel is None:
+            judge.cannot(f"the rotated states `{show(state)[:60]}` are not a selection of elements")
+            continue
+        s, conds = sel
+        other = [c for t, _ in conds for c in calls_of(t, "get_parent_id") if not c[3] and len(c[2]) == 2 and c[2][1] == s and c[2][0] != topo]
+        if other:
+            problems.append(f"the rotated states are selected by their parent in `{show(other[0][2][0])[:50]}`, not in the topology the angles are computed for")
+            continue
+        if s[1] != ("attr", topo, "outgoing_edge_ids"):
+            if s[1][0] == "attr" and s[1][1] == topo:
+                problems.append(f"the rotated states are taken from `{show(s[1])[:50]}`, not from the final states (outgoing_edge_ids)")
+            else:
+                judge.cannot(f"the rotated states run over `{show(s[1])[:50]}`")
+            continue
+        parent = ("call", ("global", "ampform.helicity.decay::get_parent_id"), (topo, s), ())
+        want = (("cmp", "==", parent, ("const", -1)), False)
+        mine = [c for c in conds if contains_value(c[0], s)]
+        if [c for c in conds if c not in mine]:
+            problems.append(f"the definition is conditional ({show_pc(tuple(c for c in conds if c not in mine))[:50]})")
+        if mine == [want]:
+            pass
+        elif not mine:
+            problems.append("the rotated states are not selected by their parent (get_parent_id): all final states")
+        elif len(mine) == 1 and mine[0][0][0] == "cmp" and mine[0][0][2] == parent and is_const(mine[0][0][3]):
+            problems.append(f"selection `{show_pc(tuple(mine))[:60]}` is not: final states whose parent is not the initial state")
         else:
-            st = steps[0]
-            loop = next(a for a in ancestors(st.node) if isinstance(a, ast.For))
-            txt = unparse(st.value) + " ".join(unparse(d.value) for d in rd.closure(rd.uses(st.value)) if isinstance(d.value, ast.AST))
-            if not (unparse(loop.iter).endswith(".final_states") and "__multiply_pool_sums" in unparse(st.value) and "formulate_rotation_chain(" in txt and acc in {n.id for n in ast.walk(st.value) if isinstance(n, ast.Name)}):
+            judge.cannot(f"the selection `{show_pc(tuple(mine))[:60]}` of the rotated states")
+    if problems or len(judge.undecided) == before:
+        judge.decide(not problems, (value,), "R-WIRING", f"{fn.qual}::defines-nested-final-states", tree.loc(fn.node),
+                     "AxisAngleAlignment.define_symbols: Wigner angles for every final state whose parent is not the initial state, all merged into the result", problems or None)
+
+
+def _structure_multiply(ctx: Check, tree: Tree, judge: Judge) -> None:
+    # (c)
+    fn = tree.func(f"{AXA}::__multiply_pool_sums")
+    sx, value, _ = _symex(tree, fn.qual)
+    value = _flat(value)
+    before = len(judge.undecided)
+    problems = []
+    seq = ("param", _params(fn)[0])
+    alts = alternatives(value)
+    if len(alts) != 1 or not (_is_call(alts[0][1], "PoolSum") and alts[0][1][2] and not alts[0][1][3]):
+        raise AnalysisError(f"{fn.qual}: does not return one PoolSum(product, *indices): `{show(value)[:70]}`")
+    ps = alts[0][1]
+
+    def over_all(item, attr: str, starred: bool) -> str | None:
+        """None if `item` is `x.<attr>` (starred: `*x.<attr>`) for EVERY element x of the parameter, else what is wrong ('?...' = not understood)"""
+        es, cs, plain = unwrap(item)
+        if starred:
+            if plain[0] != "star":
+                return f"?`{show(item)[:50]}`"
+            plain = plain[1]
+        if len(es) != 1 or plain != ("attr", es[0], attr):
+            if not es and plain[0] == "attr" and plain[2] == attr and plain[1][0] == "sub" and plain[1][1] == seq:
+                return f"only `{show(plain)[:40]}` of one factor"
+            if len(es) == 1 and plain[0] == "attr" and plain[1] == es[0] and _all_of(es[0], seq) == "elements":
+                return f"`.{plain[2]}` instead of `.{attr}` of the factors"
+            return f"?`{show(item)[:50]}`"
+        kind = _all_of(es[0], seq)
+        if kind == "part":
+            return f"only a part of the factors (`{show(es[0][1])[:40]}`)"
+        if kind != "elements":
+            return f"?`{show(es[0][1])[:50]}`"
+        if cs:
+            return f"only under `{show_pc(cs)[:50]}`"
+        return None
+
+    facs = factors(ps[2][0], sx)
+    facs = [f for f in facs if as_number(f) != 1]
+    bad = [over_all(f, "expression", False) for f in facs]
+    if len(facs) != 1 or bad[0]:
+        if facs and all(b is not None and not b.startswith("?") for b in bad):
+            problems.append("the summand is not the product of the summands of all factors: " + "; ".join(b for b in bad if b))
+        elif not facs:
+            problems.append("the summand is not the product of the summands of all factors")
+        else:
+            judge.cannot(f"the summand `{show(ps[2][0])[:70]}` of __multiply_pool_sums")
+    idx = ps[2][1:]
+    bad = [over_all(x, "indices", True) for x in idx]
+    if len(idx) != 1 or bad[0]:
+        if not idx:
+            problems.append("the index lists of all factors are not concatenated unconditionally: the PoolSum has no indices")
+        elif all(b is not None and not b.startswith("?") for b in bad):
+            problems.append("the index lists of all factors are not concatenated unconditionally: " + "; ".join(b for b in bad if b))
+        else:
+            judge.cannot(f"the indices `{', '.join(show(x)[:50] for x in idx)}` of __multiply_pool_sums")
+    if problems or len(judge.undecided) == before:
+        judge.decide(not problems, (value,), "R-WIRING", f"{fn.qual}::product-of-sums", tree.loc(fn.node), "__multiply_pool_sums: PoolSum(product of all summands, *indices of all factors)", problems or None)
+
+
+def _structure_all_final_states(ctx: Check, tree: Tree, judge: Judge) -> None:
+    # (e) the complete alignment = neutral element times the rotation chain of EVERY final state
+    fn = tree.func(f"{AXA}::formulate_axis_angle_alignment")
+    mul_q = f"{AXA}::__multiply_pool_sums"
+    sx, value, _ = _symex(tree, fn.qual, frozenset({"formulate_rotation_chain", "__multiply_pool_sums"}))
+    value = _flat(value)
+    before = len(judge.undecided)
+    problems = []
+    alts = alternatives(value)
+    if len(alts) != 1:
+        raise AnalysisError(f"{fn.qual}: the result depends on conditions: `{show(value)[:70]}`")
+    whole = alts[0][1]
+    if whole[0] == "fold" and not contains_value(whole[3], whole[4]) and not_followed(whole[3], AXA_KNOWN) is None:
+        judge.decide(False, (value,), "R-WIRING", f"{fn.qual}::all-final-states", tree.loc(fn.node), "formulate_axis_angle_alignment = PoolSum(1) x rotation chain of every final state",
+                     ["the accumulator is not multiplied by formulate_rotation_chain(transition, state) for every final state: every step discards the product so far"])
+        return
+    items = _product_items(whole, mul_q, sx)
+    if items is None:
+        raise AnalysisError(f"{fn.qual}: the result `{show(value)[:80]}` is not a product of pool sums whose factors are known")
+    transition = ("param", fn.params[0])
+    finals = ("attr", transition, "final_states")
+    chains = 0
+    for x in items:
+        es, cs, plain = unwrap(x)
+        if _is_call(plain, "PoolSum") and not es and not cs:
+            n = as_number(plain[2][0]) if len(plain[2]) == 1 and not plain[3] else None
+            if n is None:
+                judge.cannot(f"the factor `{show(plain)[:50]}`")
+            elif n != 1:
+                problems.append(f"the product does not start from the neutral element PoolSum(1) ({show(plain)[:30]})")
+        elif _is_call(plain, "formulate_rotation_chain"):
+            chains += 1
+            if plain[3] or len(plain[2]) != 2:
+                judge.cannot(f"the call `{show(plain)[:60]}` could not be bound")
+                continue
+            kind = _all_of(plain[2][1], finals) if len(es) == 1 and plain[2][1] == es[0] else None
+            if plain[2][0] != transition or kind is None:
+                if not es and _leaf(plain[2][1]):
+                    problems.append(f"the rotation chain of the single state `{show(plain[2][1])[:30]}` instead of every final state")
+                else:
+                    judge.cannot(f"the rotation chains `{show(x)[:70]}` are not formulated for the elements of transition.final_states")
+            elif kind != "elements":
                 problems.append("the accumulator is not multiplied by formulate_rotation_chain(transition, state) for every final state")
-            if any(isinstance(a, ast.If) for a in ancestors(st.node) if any(a is x for x in ast.walk(fn.node)) and a is not fn.node):
-                problems.append("the accumulation is conditional")
-    ctx.verdict(not problems, "R-WIRING", f"{fn.qual}::all-final-states", tree.loc(fn.node), "formulate_axis_angle_alignment = PoolSum(1) x rotation chain of every final state", problems or None)
+            if cs:
+                problems.append(f"the accumulation is conditional ({show_pc(cs)[:50]})")
+        else:
+            judge.cannot(f"the factor `{show(plain)[:60]}` of the alignment product")
+    if not chains and len(judge.undecided) == before:
+        problems.append("the accumulator is not multiplied by formulate_rotation_chain(transition, state) for every final state")
+    if problems or len(judge.undecided) == before:
+        judge.decide(not problems, (value,), "R-WIRING", f"{fn.qual}::all-final-states", tree.loc(fn.node), "formulate_axis_angle_alignment = PoolSum(1) x rotation chain of every final state", problems or None)
+
+
+def _structure_wigner_rotation(ctx: Check, tree: Tree, judge: Judge) -> None:
     # (f) the Wigner rotation acts on the helicity symbol that is handed in and uses (alpha, beta, gamma) of that state;
     #     judged on the value of every argument on every path (sa/symex.py): an if/else assignment, a conditional
     #     expression in the call and a temporary are the same thing
+    mod = AXA
     fn = tree.func(f"{mod}::formulate_wigner_rotation")
     rot_q = f"{mod}::formulate_helicity_rotation"
     sx, value, _ = _symex(tree, fn.qual, frozenset({rot_q}))
+    before = len(judge.undecided)
     problems = []
     calls = []
     for x in subterms(value):
@@ -1149,239 +2355,629 @@ def check_axisangle_structure(ctx: Check, tree: Tree) -> None:
     if len(calls) != 1:
         raise AnalysisError(f"{fn.qual}: expected one call of formulate_helicity_rotation")
     _require_known(fn.qual, calls[0])
+    if "helicity_symbol" not in fn.params or "m_prime" not in fn.params:
+        raise AnalysisError(f"{fn.qual}: parameters helicity_symbol / m_prime not found")
     sym = ("param", "helicity_symbol")
     none_given = ("cmp", "is", sym, NONE)
-    ok_sp = True
     seen_cases = cases(calls[0])
     for pc, c in seen_cases:
         v = _call_arg(tree, c, rot_q, "spin_projection")
         if v is None:
-            ok_sp = False
-        elif (none_given, True) in pc:
-            ok_sp = ok_sp and v[0] == "attr" and v[2] == "spin_projection"
+            judge.cannot("the call of formulate_helicity_rotation could not be bound (spin_projection)")
+            break
+        fallback = (none_given, True) in pc
+        if (fallback and v[0] == "attr" and v[2] == "spin_projection") or (not fallback and v == sym):
+            continue
+        if _leaf(v) or v[0] == "call":
+            problems.append("spin_projection is not the helicity symbol that was handed in (state.spin_projection only when none is given)")
         else:
-            ok_sp = ok_sp and v == sym
-    if not ok_sp:
-        problems.append("spin_projection is not the helicity symbol that was handed in (state.spin_projection only when none is given)")
+            judge.cannot(f"spin_projection = `{show(v)[:50]}`")
+        break
     first = seen_cases[0][1]
+    suffix_calls = set()
     for ang in ("alpha", "beta", "gamma"):
         v = _call_arg(tree, first, rot_q, ang)
-        ok_a = (v is not None and v[0] == "call" and func_name(v) == "sympy.Symbol" and len(v[2]) == 1 and v[2][0][0] == "fstr" and v[2][0][1][0] == ("const", ang)
-                and len(v[2][0][1]) == 2 and ("real", ("const", True)) in v[3])
-        if not ok_a:
-            problems.append(f"{ang} is `{show(v)[:40] if v is not None else ''}`, not Symbol('{ang}' + helicity suffix, real=True)")
-    if _call_arg(tree, first, rot_q, "m_prime") != ("param", "m_prime"):
-        problems.append("m_prime is not passed on")
+        name = v[2][0] if v is not None and v[0] == "call" and func_name(v) == "sympy.Symbol" and len(v[2]) == 1 else None
+        if name is None:
+            if v is not None and (_leaf(v) or as_number(v) is not None):
+                problems.append(f"{ang} is `{show(v)[:40]}`, not Symbol('{ang}' + helicity suffix, real=True)")
+            else:
+                judge.cannot(f"{ang} = `{show(v)[:50] if v is not None else '?'}` is not built with sp.Symbol(...)")
+            continue
+        ok_a = name[0] == "fstr" and name[1][0] == ("const", ang) and len(name[1]) == 2 and ("real", ("const", True)) in v[3]
+        if ok_a:
+            suffix_calls.add(name[1][1])
+        elif (name[0] == "fstr" and is_const(name[1][0], str)) or is_const(name, str):
+            problems.append(f"{ang} is `{show(v)[:40]}`, not Symbol('{ang}' + helicity suffix, real=True)")
+        else:
+            judge.cannot(f"the name `{show(name)[:50]}` of the angle {ang}")
+    if len(suffix_calls) > 1:
+        problems.append("alpha, beta and gamma do not carry the same suffix")
+    mp = _call_arg(tree, first, rot_q, "m_prime")
+    if mp != ("param", "m_prime"):
+        if mp is None or _leaf(mp):
+            problems.append("m_prime is not passed on")
+        else:
+            judge.cannot(f"m_prime = `{show(mp)[:50]}`")
     nz = _call_arg(tree, first, rot_q, "no_zero_spin")
-    if nz is None or not any(x[0] == "cmp" and x[1] == "==" and x[2][0] == "attr" and x[2][2] == "mass" and x[3] in {("const", 0), ("const", 0.0)} for x in subterms(nz)):
-        problems.append("no_zero_spin is not `mass == 0` of the rotated state")
-    ctx.verdict(not problems, "R-WIRING", f"{fn.qual}::arguments", tree.loc(fn.node), "formulate_wigner_rotation: D^s_{m', m}(alpha, beta, gamma) with m = the helicity symbol handed in, the state's own (alpha, beta, gamma) symbols and m'", problems or None)
+    if nz is None or not any(x[0] == "cmp" and x[1] == "==" and x[2][0] == "attr" and x[2][2] == "mass" and as_number(x[3]) == 0 for x in subterms(nz)):
+        if nz is None or _leaf(nz) or nz[0] == "cmp":
+            problems.append("no_zero_spin is not `mass == 0` of the rotated state")
+        else:
+            judge.cannot(f"no_zero_spin = `{show(nz)[:50]}`")
+    if problems or len(judge.undecided) == before:
+        judge.decide(not problems, (calls[0],), "R-WIRING", f"{fn.qual}::arguments", tree.loc(fn.node), "formulate_wigner_rotation: D^s_{m', m}(alpha, beta, gamma) with m = the helicity symbol handed in, the state's own (alpha, beta, gamma) symbols and m'", problems or None)
+
+
+def _structure_wigner_d(ctx: Check, tree: Tree, judge: Judge) -> None:
     # (g) the Euler rotation: D(j = s, m = projection, mp = m', alpha, beta, gamma) summed over m' in the spin range
-    fn = tree.func(f"{mod}::formulate_helicity_rotation")
-    dcalls = [c for c in walk_function(fn.node) if isinstance(c, ast.Call) and isinstance(c.func, ast.Attribute) and c.func.attr == "D"]
+    fn = tree.func(ROTATION)
+    sx, value, _ = _symex(tree, ROTATION, frozenset({"create_spin_range"}))
+    before = len(judge.undecided)
+    dcalls = list(dict.fromkeys(c for c in subterms(value) if c[0] == "call" and func_name(c).split(".")[-1] == "D" and "Rotation" in func_name(c)))
     problems = []
     if len(dcalls) != 1:
         raise AnalysisError(f"{fn.qual}: expected one Wigner.D call")
-    kw = {k.arg: unparse(k.value) for k in dcalls[0].keywords}
-    pos = [unparse(a) for a in dcalls[0].args]
-    got = {**dict(zip(["j", "m", "mp", "alpha", "beta", "gamma"], pos)), **kw}
-    want = {"mp": "m_prime", "alpha": "alpha", "beta": "beta", "gamma": "gamma"}
+    names = ["j", "m", "mp", "alpha", "beta", "gamma"]
+    if any(a[0] == "star" for a in dcalls[0][2]) or any(k not in names for k, _ in dcalls[0][3]):
+        raise AnalysisError(f"{fn.qual}: the arguments of Wigner.D could not be bound")
+    got = {**dict(zip(names, dcalls[0][2])), **dict(dcalls[0][3])}
+    want = {"j": "spin_magnitude", "m": "spin_projection", "mp": "m_prime", "alpha": "alpha", "beta": "beta", "gamma": "gamma"}
     for k_, w in want.items():
-        if got.get(k_) != w:
-            problems.append(f"D(..., {k_}={got.get(k_)}) instead of {w}")
-    if "spin_magnitude" not in got.get("j", "") or "spin_projection" not in got.get("m", ""):
-        problems.append(f"j = {got.get('j')}, m = {got.get('m')}")
-    ctx.verdict(not problems, "R-WIRING", f"{fn.qual}::wigner-d-arguments", tree.loc(fn.node), "formulate_helicity_rotation: Wigner.D(j = spin, m = projection, mp = m', alpha, beta, gamma)", problems or None)
-    # (d)
-    fn = tree.func(f"{mod}::get_opposite_helicity_sign")
-    problems = []
-    ifs = [n for n in walk_function(fn.node) if isinstance(n, ast.If)]
-    rets_all = [r for r in walk_function(fn.node) if isinstance(r, ast.Return)]
-    ok_d = False
-    if len(ifs) == 1 and len(rets_all) == 2:
-        t = ifs[0].test
-        ops = t.values if isinstance(t, ast.BoolOp) and isinstance(t.op, ast.And) else [t]
-        opp = [o for o in ops if isinstance(o, ast.Call) and unparse(o.func).endswith("is_opposite_helicity_state") and [unparse(a) for a in o.args] == fn.params[:2]]
-        rest = [o for o in ops if o not in opp]
-        rest_ok = all(isinstance(o, ast.Compare) and len(o.ops) == 1 and isinstance(o.ops[0], ast.NotEq) and unparse(o.left) == fn.params[1] and unparse(o.comparators[0]) == "-1" for o in rest)
-        inner = [r for r in ifs[0].body if isinstance(r, ast.Return)]
-        outer = [r for r in rets_all if r not in inner]
-        ok_d = len(opp) == 1 and rest_ok and len(inner) == 1 and unparse(inner[0].value) == "-1" and len(outer) == 1 and unparse(outer[0].value) == "1"
-    ctx.verdict(ok_d, "R-WIRING", f"{fn.qual}::sign", tree.loc(fn.node), "get_opposite_helicity_sign: -1 iff the state is the opposite-helicity state (and not the initial state), else +1")
-
-
-def check_dpd_generator(ctx: Check, tree: Tree) -> None:
-    """R-WIRING (DPD): the Wigner-d generator returns 1 only for spin 0, otherwise
-    Wigner.d(j, m, m', zeta) with zeta = formulate_zeta_angle(rotated state, aligned subsystem,
-    THIS alignment's reference subsystem), and registers the definition of every zeta it uses;
-    the alignment hands out component 0 as amplitude and component 1 as symbol definitions; the
-    relabelling shifts every edge id by one (-1..3 -> 0..4).
-    Judged on what __call__ computes (sa/symex.py): methods extracted from it are inlined, keyword
-    and positional arguments are bound to the parameters of the callee."""
-    mod = "ampform.helicity.align.dpd"
-    cls = tree.cls(f"{mod}::_DPDAlignmentWignerGenerator")
-    call = cls.methods.get("__call__")
-    init = cls.methods.get("__init__")
-    if call is None or init is None:
-        raise AnalysisError("vanished anchor: _DPDAlignmentWignerGenerator.__call__/__init__")
-    zeta_q = "ampform.kinematics.angles::formulate_zeta_angle"
-    sx, value, _ = _symex(tree, call.qual, frozenset({zeta_q}))
-    if sx.imprecise:
-        raise AnalysisError(f"{call.qual}: symbolic execution incomplete: {sx.imprecise[0]}")
-    _require_known(call.qual, value, tuple(e[2:4] for e in sx.events if e[0] == "store"))
-    problems = []
-    me = ("param", call.params[0])
-    j = ("param", call.params[1])
-    spin_zero = ("cmp", "==", j, ("const", 0))
-    ones = {("const", 1), ("call", ("global", "sympy.Rational"), (("const", 1),), ()), ("call", ("global", "sympy.Integer"), (("const", 1),), ()), ("global", "sympy.S.One")}
-    general = []
-    for pc, val in alternatives(value):
-        if val[0] == "call" and func_name(val).endswith(".d"):
-            general.append((pc, val))
-            continue
-        ok_t = pc == ((spin_zero, True),)
-        ok_v = val in ones
-        if not (ok_t and ok_v):
-            problems.append(f"shortcut `if {show_pc(pc)}: return {show(val)[:40]}` is not `if {j[1]} == 0: return 1`")
-    if len(general) != 1 or any(c not in {(spin_zero, False)} for c in general[0][0]):
-        problems.append("the general case does not return Wigner.d(...)")
-    else:
-        gpc, d = general[0]
-        dargs = list(d[2])
-        if d[3] or dargs[:3] != [("param", p) for p in call.params[1:4]]:
-            problems.append(f"Wigner.d arguments {[show(a)[:30] for a in dargs[:3]]} are not (j, m, m_prime) as received")
-        zeta = dargs[3] if len(dargs) > 3 else None
-        zcall = zeta[1] if zeta is not None and zeta[0] == "item" and zeta[2] == 0 else None
-        if zcall is None or not (zcall[0] == "call" and func_name(zcall) == zeta_q):
-            problems.append("zeta is not the symbol returned by formulate_zeta_angle")
+        if w not in fn.params:
+            raise AnalysisError(f"{fn.qual}: parameter {w} not found")
+        v = got.get(k_)
+        core = _core(v) if v is not None else None
+        if core == ("param", w):
+            continue  # the parameter itself, possibly through a numeric conversion (`__rationalize`, `sp.sympify`)
+        if v is None or (core is not None and (core[0] == "param" or as_number(core) is not None)):
+            problems.append(f"D(..., {k_}={show(v)[:30] if v is not None else None}) instead of {w}")
         else:
-            want = (("param", call.params[4]), ("param", call.params[5]), ("attr", me, "reference_subsystem"))
-            if zcall[3] or zcall[2] != want:
-                problems.append(f"formulate_zeta_angle({', '.join([show(a)[:40] for a in zcall[2]] + [f'{k}={show(v)[:30]}' for k, v in zcall[3]])}) is not (rotated_state, aligned_subsystem, self.reference_subsystem)")
-            table = ("attr", me, "angle_definitions")
-            stores = [e for e in sx.events if e[0] == "store" and e[2][0] == "sub" and e[2][1] == table]
-            ok_store = len(stores) == 1 and stores[0][2][2] == zeta and stores[0][3] == ("item", zcall, 1) and stores[0][1] == gpc
-            if not ok_store:
-                problems.append("the definition of zeta is not registered in self.angle_definitions on the general path")
-    sxi, _, _ = _symex(tree, init.qual)
-    keeps = [e for e in sxi.events if e[0] == "store" and e[2] == ("attr", ("param", init.params[0]), "reference_subsystem")]
-    ok_init = len(init.params) > 1 and len(keeps) == 1 and keeps[0][1] == () and keeps[0][3] == ("param", init.params[1])
-    if not ok_init:
-        problems.append("__init__ does not keep the reference subsystem")
-    ctx.verdict(not problems, "R-WIRING", f"{cls.qual}::generator", tree.loc(call.node),
-                "DPD Wigner-d generator: 1 iff j == 0, else Wigner.d(j, m, m', zeta(rotated state, aligned subsystem, own reference)) with zeta's definition registered", problems or None)
+            judge.cannot(f"Wigner.D(..., {k_}=`{show(v)[:50]}`)")
+    if problems or len(judge.undecided) == before:
+        judge.decide(not problems, (dcalls[0],), "R-WIRING", f"{fn.qual}::wigner-d-arguments", tree.loc(fn.node), "formulate_helicity_rotation: Wigner.D(j = spin, m = projection, mp = m', alpha, beta, gamma)", problems or None)
+
+
+def _structure_sign(ctx: Check, tree: Tree, judge: Judge) -> None:
+    # (d) decided on the decision table of the function: guard clauses, De Morgan, swapped branches, a conditional
+    #     expression give the same table
+    fn = tree.func(f"{AXA}::get_opposite_helicity_sign")
+    sx, value, _ = _symex(tree, fn.qual, frozenset({"is_opposite_helicity_state"}))
+    _require_known(fn.qual, value)
+    atoms, table = decision_table(value)
+    topo, state = ("param", fn.params[0]), ("param", fn.params[1])
+    opp = [a for a in atoms if _is_call(a, "is_opposite_helicity_state") and not a[3] and a[2] == (topo, state)]
+    init = [a for a in atoms if a[0] == "cmp" and a[1] == "==" and {a[2], a[3]} == {state, ("const", -1)}]
+    rest = [a for a in atoms if a not in opp and a not in init]
+    if rest or len(opp) != 1 or any(as_number(v) not in {1, -1} for v in table.values() if v is not None) or None in table.values():
+        if not rest and not opp and all(as_number(v) is not None for v in table.values()):
+            ctx.verdict(False, "R-WIRING", f"{fn.qual}::sign", tree.loc(fn.node), "get_opposite_helicity_sign: -1 iff the state is the opposite-helicity state (and not the initial state), else +1",
+                        "the sign does not depend on is_opposite_helicity_state(topology, state_id)")
+            return
+        judge.cannot(f"{fn.qual}: the sign depends on `{show(rest[0])[:60] if rest else show(value)[:60]}`")
+        return
+    ok_d = True
+    for bits, v in table.items():
+        env = dict(zip(atoms, bits))
+        is_init = bool(init) and env[init[0]]
+        want = -1 if (env[opp[0]] and not is_init) else 1
+        if is_init and not env[opp[0]]:
+            want = 1
+        ok_d = ok_d and as_number(v) == want
+    ctx.verdict(ok_d, "R-WIRING", f"{fn.qual}::sign", tree.loc(fn.node), "get_opposite_helicity_sign: -1 iff the state is the opposite-helicity state (and not the initial state), else +1",
+                None if ok_d else {show_pc(tuple(zip(atoms, bits)))[:80]: show(v) for bits, v in table.items()})
+
+
+@_failclosed
+def check_dpd_generator(ctx: Check, tree: Tree) -> None:
+    """R-WIRING (DPD): every Wigner-d rotation is 1 only for spin 0, otherwise
+    Wigner.d(j, m, m', zeta) with zeta = formulate_zeta_angle(rotated state, spectator of the term's topology,
+    THIS alignment's reference subsystem), and the definition of every zeta it uses is registered in the
+    definitions that are handed out; the alignment hands out component 0 as amplitude and component 1 as symbol
+    definitions; the relabelling shifts every edge id by one (-1..3 -> 0..4).
+    Judged on what _formulate_aligned_amplitude computes with everything of its module inlined (sa/symex.py): whether
+    the rotations come from a generator class, an attrs class, a closure or a function bound with functools.partial,
+    and how the definitions are collected, does not matter."""
+    mod = "ampform.helicity.align.dpd"
+    model = _dpd_model(tree)
+    fn, sx = model["fn"], model["sx"]
+    judge = Judge(ctx, "check_dpd_generator", DPD_KNOWN)
+    if sx.imprecise:
+        raise AnalysisError(f"{fn.qual}: symbolic execution incomplete: {sx.imprecise[0]}")
+    problems = []
+    entries = _registered(model, judge)
+    seen = []
+    values = []
+    where = None
+    for t in _dpd_terms(model):
+        topo = t["bases"][0][1][2][0] if len(t["bases"]) == 1 and t["bases"][0][1][2] else None
+        for r in t["rotations"]:
+            if r["factor"] in seen:
+                continue
+            seen.append(r["factor"])
+            values.append(r["factor"])
+            where = where or _node_of(model, r["d"][0][1], fn.node)
+            if r["shape"]:
+                judge.cannot(f"rotation factor `{show(r['factor'])[:80]}`: {r['shape']}")
+                continue
+            problems += [p for p in r["problems"] if p not in problems]
+            if r.get("zcall") is None:
+                problems.append(f"zeta `{show(r['beta'])[:50]}` is not the symbol returned by formulate_zeta_angle")
+                continue
+            ref = ("param", model["reference"])
+            spect = [c for c in calls_of(r["aligned"], "get_spectator_id")]
+            if not spect or (topo is not None and not any(c[2] == (topo,) and not c[3] for c in spect)):
+                if r["aligned"] == ref or calls_of(r["reference"], "get_spectator_id"):
+                    problems.append(f"formulate_zeta_angle({', '.join(show(a)[:40] for a in r['zcall'][2])}) is not (rotated state, spectator of the topology, reference subsystem)")
+                else:
+                    judge.cannot(f"the aligned subsystem `{show(r['aligned'])[:50]}` of a zeta angle is not get_spectator_id(<topology of the term>)")
+            if entries is not None:
+                mine = [(k, v, c) for k, v, c in entries if k == r["beta"]]
+                want = {("item", r["zcall"], 1), ("sub", r["zcall"], ("const", 1))}
+                if not mine:
+                    problems.append(f"the definition of `{show(r['beta'])[:60]}` is not registered in the angle definitions that are handed out")
+                elif not any(v in want and all(x in r["general_pc"] or x in t["pcs"] for x in c) for k, v, c in mine):
+                    problems.append(f"`{show(r['beta'])[:50]}` is registered as `{show(mine[0][1])[:50]}` under `{show_pc(mine[0][2])[:50]}`, not as the expression returned with it on the general path")
+    if not seen:
+        raise AnalysisError(f"{fn.qual}: no Wigner-d rotation reaches the summand")
+    judge.decide(not problems, values + [model["defs"]], "R-WIRING", f"{DPD_GEN}::generator", tree.loc(where or fn.node),
+                 "DPD Wigner-d generator: 1 iff j == 0, else Wigner.d(j, m, m', zeta(rotated state, aligned subsystem, own reference)) with zeta's definition registered", problems or None)
     # components of the memoised pair: x[k] and `a, b = x` (k-th unpacked name) read the same component of the returned pair
     al = tree.cls(f"{mod}::DalitzPlotDecomposition")
-    comp = {}
+    comp, vals = {}, []
     for name in ("formulate_amplitude", "define_symbols"):
         m = al.methods.get(name)
         comp[name] = None
         if m is None:
-            continue
-        _, mval, _ = _symex(tree, m.qual)
-        _require_known(m.qual, mval)
+            raise AnalysisError(f"vanished anchor: {al.qual}.{name}")
+        msx, mval, _ = _symex(tree, m.qual)
+        vals.append(mval)
+        own_ref = ("attr", ("param", m.params[0]), "reference_subsystem")
         found = set()
         for pc, val in alternatives(mval):
             for x in subterms(val):
-                c = x[1] if x[0] in {"sub", "item"} else None
+                c = x[1] if x[0] in {"sub", "item", "attr"} else None
                 if c is not None and c[0] == "call" and func_name(c) == DPD_FN:
-                    k = x[2] if x[0] == "item" else x[2][1] if is_const(x[2], int) else None
-                    found.add((str(k), tuple(show(a) for a in c[2]) if not c[3] else None))
+                    if x[0] == "attr":
+                        if not (model["fields"] and x[2] in model["fields"]):
+                            continue
+                        k = model["fields"].index(x[2])
+                    else:
+                        k = x[2] if x[0] == "item" else x[2][1] if is_const(x[2], int) else None
+                    got = dict(zip(_params(fn), c[2])) if not c[3] and len(c[2]) == len(_params(fn)) else {}
+                    found.add((k, got.get(model["reaction"]) == ("param", m.params[1]) and got.get(model["reference"]) == own_ref))
         if len(found) == 1:
-            k, args = next(iter(found))
-            comp[name] = (k, list(args) if args is not None else None)
-    ok = comp["formulate_amplitude"] == ("0", ["reaction", "self.reference_subsystem"]) and comp["define_symbols"] == ("1", ["reaction", "self.reference_subsystem"])
-    ctx.verdict(ok, "R-WIRING", f"{al.qual}::components", tree.loc(al.node), "DalitzPlotDecomposition: amplitude = component 0, symbol definitions = component 1 of _formulate_aligned_amplitude(reaction, own reference subsystem)",
-                None if ok else comp)
+            comp[name] = next(iter(found))
+        elif not found:
+            # not through the memoised function: zeta angles formulated here must still be those of the own reference subsystem
+            zs = [c for e in msx.events if e[0] == "store" for c in calls_of(e[2], ZETA_Q) + calls_of(e[3], ZETA_Q)] + calls_of(mval, ZETA_Q)
+            wrong = sorted({show(c[2][2])[:40] for c in zs if not c[3] and len(c[2]) == 3 and c[2][2] != own_ref})
+            if wrong and not not_followed(("tuple", tuple(c[2][2] for c in zs)), DPD_KNOWN):
+                comp[name] = ("zeta angles for reference subsystem " + ", ".join(wrong), False)
+            else:
+                judge.cannot(f"{m.qual} does not read a component of _formulate_aligned_amplitude(...)")
+    if not judge.undecided or all(comp.values()):
+        ok = comp["formulate_amplitude"] == (0, True) and comp["define_symbols"] == (1, True)
+        judge.decide(ok, vals, "R-WIRING", f"{al.qual}::components", tree.loc(al.node), "DalitzPlotDecomposition: amplitude = component 0, symbol definitions = component 1 of _formulate_aligned_amplitude(reaction, own reference subsystem)",
+                     None if ok else {k: list(v) if v else None for k, v in comp.items()})
     # relabelling -1..3 -> 0..4
     rel = tree.func(f"{mod}::__get_default_relabel_mapping")
-    rets = [r for r in walk_function(rel.node) if isinstance(r, ast.Return) and r.value is not None]
-    ok = False
-    if len(rets) == 1 and isinstance(rets[0].value, ast.DictComp) and len(rets[0].value.generators) == 1 and isinstance(rets[0].value.generators[0].target, ast.Name):
-        dc = rets[0].value
-        v = dc.generators[0].target.id
-        import re as _re
-
-        txt = _re.sub(rf"\b{_re.escape(v)}\b", "_", unparse(dc)).replace(" ", "")
-        ok = txt in {"{_-1:_for_inrange(5)}", "{_:_+1for_inrange(-1,4)}"}
-    if not ok and len(rets) == 1 and isinstance(rets[0].value, ast.Dict):
-        try:
-            lit = {ast.literal_eval(k): ast.literal_eval(v) for k, v in zip(rets[0].value.keys, rets[0].value.values)}
-            ok = lit == {-1: 0, 0: 1, 1: 2, 2: 3, 3: 4}
-        except Exception:  # noqa: BLE001
-            ok = False
-    ctx.verdict(ok, "R-WIRING", f"{rel.qual}::shift-by-one", tree.loc(rel.node), "DPD relabelling maps the edge ids -1, 0, 1, 2, 3 to 0, 1, 2, 3, 4 (initial state 0, final states 1..3, resonance 4)")
+    _, rval, _ = _symex(tree, rel.qual)
+    table = None
+    if rval[0] == "dict" and all(is_const(k, int) and is_const(v, int) for k, v in rval[1]):
+        table = {k[1]: v[1] for k, v in rval[1]}
+    if table is None:
+        judge.cannot(f"{rel.qual}: the relabelling `{show(rval)[:60]}` is not a table of literal ids")
+    else:
+        ctx.verdict(table == {-1: 0, 0: 1, 1: 2, 2: 3, 3: 4}, "R-WIRING", f"{rel.qual}::shift-by-one", tree.loc(rel.node), "DPD relabelling maps the edge ids -1, 0, 1, 2, 3 to 0, 1, 2, 3, 4 (initial state 0, final states 1..3, resonance 4)",
+                    None if table == {-1: 0, 0: 1, 1: 2, 2: 3, 3: 4} else table)
+    judge.finish()
 
 
+def _seq_ops(v):
+    """A sequence expression as (source sequence, reversed?, [removed elements]): `list(reversed(xs))`, `xs[::-1]`,
+    `xs.reverse()`, `xs.remove(a)` and `[x for x in xs if x != a]` in any order and nesting.  None if not of that kind."""
+    rev, removed = False, []
+    for _ in range(12):
+        if v[0] == "seqop" and v[1] == "reverse":
+            rev, v = not rev, v[2]
+        elif v[0] == "seqop" and v[1] == "remove":
+            removed.append(v[3][0])
+            v = v[2]
+        elif v[0] == "call" and v[1][0] == "builtin" and v[1][1] in {"list", "tuple"} and len(v[2]) == 1 and not v[3]:
+            v = v[2][0]
+        elif v[0] == "call" and v[1] == ("builtin", "reversed") and len(v[2]) == 1 and not v[3]:
+            rev, v = not rev, v[2][0]
+        elif v[0] == "sub" and v[2] == ("slice", NONE, NONE, ("const", -1)):
+            rev, v = not rev, v[1]
+        elif v[0] in {"list", "tuple"} and len(v[1]) == 1 and v[1][0][0] == "foreach":
+            es, cs, elem = unwrap(v[1][0])
+            if len(es) != 1 or elem != es[0]:
+                return None
+            for t, outcome in cs:
+                if t[0] == "cmp" and t[1] == "==" and not outcome and es[0] in (t[2], t[3]):
+                    removed.append(t[3] if t[2] == es[0] else t[2])
+                else:
+                    return None
+            v = es[0][1]
+        else:
+            break
+    return v, rev, removed
+
+
+@_failclosed
 def check_wigner_rotation_matrix(ctx: Check, tree: Tree) -> None:
     """R-WIRING (Wigner rotation, Marangotto 2019 Eq. 36): the rotation matrix of a final state is
     B(-p) . B_n ... B_1, the inverse of the direct boost times the chain of boosts from the first
     resonance down to the state, where B_k = BoostMatrix(momentum of the k-th chain member in the frame
-    reached so far) and EVERY boost is applied to all momenta that are still needed and is collected."""
+    reached so far) and EVERY boost is applied to all momenta that are still needed and is collected.
+    Judged on the values of sa/symex.py (factors collected in a list and unpacked, the pool of momenta kept in a dict
+    keyed by state id or in a list parallel to the chain, the chain reversed in place or by `reversed` are the same)."""
+    known = ("compute_boost_chain", "__get_boost_chain_ids", "get_four_momentum_sum", "list_decay_chain_ids", "BoostMatrix", "NegativeMomentum",
+             "MatrixMultiplication", "ArrayMultiplication")
+    judge = Judge(ctx, "check_wigner_rotation_matrix", known)
+    # 1. inverse of the direct boost times the chain
     fn = tree.func("ampform.kinematics.angles::compute_wigner_rotation_matrix")
-    rd = RD(fn.node)
-    rets = [r for r, _ in rd.returns if r.value is not None]
+    sx, value, _ = _symex(tree, fn.qual, frozenset({"compute_boost_chain"}))
+    topo, momenta, state = (("param", p) for p in fn.params[:3])
     problems = []
-    if len(rets) != 1 or not (isinstance(rets[0].value, ast.Call) and unparse(rets[0].value.func).endswith("MatrixMultiplication")):
-        problems.append("does not return a MatrixMultiplication")
+    before = len(judge.undecided)
+    alts = alternatives(value)
+    if len(alts) != 1 or not (_is_call(alts[0][1], "MatrixMultiplication") and not alts[0][1][3]):
+        if len(alts) == 1 and alts[0][1][0] == "call" and not_followed(value, known) is None:
+            problems.append("does not return a MatrixMultiplication")
+        else:
+            judge.cannot(f"{fn.qual}: the result `{show(value)[:60]}` is not one MatrixMultiplication(...)")
     else:
-        args = rets[0].value.args
-        first = args[0] if args else None
-        ftxt = " ".join([unparse(first)] + [unparse(d.value) for d in rd.closure(rd.uses(first)) if isinstance(d.value, ast.AST)]) if first is not None else ""
-        if not ("BoostMatrix(NegativeMomentum(" in ftxt.replace(" ", "") and f"{fn.params[1]}[{fn.params[2]}]" in ftxt.replace(" ", "")):
-            problems.append("the first factor is not BoostMatrix(NegativeMomentum(momenta[state_id])) - the inverse of the direct boost")
-        star = [a for a in args[1:] if isinstance(a, ast.Starred)]
-        stxt = " ".join(unparse(d.value) for d in rd.closure(rd.uses(star[0].value)) if isinstance(d.value, ast.AST)) if len(star) == 1 else ""
-        if len(args) != 2 or len(star) != 1 or f"compute_boost_chain({', '.join(fn.params[:3])})" not in stxt:
-            problems.append("the remaining factors are not *compute_boost_chain(topology, momenta, state_id), in chain order")
-    ctx.verdict(not problems, "R-WIRING", f"{fn.qual}::inverse-direct-boost-times-chain", tree.loc(fn.node),
-                "Wigner rotation matrix = BoostMatrix(-p_state) . *compute_boost_chain(topology, momenta, state)", problems or None)
-    ch = tree.func("ampform.kinematics.lorentz::compute_boost_chain")
-    rd = RD(ch.node)
-    problems = []
-    rets = [r for r, _ in rd.returns if r.value is not None]
-    acc = rets[0].value.id if len(rets) == 1 and isinstance(rets[0].value, ast.Name) else None
-    loops = [n for n in walk_function(ch.node) if isinstance(n, ast.For)]
-    if acc is None or len(loops) != 1:
-        raise AnalysisError(f"{ch.qual}: expected `for state in chain: ...; return <list>`")
-    loop = loops[0]
-    ltxt = " ".join([unparse(loop.iter)] + [unparse(d.value) for d in rd.closure(rd.uses(loop.iter)) if isinstance(d.value, ast.AST)])
-    if "__get_boost_chain_ids(" not in ltxt:
-        problems.append("the loop does not run over the boost chain ids (first resonance ... state)")
-    apps = [n for n in walk_function(loop) if isinstance(n, ast.Call) and isinstance(n.func, ast.Attribute) and n.func.attr == "append" and unparse(n.func.value) == acc]
-    if len(apps) != 1 or any(isinstance(a, ast.If) for a in ancestors(apps[0]) if any(a is x for x in ast.walk(loop))):
-        problems.append("not every boost of the chain is collected")
+        args = alts[0][1][2]
+        direct = ("call", ("global", "ampform.kinematics.lorentz::BoostMatrix"), (("call", ("global", "ampform.kinematics.lorentz::NegativeMomentum"), (("sub", momenta, state),), ()),), ())
+        chain = ("star", ("call", ("global", "ampform.kinematics.lorentz::compute_boost_chain"), (topo, momenta, state), ()))
+        if args != (direct, chain):
+            simple = all(a == direct or a == chain or (_is_call(a, "BoostMatrix") and _leaf_tree(a)) or (a[0] == "star" and _is_call(a[1], "compute_boost_chain") and _leaf_tree(a[1])) for a in args)
+            if not simple:
+                judge.cannot(f"{fn.qual}: the factors `{', '.join(show(a)[:50] for a in args)}` of the matrix product")
+            else:
+                if not args or args[0] != direct:
+                    problems.append("the first factor is not BoostMatrix(NegativeMomentum(momenta[state_id])) - the inverse of the direct boost")
+                if len(args) != 2 or args[-1] != chain:
+                    problems.append("the remaining factors are not *compute_boost_chain(topology, momenta, state_id), in chain order")
+    if problems or len(judge.undecided) == before:
+        judge.decide(not problems, (value,), "R-WIRING", f"{fn.qual}::inverse-direct-boost-times-chain", tree.loc(fn.node),
+                     "Wigner rotation matrix = BoostMatrix(-p_state) . *compute_boost_chain(topology, momenta, state)", problems or None)
+    # 2. the chain of boosts: by its generic step; if the spelling of the loop is not one the rule can read (a queue that
+    #    is consumed, a recursion, a generator ...), by its value on small concrete chains
+    sub = Judge(ctx, "check_wigner_rotation_matrix", known)
+    n_before = len(ctx.instances)
+    try:
+        _boost_chain(ctx, tree, sub, known)
+        sub.finish()
+    except AnalysisError as exc:
+        try:
+            _boost_chain_on_instances(ctx, tree, known)
+        except AnalysisError as exc2:
+            judge.cannot(f"{exc}; on concrete chains: {exc2}")
     else:
-        b = apps[0].args[0]
-        btxt = " ".join([unparse(b)] + [unparse(d.value) for d in rd.closure(rd.uses(b)) if isinstance(d.value, ast.AST)])
-        if "BoostMatrix(" not in btxt or f"[{unparse(loop.target)}]" not in btxt.replace(" ", ""):
-            problems.append("the collected matrix is not BoostMatrix(current momentum of the loop's state)")
-        # the pool of momenta is re-boosted in every step
-        rebinds = [n for n in walk_function(loop) if isinstance(n, ast.Assign) and isinstance(n.value, ast.DictComp)]
-        ok_re = False
-        for r_ in rebinds:
-            v = r_.value
-            if isinstance(v.value, ast.Call) and unparse(v.value.func).endswith("ArrayMultiplication") and len(v.value.args) == 2 and not v.generators[0].ifs:
-                first_ok = isinstance(v.value.args[0], ast.Name) and isinstance(b, ast.Name) and rd.reaching(v.value.args[0]) == rd.reaching(b)
-                src_ok = unparse(v.generators[0].iter) == f"{unparse(r_.targets[0])}.items()"
-                ok_re = ok_re or (first_ok and src_ok)
-        if not ok_re:
-            problems.append("the momenta are not all transformed by the boost of this step before the next step")
-    ctx.verdict(not problems, "R-WIRING", f"{ch.qual}::chain", tree.loc(ch.node),
-                "compute_boost_chain: for every chain member, in order: boost = BoostMatrix(its momentum in the current frame), all pooled momenta boosted, boost collected", problems or None)
+        _confirm_on_instances(ctx, n_before, lambda probe: _boost_chain_on_instances(probe, tree, known), judge, "compute_boost_chain")
+    # 3. its order
     ids = tree.func("ampform.kinematics.lorentz::__get_boost_chain_ids")
-    txt = unparse(ids.node).replace(" ", "")
-    ok = "list(reversed(list_decay_chain_ids(topology,state_id)))" in txt and ".remove(" in txt and "incoming_edge_ids" in txt
-    ctx.verdict(ok, "R-WIRING", f"{ids.qual}::order", tree.loc(ids.node), "the boost chain runs from the first resonance down to the state (reversed decay chain without the initial state)")
+    sx, value, _ = _symex(tree, ids.qual, frozenset({"list_decay_chain_ids"}))
+    topo, state = ("param", ids.params[0]), ("param", ids.params[1])
+    before = len(judge.undecided)
+    alts = alternatives(value)
+    parsed = _seq_ops(alts[0][1]) if len(alts) == 1 else None
+    what = "the boost chain runs from the first resonance down to the state (reversed decay chain without the initial state)"
+    own = {("param", p_) for p_ in _params(ids)}
+    if parsed is not None and _is_call(parsed[0], "list_decay_chain_ids") and not parsed[0][3] and len(parsed[0][2]) == 2 and set(parsed[0][2]) == own and len(own) == 2:
+        topo, state = parsed[0][2]  # the roles of the private helper's two parameters: (topology, state) of the public function it calls
+    if parsed is None or not (_is_call(parsed[0], "list_decay_chain_ids") and parsed[0][2] == (topo, state) and not parsed[0][3]):
+        try:
+            _boost_ids_on_instances(ctx, tree, ids, what, known)
+        except AnalysisError as exc:
+            judge.cannot(f"{ids.qual}: the result `{show(value)[:70]}` is not list_decay_chain_ids(topology, state_id), reversed, without some elements; {exc}")
+    else:
+        _, rev, removed = parsed
+        incoming = ("attr", topo, "incoming_edge_ids")
+        odd = [r for r in removed if not contains_value(r, incoming)]
+        problems = []
+        if not rev:
+            problems.append("the decay chain is not reversed: it runs from the state up to the first resonance")
+        if not removed:
+            problems.append("the initial state is not removed from the chain")
+        if odd:
+            if all(_leaf_tree(r) for r in odd):
+                problems.append(f"`{show(odd[0])[:40]}` is removed from the chain, not the initial state (topology.incoming_edge_ids)")
+            else:
+                judge.cannot(f"{ids.qual}: the removed element `{show(odd[0])[:50]}`")
+        if len(removed) > 1 and not odd:
+            judge.cannot(f"{ids.qual}: {len(removed)} elements are removed from the chain")
+        if problems or len(judge.undecided) == before:
+            n_before = len(ctx.instances)
+            judge.decide(not problems, (value,), "R-WIRING", f"{ids.qual}::order", tree.loc(ids.node), what, problems or None)
+            _confirm_on_instances(ctx, n_before, lambda probe: _boost_ids_on_instances(probe, tree, ids, what, known), judge, "__get_boost_chain_ids")
+    judge.finish()
 
 
+def _confirm_on_instances(ctx: Check, n_before: int, evaluate, judge: Judge, who: str) -> None:
+    """A violation that was found by reading the generic step of a loop is confirmed by the evaluation on small concrete
+    instances (which does not depend on the spelling).  If the instances are all right, the two analyses disagree: the
+    violation is withdrawn and the rule says "cannot decide"."""
+    mine = [i for i in ctx.instances[n_before:] if i.verdict == "violation"]
+    if not mine:
+        return
+    probe = Check(ctx.pid, quiet=True, write=False)
+    try:
+        evaluate(probe)
+    except AnalysisError:
+        return
+    if not any(i.verdict in {"violation", "known"} for i in probe.instances):
+        for i in mine:
+            ctx.instances.remove(i)
+        judge.cannot(f"{who}: the generic step looks wrong ({str(mine[0].detail)[:100]}) but the result is right on small concrete instances")
+
+
+def _boost_ids_on_instances(ctx: Check, tree: Tree, ids: FuncInfo, what: str, known: tuple) -> None:
+    """__get_boost_chain_ids evaluated on concrete decay chains [state, r1, ..., initial] (list_decay_chain_ids walks up to
+    the incoming edge - the recorded invariant - and `topology.incoming_edge_ids` is that one edge): the result must be the
+    chain without the initial state, from the first resonance down to the state."""
+    wrong = []
+    for n in range(1, 5):
+        chain = tuple(("sym", f"state{k}") for k in range(n))  # state0 = the state itself ... state(n-1) = the initial state
+        stubs = {}
+        params = [("param", p) for p in _params(ids)]
+        for a in params:
+            for b in params:
+                if a != b:
+                    stubs[("call", ("global", "ampform.helicity.decay::list_decay_chain_ids"), (a, b), ())] = ("list", chain)
+            stubs[("attr", a, "incoming_edge_ids")] = ("set", (chain[-1],))
+        sx = SymEx(tree, atoms=frozenset({"list_decay_chain_ids"}), stubs=stubs, unroll=8)
+        try:
+            value, _ = sx.run(ids)
+        except AnalysisError:
+            raise
+        except Exception as exc:  # noqa: BLE001
+            raise AnalysisError(f"symbolic execution on a chain of {n} states failed ({exc!r})") from exc
+        got = sx.as_items(value) if isinstance(value, tuple) else None
+        if got is None or any(x[0] != "sym" for x in got) or sx.imprecise:
+            raise AnalysisError(f"the value on the chain {[c[1] for c in chain]} is `{show(value)[:60]}`" + (f" ({sx.imprecise[0]})" if sx.imprecise else ""))
+        want = list(reversed(chain[:-1]))
+        if list(got) != want:
+            wrong.append({"decay chain (state ... initial state)": [c[1] for c in chain], "result": [x[1] for x in got], "expected": [x[1] for x in want]})
+    ctx.verdict(not wrong, "R-WIRING", f"{ids.qual}::order", tree.loc(ids.node), what + " (decided on concrete chains of 1-4 states)", wrong[:1] or None)
+
+
+def _leaf_tree(v) -> bool:
+    """Only calls of library / known constructors on plain operands (parameters, literals, attribute chains)."""
+    if v[0] == "call":
+        return all(_leaf_tree(a) for a in v[2]) and all(_leaf_tree(x) for _, x in v[3])
+    if v[0] in {"star", "unop"}:
+        return _leaf_tree(v[-1])
+    return _leaf(v)
+
+
+def _boost_chain_on_instances(ctx: Check, tree: Tree, known: tuple) -> None:
+    """compute_boost_chain evaluated (sa/symex.py, stubs + unroll) on concrete chains of 0..3 distinct state ids a, b, c:
+    the result must be  [B1, B2, B3]  with  B1 = BoostMatrix(P(a)),  B2 = BoostMatrix(B1 . P(b)),
+    B3 = BoostMatrix(B2 . B1 . P(c))  and P(i) = get_four_momentum_sum(topology, momenta, i) - whatever loop, recursion,
+    queue or generator computes it, and whether momenta that are no longer needed are still boosted or not."""
+    ch = tree.func("ampform.kinematics.lorentz::compute_boost_chain")
+    topo, momenta, state = (("param", p) for p in ch.params[:3])
+    key = f"{ch.qual}::chain"
+    what = "compute_boost_chain: for every chain member, in order: boost = BoostMatrix(its momentum in the current frame), all pooled momenta boosted, boost collected"
+    ids_q = "ampform.kinematics.lorentz::__get_boost_chain_ids"
+    ids_fn = tree.func(ids_q)
+    order = [topo if p == ids_fn.params[0] else state for p in ids_fn.params] if len(ids_fn.params) == 2 else [topo, state]
+    P = lambda i: ("call", ("global", "ampform.kinematics.lorentz::get_four_momentum_sum"), (topo, momenta, i), ())  # noqa: E731, N806
+    B = lambda p_: ("call", ("global", "ampform.kinematics.lorentz::BoostMatrix"), (p_,), ())  # noqa: E731, N806
+    AM = lambda b, p_: ("call", ("global", "ampform.sympy._array_expressions::ArrayMultiplication"), (b, p_), ())  # noqa: E731, N806
+    wrong = []
+    for n in range(4):
+        chain = tuple(("sym", f"state{k}") for k in range(n))
+        stubs = {}
+        for args in ((topo, state), (state, topo), tuple(order)):
+            stubs[("call", ("global", ids_q), args, ())] = ("list", chain)
+        sx = SymEx(tree, atoms=frozenset({"__get_boost_chain_ids", "get_four_momentum_sum"}), stubs=stubs, unroll=8)
+        try:
+            value, _ = sx.run(ch)
+        except AnalysisError:
+            raise
+        except Exception as exc:  # noqa: BLE001
+            raise AnalysisError(f"{ch.qual}: symbolic execution on a chain of {n} states failed ({exc!r})") from exc
+        want, boosts = [], []
+        for i in chain:
+            p_ = P(i)
+            for b in boosts:
+                p_ = AM(b, p_)
+            boosts.append(B(p_))
+            want.append(boosts[-1])
+        got = sx.as_items(value) if isinstance(value, tuple) else None
+        if got is None or any(unwrap(x)[2] is not x for x in got) or not_followed(value, known) is not None or sx.imprecise:
+            raise AnalysisError(f"{ch.qual}: the value on a chain of {n} states is `{show(value)[:70]}`" + (f" ({sx.imprecise[0]})" if sx.imprecise else ""))
+        if list(got) != want:
+            wrong.append({"chain": [c[1] for c in chain], "result": [show(x)[:160] for x in got], "expected": [show(x)[:160] for x in want]})
+    ctx.verdict(not wrong, "R-WIRING", key, tree.loc(ch.node), what + " (decided on concrete chains of 0-3 states)", wrong[:1] or None)
+
+
+def _boost_chain(ctx: Check, tree: Tree, judge: Judge, known: tuple) -> None:
+    ch = tree.func("ampform.kinematics.lorentz::compute_boost_chain")
+    sx, value, _ = _symex(tree, ch.qual, frozenset({"__get_boost_chain_ids", "get_four_momentum_sum"}))
+    before = len(judge.undecided)
+    topo, momenta, state = (("param", p) for p in ch.params[:3])
+    ids = ("call", ("global", "ampform.kinematics.lorentz::__get_boost_chain_ids"), (topo, state), ())
+    # the private helper may have its parameters in another order: what counts is that it gets this topology and this state
+    seen_ids = [c for v_ in [value, *[x for info_ in sx.loops.values() for x in info_.init.values()]] for c in calls_of(v_, "__get_boost_chain_ids") if not c[3] and set(c[2]) == {topo, state}]
+    if seen_ids:
+        ids = seen_ids[0]
+    key = f"{ch.qual}::chain"
+    what = "compute_boost_chain: for every chain member, in order: boost = BoostMatrix(its momentum in the current frame), all pooled momenta boosted, boost collected"
+    alts = alternatives(value)
+    items = sx.as_items(alts[0][1]) if len(alts) == 1 else None
+    if items is None or len(items) != 1 or items[0][0] != "foreach":
+        raise AnalysisError(f"{ch.qual}: the result `{show(value)[:70]}` is not a list with one boost per step of one loop")
+    es, cs, boost = unwrap(items[0])
+    loops = [info for info in sx.loops.values() if info.kind == "foreach" and info.each in es]
+    if len(es) == 1 and not loops and _is_call(boost, "BoostMatrix") and not_followed(boost, known) is None and _all_of(es[0], ids) is not None:
+        # a comprehension: every boost is computed from values that exist before the first boost
+        judge.decide(False, (value,), "R-WIRING", key, tree.loc(ch.node), what,
+                     ["the collected matrix is not BoostMatrix(current momentum of the loop's state): it does not depend on the boosts made so far",
+                      "the momenta are not all transformed by the boost of this step before the next step"])
+        return
+    if len(es) != 1 or len(loops) != 1:
+        raise AnalysisError(f"{ch.qual}: expected `for state in chain: ...; return <list>`")
+    info, each = loops[0], es[0]
+    problems = []
+    # what the loop runs over: the chain ids / the positions of the chain
+    it = each[1]
+    length = ("call", ("builtin", "len"), (ids,), ())
+    if _all_of(each, ids) == "elements":
+        mode, index = "id", each
+    elif it == ("call", ("builtin", "range"), (length,), ()):
+        mode, index = "position", each
+    elif _all_of(each, ids) == "enumerate":
+        mode, index = "enumerate", None
+    else:
+        parsed = _seq_ops(it)
+        if parsed is not None and parsed[0] == ids and (parsed[1] or parsed[2]):
+            problems.append("the loop does not run over the boost chain ids (first resonance ... state)" + (" - reversed" if parsed[1] else ""))
+            mode, index = "id", each
+        elif _all_of(each, ids) == "part":
+            problems.append("the loop does not run over the boost chain ids (first resonance ... state): only a part")
+            mode, index = "id", each
+        else:
+            raise AnalysisError(f"{ch.qual}: the loop runs over `{show(it)[:60]}`, not over __get_boost_chain_ids(topology, state_id)")
+    if cs:
+        problems.append(f"not every boost of the chain is collected (only under `{show_pc(cs)[:50]}`)")
+    # the collected matrix: BoostMatrix(pool[current])
+    pools = [n for n in info.init if contains_value(boost, info.head(n))]
+    if not (_is_call(boost, "BoostMatrix") and len(boost[2]) == 1 and not boost[3]):
+        raise AnalysisError(f"{ch.qual}: what is collected (`{show(boost)[:60]}`) is not a BoostMatrix")
+    current = boost[2][0]
+    if len(pools) != 1 or not (current[0] == "sub" and current[1] == info.head(pools[0])):
+        if not pools and not_followed(current, known) is None:
+            problems.append("the collected matrix is not BoostMatrix(current momentum of the loop's state): it does not depend on the boosts made so far")
+            judge.decide(False, (value,), "R-WIRING", key, tree.loc(ch.node), what, problems)
+            return
+        raise AnalysisError(f"{ch.qual}: the boosted momentum `{show(current)[:60]}` is not an entry of one pool of momenta carried through the loop")
+    pool, head = pools[0], info.head(pools[0])
+    idx = current[2]
+    if mode == "enumerate":
+        mode = "position" if idx == ("item", each, 0) else "id" if idx == ("item", each, 1) else None
+        index = idx
+        if mode is None:
+            raise AnalysisError(f"{ch.qual}: the pool is indexed by `{show(idx)[:40]}`")
+    if idx != index:
+        if _leaf(idx) or is_const(idx):
+            problems.append(f"the collected matrix is not BoostMatrix(current momentum of the loop's state): the pool is read at `{show(idx)[:30]}`")
+        else:
+            judge.cannot(f"{ch.qual}: the pool is indexed by `{show(idx)[:40]}`")
+    # the pool: one summed momentum per chain member ...
+    init = info.init[pool]
+    ok_init = False
+    entries = init[1] if init[0] in {"dictcomp", "list", "tuple"} else ()
+    if len(entries) == 1 and entries[0][0] == "foreach":
+        e_es, e_cs, elem = unwrap(entries[0])
+        if len(e_es) == 1 and _all_of(e_es[0], ids) == "elements" and not e_cs:
+            momentum = ("call", ("global", "ampform.kinematics.lorentz::get_four_momentum_sum"), (topo, momenta, e_es[0]), ())
+            ok_init = (mode == "id" and init[0] == "dictcomp" and elem == ("tuple", (e_es[0], momentum))) or (mode == "position" and init[0] in {"list", "tuple"} and elem == momentum)
+    if not ok_init:
+        judge.cannot(f"{ch.qual}: the initial pool `{show(init)[:70]}` is not one get_four_momentum_sum(topology, momenta, id) per chain member ({'keyed by id' if mode == 'id' else 'in chain order'})")
+    # ... all of which are transformed by the boost of the step before the next step
+    end = info.end.get(pool)
+    ok_end = None
+    if end is None or end == head:
+        ok_end = False
+    else:
+        entries = end[1] if end[0] in {"dictcomp", "list", "tuple"} else ()
+        if len(entries) == 1 and entries[0][0] == "foreach":
+            e_es, e_cs, elem = unwrap(entries[0])
+            if len(e_es) == 1:
+                e = e_es[0]
+                if mode == "id" and end[0] == "dictcomp" and _all_of(e, head) == "items":
+                    k_, p_ = ("item", e, 0), ("item", e, 1)
+                    shape = elem[0] == "tuple" and len(elem[1]) == 2 and elem[1][0] == k_
+                    new = elem[1][1] if shape else None
+                elif mode == "id" and end[0] == "dictcomp" and _all_of(e, head) == "elements":
+                    # iteration over the keys: {i: f(pool[i]) for i in pool}
+                    p_ = ("sub", head, e)
+                    new = elem[1][1] if elem[0] == "tuple" and len(elem[1]) == 2 and elem[1][0] == e else None
+                elif mode == "position" and end[0] in {"list", "tuple"} and _all_of(e, head) == "elements":
+                    p_, new = e, elem
+                else:
+                    new = None
+                if new is not None and _is_call(new, "ArrayMultiplication") and not new[3] and len(new[2]) == 2:
+                    if e_cs:
+                        ok_end = None  # some momenta are left out: fine if they are no longer needed - not decided here
+                    elif new[2] == (boost, p_):
+                        ok_end = True
+                    elif set(new[2]) == {boost, p_} or (new[2][1] == p_ and _is_call(new[2][0], "BoostMatrix")):
+                        ok_end = False
+    if ok_end is None:
+        judge.cannot(f"{ch.qual}: the pool continues as `{show(end)[:70] if end is not None else '?'}`")
+    elif not ok_end:
+        problems.append("the momenta are not all transformed by the boost of this step before the next step")
+    if problems or len(judge.undecided) == before:
+        judge.decide(not problems, (value, init, end if end is not None else NONE), "R-WIRING", key, tree.loc(ch.node), what, problems or None)
+
+
+def _interpolated_parts(node: ast.AST, inl: Inliner, depth: int = 0) -> list[ast.AST] | None:
+    """The non-literal pieces of a text that is built by an f-string, `+`, `%`, `.format(...)`, `sep.join([...])` or a
+    local name bound to one of those; [] for a literal; None if the construction is not understood."""
+    if isinstance(node, ast.Constant):
+        return [] if isinstance(node.value, (str, int, float)) else None
+    if depth > 6:
+        return None
+    if isinstance(node, ast.JoinedStr):
+        return [p.value for p in node.values if isinstance(p, ast.FormattedValue)]
+    if isinstance(node, ast.BinOp) and isinstance(node.op, (ast.Add, ast.Mod)):
+        out = []
+        for side in (node.left, node.right):
+            sub = _interpolated_parts(side, inl, depth + 1)
+            out += [side] if sub is None else sub
+        return out
+    if isinstance(node, ast.Tuple):
+        out = []
+        for e in node.elts:
+            sub = _interpolated_parts(e, inl, depth + 1)
+            out += [e] if sub is None else sub
+        return out
+    if isinstance(node, ast.Call) and isinstance(node.func, ast.Attribute) and node.func.attr == "format":
+        out = _interpolated_parts(node.func.value, inl, depth + 1)
+        if out is None:
+            return None
+        for a in [*node.args, *[k.value for k in node.keywords]]:
+            sub = _interpolated_parts(a, inl, depth + 1)
+            out += [a] if sub is None else sub
+        return out
+    if isinstance(node, ast.Call) and isinstance(node.func, ast.Attribute) and node.func.attr == "join" and len(node.args) == 1 and isinstance(node.func.value, ast.Constant):
+        seq = node.args[0]
+        elts = seq.elts if isinstance(seq, (ast.List, ast.Tuple)) else [seq.elt] if isinstance(seq, (ast.ListComp, ast.GeneratorExp)) else None
+        if elts is None:
+            return None
+        out = []
+        for e in elts:
+            sub = _interpolated_parts(e, inl, depth + 1)
+            out += [e] if sub is None else sub
+        return out
+    if isinstance(node, ast.Name):
+        d = inl.single_def(node)
+        if d is not None and d.kind == "assign" and d.index is None and isinstance(d.value, ast.AST):
+            sub = _interpolated_parts(d.value, inl, depth + 1)
+            return [node] if sub is None else sub
+        return [node]
+    if isinstance(node, ast.Call) and isinstance(node.func, ast.Name) and node.func.id == "str" and len(node.args) == 1:
+        return [node.args[0]]
+    return None
+
+
+@_failclosed
 def check_symbols_not_split(ctx: Check, tree: Tree) -> None:
     """R-SYMSPLIT: sp.symbols() splits its argument at commas and spaces.  A name that contains text
     interpolated from a naming function may contain both: the helicity / boost-chain suffix of a state
     below a nested resonance is e.g. `_2^23,123`.  `a, b, c = sp.symbols(f"a{suffix} b{suffix} c{suffix}")`
     then raises `too many values to unpack` - formulating an axis-angle aligned model fails for every
     decay with four or more final states.  Interpolated parts of an sp.symbols() string must be
-    separator-free by construction: integer ids, or functions that join digits without separator."""
+    separator-free by construction: integer ids, or functions that join digits without separator.
+    The text may be built by an f-string, concatenation, `%`, `.format` or `join`; a first argument whose construction
+    is not understood is an ANALYSIS-ERROR (it is not assumed to be separator-free)."""
     from ..dataflow import RD as _RD
 
     def may_contain_separator(qual: str, depth: int = 0) -> bool:
@@ -1393,7 +2989,7 @@ def check_symbols_not_split(ctx: Check, tree: Tree) -> None:
                 isinstance(getattr(n, "_parent", None), ast.Expr)):
                 par = getattr(n, "_parent", None)
                 # separators that end up in the returned text: f-string parts, join separators, concatenation
-                if isinstance(par, (ast.JoinedStr, ast.BinOp)) or (isinstance(par, ast.Attribute) and par.attr == "join"):
+                if isinstance(par, (ast.JoinedStr, ast.BinOp)) or (isinstance(par, ast.Attribute) and par.attr in {"join", "format"}):
                     return True
             if isinstance(n, ast.Call):
                 callee = tree.callee(n, tree.func_of(n) or fn)
@@ -1402,29 +2998,46 @@ def check_symbols_not_split(ctx: Check, tree: Tree) -> None:
         return False
 
     n = 0
+    undecided = []
     for q, fn in sorted(tree.funcs.items()):
         if not q.startswith("ampform") or fn.outer is not None:
             continue
         rd = None
-        for call in [c for c in walk_function(fn.node, nested=True) if isinstance(c, ast.Call) and unparse(c.func) in {"sp.symbols", "sympy.symbols", "symbols"} and c.args and isinstance(c.args[0], ast.JoinedStr)]:
+        for call in [c for c in walk_function(fn.node, nested=True) if isinstance(c, ast.Call) and c.args and not isinstance(c.args[0], ast.Constant)]:
+            try:
+                target = tree.callee(call, tree.func_of(call) or fn)
+            except Exception:  # noqa: BLE001
+                target = None
+            if target != "sympy.symbols" and not (target is None and unparse(call.func) in {"sp.symbols", "sympy.symbols", "symbols"}):
+                continue
             rd = rd or _RD(fn.node)
+            scope = tree.func_of(call) or fn
+            inl = Inliner(scope.node, rd if scope is fn else None)
+            parts = _interpolated_parts(call.args[0], inl)
+            if parts is None:
+                undecided.append(f"{q}: the names given to `{unparse(call)[:60]}` are built in a way that is not understood")
+                continue
+            if not parts:
+                continue
             n += 1
             bad = []
-            for part in call.args[0].values:
-                if not isinstance(part, ast.FormattedValue):
-                    continue
-                exprs = [part.value] + [d.value for d in rd.closure(rd.uses(part.value)) if isinstance(d.value, ast.AST)]
+            for part in parts:
+                exprs = [part] + [d.value for d in rd.closure(rd.uses(part)) if isinstance(d.value, ast.AST)]
                 for e in exprs:
                     for c in [x for x in ast.walk(e) if isinstance(x, ast.Call)]:
                         callee = tree.callee(c, tree.func_of(call) or fn)
                         if callee and callee.startswith("ampform") and may_contain_separator(callee):
-                            bad.append(f"`{{{unparse(part.value)}}}` comes from {callee.split('::')[-1]}(), whose result can contain `,` or a space")
-            ctx.verdict(not bad, "R-SYMSPLIT", f"{q}::symbols-{len(call.args[0].values)}", tree.loc(call),
+                            bad.append(f"`{{{unparse(part)}}}` comes from {callee.split('::')[-1]}(), whose result can contain `,` or a space")
+            size = len(call.args[0].values) if isinstance(call.args[0], ast.JoinedStr) else len(parts)
+            ctx.verdict(not bad, "R-SYMSPLIT", f"{q}::symbols-{size}", tree.loc(call),
                         f"{q}: `{unparse(call)[:70]}` interpolates only separator-free text into sp.symbols()", sorted(set(bad)) or None)
-    if n == 0:
+    if n == 0 and not undecided:
         ctx.ok("R-SYMSPLIT", "src/ampform", "no sp.symbols() call with interpolated text")
+    if undecided:
+        raise AnalysisError("; ".join(undecided[:3]))
 
 
+@_failclosed
 def check_full_range(ctx: Check, tree: Tree) -> None:
     """R-FULLRANGE: a Wigner-D matrix is unitary only over the complete index set -s..s.  Every
     summation pool of the alignment rotations is therefore `create_spin_range(s)` without the
@@ -1445,6 +3058,8 @@ def check_full_range(ctx: Check, tree: Tree) -> None:
         for k in call.keywords:
             if k.arg == name:
                 return k.value
+        if any(k.arg is None for k in call.keywords) or any(isinstance(a, ast.Starred) for a in call.args):
+            raise AnalysisError(f"`{unparse(call)[:60]}` passes its arguments through */**: whether `{name}` is switched on is not decided")
         if name in callee_params:
             i = callee_params.index(name)
             if i < len(call.args):
@@ -1498,6 +3113,7 @@ def check_full_range(ctx: Check, tree: Tree) -> None:
         raise AnalysisError("no summation pool built with create_spin_range found in ampform.helicity.align")
 
 
+@_failclosed
 def check_massless_rest_frame(ctx: Check, tree: Tree) -> None:
     """R-RESTFRAME: the Wigner rotation of a final state is computed with a boost into THAT state's
     rest frame (compute_wigner_rotation_matrix: BoostMatrix(NegativeMomentum(momenta[state_id]))).  A
